@@ -82,6 +82,11 @@ let rec leb n0 m =
              | O -> false
              | S m' -> leb n' m')
 
+(** val ltb : nat -> nat -> bool **)
+
+let ltb n0 m =
+  leb (S n0) m
+
 (** val divmod : nat -> nat -> nat -> nat -> nat * nat **)
 
 let rec divmod x y q u =
@@ -108,6 +113,15 @@ type n =
 
 module Nat =
  struct
+  (** val sub : nat -> nat -> nat **)
+
+  let rec sub n0 m =
+    match n0 with
+    | O -> n0
+    | S k -> (match m with
+              | O -> n0
+              | S l -> sub k l)
+
   (** val eqb : nat -> nat -> bool **)
 
   let rec eqb n0 m =
@@ -127,6 +141,42 @@ module Nat =
     | S n' -> (match m with
                | O -> false
                | S m' -> leb n' m')
+
+  (** val ltb : nat -> nat -> bool **)
+
+  let ltb n0 m =
+    leb (S n0) m
+
+  (** val min : nat -> nat -> nat **)
+
+  let rec min n0 m =
+    match n0 with
+    | O -> O
+    | S n' -> (match m with
+               | O -> O
+               | S m' -> S (min n' m'))
+
+  (** val divmod : nat -> nat -> nat -> nat -> nat * nat **)
+
+  let rec divmod x y q u =
+    match x with
+    | O -> (q, u)
+    | S x' ->
+      (match u with
+       | O -> divmod x' y (S q) y
+       | S u' -> divmod x' y q u')
+
+  (** val div : nat -> nat -> nat **)
+
+  let div x y = match y with
+  | O -> y
+  | S y' -> fst (divmod x y' O y')
+
+  (** val modulo : nat -> nat -> nat **)
+
+  let modulo x = function
+  | O -> x
+  | S y' -> sub y' (snd (divmod x y' O y'))
  end
 
 module Pos =
@@ -315,6 +365,46 @@ module Coq_Pos =
              | XH -> true
              | _ -> false)
 
+  (** val leb : positive -> positive -> bool **)
+
+  let leb x y =
+    match compare x y with
+    | Gt -> false
+    | _ -> true
+
+  (** val sqrtrem_step :
+      (positive -> positive) -> (positive -> positive) -> (positive * mask)
+      -> positive * mask **)
+
+  let sqrtrem_step f g = function
+  | (s, y) ->
+    (match y with
+     | IsPos r ->
+       let s' = XI (XO s) in
+       let r' = g (f r) in
+       if leb s' r' then ((XI s), (sub_mask r' s')) else ((XO s), (IsPos r'))
+     | _ -> ((XO s), (sub_mask (g (f XH)) (XO (XO XH)))))
+
+  (** val sqrtrem : positive -> positive * mask **)
+
+  let rec sqrtrem = function
+  | XI p0 ->
+    (match p0 with
+     | XI p1 -> sqrtrem_step (fun x -> XI x) (fun x -> XI x) (sqrtrem p1)
+     | XO p1 -> sqrtrem_step (fun x -> XO x) (fun x -> XI x) (sqrtrem p1)
+     | XH -> (XH, (IsPos (XO XH))))
+  | XO p0 ->
+    (match p0 with
+     | XI p1 -> sqrtrem_step (fun x -> XI x) (fun x -> XO x) (sqrtrem p1)
+     | XO p1 -> sqrtrem_step (fun x -> XO x) (fun x -> XO x) (sqrtrem p1)
+     | XH -> (XH, (IsPos XH)))
+  | XH -> (XH, IsNul)
+
+  (** val sqrt : positive -> positive **)
+
+  let sqrt p =
+    fst (sqrtrem p)
+
   (** val coq_Nsucc_double : n -> n **)
 
   let coq_Nsucc_double = function
@@ -326,6 +416,24 @@ module Coq_Pos =
   let coq_Ndouble = function
   | N0 -> N0
   | Npos p -> Npos (XO p)
+
+  (** val coq_lor : positive -> positive -> positive **)
+
+  let rec coq_lor p q =
+    match p with
+    | XI p0 ->
+      (match q with
+       | XI q0 -> XI (coq_lor p0 q0)
+       | XO q0 -> XI (coq_lor p0 q0)
+       | XH -> p)
+    | XO p0 ->
+      (match q with
+       | XI q0 -> XI (coq_lor p0 q0)
+       | XO q0 -> XO (coq_lor p0 q0)
+       | XH -> XI p0)
+    | XH -> (match q with
+             | XO q0 -> XI q0
+             | _ -> q)
 
   (** val coq_land : positive -> positive -> n **)
 
@@ -499,6 +607,13 @@ module N =
     | Gt -> n'
     | _ -> n0
 
+  (** val max : n -> n -> n **)
+
+  let max n0 n' =
+    match compare n0 n' with
+    | Gt -> n0
+    | _ -> n'
+
   (** val div2 : n -> n **)
 
   let div2 = function
@@ -553,6 +668,21 @@ module N =
 
   let modulo a b =
     snd (div_eucl a b)
+
+  (** val sqrt : n -> n **)
+
+  let sqrt = function
+  | N0 -> N0
+  | Npos p -> Npos (Coq_Pos.sqrt p)
+
+  (** val coq_lor : n -> n -> n **)
+
+  let coq_lor n0 m =
+    match n0 with
+    | N0 -> m
+    | Npos p -> (match m with
+                 | N0 -> n0
+                 | Npos q -> Npos (Coq_Pos.coq_lor p q))
 
   (** val coq_land : n -> n -> n **)
 
@@ -637,6 +767,12 @@ let rec nth_error l = function
 | S n1 -> (match l with
            | [] -> None
            | _ :: l0 -> nth_error l0 n1)
+
+(** val rev : 'a1 list -> 'a1 list **)
+
+let rec rev = function
+| [] -> []
+| x :: l' -> app (rev l') (x :: [])
 
 (** val concat : 'a1 list list -> 'a1 list **)
 
@@ -799,6 +935,11 @@ let wrap w x =
 let u8 =
   wrap (Npos (XO (XO (XO XH))))
 
+(** val u16 : n -> n **)
+
+let u16 =
+  wrap (Npos (XO (XO (XO (XO XH)))))
+
 (** val u32 : n -> n **)
 
 let u32 =
@@ -920,6 +1061,12 @@ let tUPLE_V_RANGE =
 let dEG_V_LIMIT =
   Npos (XO (XO (XO (XO (XO (XO (XO (XO (XO (XO (XO (XO (XO (XO (XO (XO (XO
     (XO (XO (XO XH))))))))))))))))))))
+
+(** val dEFAULT_MEMORY : n **)
+
+let dEFAULT_MEMORY =
+  Npos (XO (XO (XO (XO (XO (XO (XO (XO (XO (XO (XO (XO (XO (XO (XO (XO (XO
+    (XO (XO (XO (XO (XI (XO XH)))))))))))))))))))))))
 
 (** val dEG_F : n list **)
 
@@ -1055,1296 +1202,6 @@ let oti_validb f t0 z al =
       (N.eqb (N.modulo t0 al) N0))
     (N.leb (cdiv (cdiv f t0) z) (Npos (XI (XI (XO (XO (XI (XO (XI (XO (XO (XO
       (XI (XI (XI (XO (XI XH)))))))))))))))))
-
-(** val oCT_EXP : n list **)
-
-let oCT_EXP =
-  (Npos XH) :: ((Npos (XO XH)) :: ((Npos (XO (XO XH))) :: ((Npos (XO (XO (XO
-    XH)))) :: ((Npos (XO (XO (XO (XO XH))))) :: ((Npos (XO (XO (XO (XO (XO
-    XH)))))) :: ((Npos (XO (XO (XO (XO (XO (XO XH))))))) :: ((Npos (XO (XO
-    (XO (XO (XO (XO (XO XH)))))))) :: ((Npos (XI (XO (XI (XI
-    XH))))) :: ((Npos (XO (XI (XO (XI (XI XH)))))) :: ((Npos (XO (XO (XI (XO
-    (XI (XI XH))))))) :: ((Npos (XO (XO (XO (XI (XO (XI (XI
-    XH)))))))) :: ((Npos (XI (XO (XI (XI (XO (XO (XI XH)))))))) :: ((Npos (XI
-    (XI (XI (XO (XO (XO (XO XH)))))))) :: ((Npos (XI (XI (XO (XO
-    XH))))) :: ((Npos (XO (XI (XI (XO (XO XH)))))) :: ((Npos (XO (XO (XI (XI
-    (XO (XO XH))))))) :: ((Npos (XO (XO (XO (XI (XI (XO (XO
-    XH)))))))) :: ((Npos (XI (XO (XI (XI (XO XH)))))) :: ((Npos (XO (XI (XO
-    (XI (XI (XO XH))))))) :: ((Npos (XO (XO (XI (XO (XI (XI (XO
-    XH)))))))) :: ((Npos (XI (XO (XI (XO (XI (XI XH))))))) :: ((Npos (XO (XI
-    (XO (XI (XO (XI (XI XH)))))))) :: ((Npos (XI (XO (XO (XI (XO (XO (XI
-    XH)))))))) :: ((Npos (XI (XI (XI (XI (XO (XO (XO XH)))))))) :: ((Npos (XI
-    XH)) :: ((Npos (XO (XI XH))) :: ((Npos (XO (XO (XI XH)))) :: ((Npos (XO
-    (XO (XO (XI XH))))) :: ((Npos (XO (XO (XO (XO (XI XH)))))) :: ((Npos (XO
-    (XO (XO (XO (XO (XI XH))))))) :: ((Npos (XO (XO (XO (XO (XO (XO (XI
-    XH)))))))) :: ((Npos (XI (XO (XI (XI (XI (XO (XO XH)))))))) :: ((Npos (XI
-    (XI (XI (XO (XO XH)))))) :: ((Npos (XO (XI (XI (XI (XO (XO
-    XH))))))) :: ((Npos (XO (XO (XI (XI (XI (XO (XO XH)))))))) :: ((Npos (XI
-    (XO (XI (XO (XO XH)))))) :: ((Npos (XO (XI (XO (XI (XO (XO
-    XH))))))) :: ((Npos (XO (XO (XI (XO (XI (XO (XO XH)))))))) :: ((Npos (XI
-    (XO (XI (XO (XI XH)))))) :: ((Npos (XO (XI (XO (XI (XO (XI
-    XH))))))) :: ((Npos (XO (XO (XI (XO (XI (XO (XI XH)))))))) :: ((Npos (XI
-    (XO (XI (XO (XI (XI (XO XH)))))))) :: ((Npos (XI (XI (XI (XO (XI (XI
-    XH))))))) :: ((Npos (XO (XI (XI (XI (XO (XI (XI XH)))))))) :: ((Npos (XI
-    (XO (XO (XO (XO (XO (XI XH)))))))) :: ((Npos (XI (XI (XI (XI (XI (XO (XO
-    XH)))))))) :: ((Npos (XI (XI (XO (XO (XO XH)))))) :: ((Npos (XO (XI (XI
-    (XO (XO (XO XH))))))) :: ((Npos (XO (XO (XI (XI (XO (XO (XO
-    XH)))))))) :: ((Npos (XI (XO XH))) :: ((Npos (XO (XI (XO XH)))) :: ((Npos
-    (XO (XO (XI (XO XH))))) :: ((Npos (XO (XO (XO (XI (XO XH)))))) :: ((Npos
-    (XO (XO (XO (XO (XI (XO XH))))))) :: ((Npos (XO (XO (XO (XO (XO (XI (XO
-    XH)))))))) :: ((Npos (XI (XO (XI (XI (XI (XO XH))))))) :: ((Npos (XO (XI
-    (XO (XI (XI (XI (XO XH)))))))) :: ((Npos (XI (XO (XO (XI (XO (XI
-    XH))))))) :: ((Npos (XO (XI (XO (XO (XI (XO (XI XH)))))))) :: ((Npos (XI
-    (XO (XO (XI (XI (XI (XO XH)))))))) :: ((Npos (XI (XI (XI (XI (XO (XI
-    XH))))))) :: ((Npos (XO (XI (XI (XI (XI (XO (XI XH)))))))) :: ((Npos (XI
-    (XO (XO (XO (XO (XI (XO XH)))))))) :: ((Npos (XI (XI (XI (XI (XI (XO
-    XH))))))) :: ((Npos (XO (XI (XI (XI (XI (XI (XO XH)))))))) :: ((Npos (XI
-    (XO (XO (XO (XO (XI XH))))))) :: ((Npos (XO (XI (XO (XO (XO (XO (XI
-    XH)))))))) :: ((Npos (XI (XO (XO (XI (XI (XO (XO XH)))))))) :: ((Npos (XI
-    (XI (XI (XI (XO XH)))))) :: ((Npos (XO (XI (XI (XI (XI (XO
-    XH))))))) :: ((Npos (XO (XO (XI (XI (XI (XI (XO XH)))))))) :: ((Npos (XI
-    (XO (XI (XO (XO (XI XH))))))) :: ((Npos (XO (XI (XO (XI (XO (XO (XI
-    XH)))))))) :: ((Npos (XI (XO (XO (XI (XO (XO (XO XH)))))))) :: ((Npos (XI
-    (XI (XI XH)))) :: ((Npos (XO (XI (XI (XI XH))))) :: ((Npos (XO (XO (XI
-    (XI (XI XH)))))) :: ((Npos (XO (XO (XO (XI (XI (XI XH))))))) :: ((Npos
-    (XO (XO (XO (XO (XI (XI (XI XH)))))))) :: ((Npos (XI (XO (XI (XI (XI (XI
-    (XI XH)))))))) :: ((Npos (XI (XI (XI (XO (XO (XI (XI XH)))))))) :: ((Npos
-    (XI (XI (XO (XO (XI (XO (XI XH)))))))) :: ((Npos (XI (XI (XO (XI (XI (XI
-    (XO XH)))))))) :: ((Npos (XI (XI (XO (XI (XO (XI XH))))))) :: ((Npos (XO
-    (XI (XI (XO (XI (XO (XI XH)))))))) :: ((Npos (XI (XO (XO (XO (XI (XI (XO
-    XH)))))))) :: ((Npos (XI (XI (XI (XI (XI (XI XH))))))) :: ((Npos (XO (XI
-    (XI (XI (XI (XI (XI XH)))))))) :: ((Npos (XI (XO (XO (XO (XO (XI (XI
-    XH)))))))) :: ((Npos (XI (XI (XI (XI (XI (XO (XI XH)))))))) :: ((Npos (XI
-    (XI (XO (XO (XO (XI (XO XH)))))))) :: ((Npos (XI (XI (XO (XI (XI (XO
-    XH))))))) :: ((Npos (XO (XI (XI (XO (XI (XI (XO XH)))))))) :: ((Npos (XI
-    (XO (XO (XO (XI (XI XH))))))) :: ((Npos (XO (XI (XO (XO (XO (XI (XI
-    XH)))))))) :: ((Npos (XI (XO (XO (XI (XI (XO (XI XH)))))))) :: ((Npos (XI
-    (XI (XI (XI (XO (XI (XO XH)))))))) :: ((Npos (XI (XI (XO (XO (XO (XO
-    XH))))))) :: ((Npos (XO (XI (XI (XO (XO (XO (XO XH)))))))) :: ((Npos (XI
-    (XO (XO (XO XH))))) :: ((Npos (XO (XI (XO (XO (XO XH)))))) :: ((Npos (XO
-    (XO (XI (XO (XO (XO XH))))))) :: ((Npos (XO (XO (XO (XI (XO (XO (XO
-    XH)))))))) :: ((Npos (XI (XO (XI XH)))) :: ((Npos (XO (XI (XO (XI
-    XH))))) :: ((Npos (XO (XO (XI (XO (XI XH)))))) :: ((Npos (XO (XO (XO (XI
-    (XO (XI XH))))))) :: ((Npos (XO (XO (XO (XO (XI (XO (XI
-    XH)))))))) :: ((Npos (XI (XO (XI (XI (XI (XI (XO XH)))))))) :: ((Npos (XI
-    (XI (XI (XO (XO (XI XH))))))) :: ((Npos (XO (XI (XI (XI (XO (XO (XI
-    XH)))))))) :: ((Npos (XI (XO (XO (XO (XO (XO (XO XH)))))))) :: ((Npos (XI
-    (XI (XI (XI XH))))) :: ((Npos (XO (XI (XI (XI (XI XH)))))) :: ((Npos (XO
-    (XO (XI (XI (XI (XI XH))))))) :: ((Npos (XO (XO (XO (XI (XI (XI (XI
-    XH)))))))) :: ((Npos (XI (XO (XI (XI (XO (XI (XI XH)))))))) :: ((Npos (XI
-    (XI (XI (XO (XO (XO (XI XH)))))))) :: ((Npos (XI (XI (XO (XO (XI (XO (XO
-    XH)))))))) :: ((Npos (XI (XI (XO (XI (XI XH)))))) :: ((Npos (XO (XI (XI
-    (XO (XI (XI XH))))))) :: ((Npos (XO (XO (XI (XI (XO (XI (XI
-    XH)))))))) :: ((Npos (XI (XO (XI (XO (XO (XO (XI XH)))))))) :: ((Npos (XI
-    (XI (XI (XO (XI (XO (XO XH)))))))) :: ((Npos (XI (XI (XO (XO (XI
-    XH)))))) :: ((Npos (XO (XI (XI (XO (XO (XI XH))))))) :: ((Npos (XO (XO
-    (XI (XI (XO (XO (XI XH)))))))) :: ((Npos (XI (XO (XI (XO (XO (XO (XO
-    XH)))))))) :: ((Npos (XI (XI (XI (XO XH))))) :: ((Npos (XO (XI (XI (XI
-    (XO XH)))))) :: ((Npos (XO (XO (XI (XI (XI (XO XH))))))) :: ((Npos (XO
-    (XO (XO (XI (XI (XI (XO XH)))))))) :: ((Npos (XI (XO (XI (XI (XO (XI
-    XH))))))) :: ((Npos (XO (XI (XO (XI (XI (XO (XI XH)))))))) :: ((Npos (XI
-    (XO (XO (XI (XO (XI (XO XH)))))))) :: ((Npos (XI (XI (XI (XI (XO (XO
-    XH))))))) :: ((Npos (XO (XI (XI (XI (XI (XO (XO XH)))))))) :: ((Npos (XI
-    (XO (XO (XO (XO XH)))))) :: ((Npos (XO (XI (XO (XO (XO (XO
-    XH))))))) :: ((Npos (XO (XO (XI (XO (XO (XO (XO XH)))))))) :: ((Npos (XI
-    (XO (XI (XO XH))))) :: ((Npos (XO (XI (XO (XI (XO XH)))))) :: ((Npos (XO
-    (XO (XI (XO (XI (XO XH))))))) :: ((Npos (XO (XO (XO (XI (XO (XI (XO
-    XH)))))))) :: ((Npos (XI (XO (XI (XI (XO (XO XH))))))) :: ((Npos (XO (XI
-    (XO (XI (XI (XO (XO XH)))))))) :: ((Npos (XI (XO (XO (XI (XO
-    XH)))))) :: ((Npos (XO (XI (XO (XO (XI (XO XH))))))) :: ((Npos (XO (XO
-    (XI (XO (XO (XI (XO XH)))))))) :: ((Npos (XI (XO (XI (XO (XI (XO
-    XH))))))) :: ((Npos (XO (XI (XO (XI (XO (XI (XO XH)))))))) :: ((Npos (XI
-    (XO (XO (XI (XO (XO XH))))))) :: ((Npos (XO (XI (XO (XO (XI (XO (XO
-    XH)))))))) :: ((Npos (XI (XO (XO (XI (XI XH)))))) :: ((Npos (XO (XI (XO
-    (XO (XI (XI XH))))))) :: ((Npos (XO (XO (XI (XO (XO (XI (XI
-    XH)))))))) :: ((Npos (XI (XO (XI (XO (XI (XO (XI XH)))))))) :: ((Npos (XI
-    (XI (XI (XO (XI (XI (XO XH)))))))) :: ((Npos (XI (XI (XO (XO (XI (XI
-    XH))))))) :: ((Npos (XO (XI (XI (XO (XO (XI (XI XH)))))))) :: ((Npos (XI
-    (XO (XO (XO (XI (XO (XI XH)))))))) :: ((Npos (XI (XI (XI (XI (XI (XI (XO
-    XH)))))))) :: ((Npos (XI (XI (XO (XO (XO (XI XH))))))) :: ((Npos (XO (XI
-    (XI (XO (XO (XO (XI XH)))))))) :: ((Npos (XI (XO (XO (XO (XI (XO (XO
-    XH)))))))) :: ((Npos (XI (XI (XI (XI (XI XH)))))) :: ((Npos (XO (XI (XI
-    (XI (XI (XI XH))))))) :: ((Npos (XO (XO (XI (XI (XI (XI (XI
-    XH)))))))) :: ((Npos (XI (XO (XI (XO (XO (XI (XI XH)))))))) :: ((Npos (XI
-    (XI (XI (XO (XI (XO (XI XH)))))))) :: ((Npos (XI (XI (XO (XO (XI (XI (XO
-    XH)))))))) :: ((Npos (XI (XI (XO (XI (XI (XI XH))))))) :: ((Npos (XO (XI
-    (XI (XO (XI (XI (XI XH)))))))) :: ((Npos (XI (XO (XO (XO (XI (XI (XI
-    XH)))))))) :: ((Npos (XI (XI (XI (XI (XI (XI (XI XH)))))))) :: ((Npos (XI
-    (XI (XO (XO (XO (XI (XI XH)))))))) :: ((Npos (XI (XI (XO (XI (XI (XO (XI
-    XH)))))))) :: ((Npos (XI (XI (XO (XI (XO (XI (XO XH)))))))) :: ((Npos (XI
-    (XI (XO (XI (XO (XO XH))))))) :: ((Npos (XO (XI (XI (XO (XI (XO (XO
-    XH)))))))) :: ((Npos (XI (XO (XO (XO (XI XH)))))) :: ((Npos (XO (XI (XO
-    (XO (XO (XI XH))))))) :: ((Npos (XO (XO (XI (XO (XO (XO (XI
-    XH)))))))) :: ((Npos (XI (XO (XI (XO (XI (XO (XO XH)))))))) :: ((Npos (XI
-    (XI (XI (XO (XI XH)))))) :: ((Npos (XO (XI (XI (XI (XO (XI
-    XH))))))) :: ((Npos (XO (XO (XI (XI (XI (XO (XI XH)))))))) :: ((Npos (XI
-    (XO (XI (XO (XO (XI (XO XH)))))))) :: ((Npos (XI (XI (XI (XO (XI (XO
-    XH))))))) :: ((Npos (XO (XI (XI (XI (XO (XI (XO XH)))))))) :: ((Npos (XI
-    (XO (XO (XO (XO (XO XH))))))) :: ((Npos (XO (XI (XO (XO (XO (XO (XO
-    XH)))))))) :: ((Npos (XI (XO (XO (XI XH))))) :: ((Npos (XO (XI (XO (XO
-    (XI XH)))))) :: ((Npos (XO (XO (XI (XO (XO (XI XH))))))) :: ((Npos (XO
-    (XO (XO (XI (XO (XO (XI XH)))))))) :: ((Npos (XI (XO (XI (XI (XO (XO (XO
-    XH)))))))) :: ((Npos (XI (XI XH))) :: ((Npos (XO (XI (XI XH)))) :: ((Npos
-    (XO (XO (XI (XI XH))))) :: ((Npos (XO (XO (XO (XI (XI XH)))))) :: ((Npos
-    (XO (XO (XO (XO (XI (XI XH))))))) :: ((Npos (XO (XO (XO (XO (XO (XI (XI
-    XH)))))))) :: ((Npos (XI (XO (XI (XI (XI (XO (XI XH)))))))) :: ((Npos (XI
-    (XI (XI (XO (XO (XI (XO XH)))))))) :: ((Npos (XI (XI (XO (XO (XI (XO
-    XH))))))) :: ((Npos (XO (XI (XI (XO (XO (XI (XO XH)))))))) :: ((Npos (XI
-    (XO (XO (XO (XI (XO XH))))))) :: ((Npos (XO (XI (XO (XO (XO (XI (XO
-    XH)))))))) :: ((Npos (XI (XO (XO (XI (XI (XO XH))))))) :: ((Npos (XO (XI
-    (XO (XO (XI (XI (XO XH)))))))) :: ((Npos (XI (XO (XO (XI (XI (XI
-    XH))))))) :: ((Npos (XO (XI (XO (XO (XI (XI (XI XH)))))))) :: ((Npos (XI
-    (XO (XO (XI (XI (XI (XI XH)))))))) :: ((Npos (XI (XI (XI (XI (XO (XI (XI
-    XH)))))))) :: ((Npos (XI (XI (XO (XO (XO (XO (XI XH)))))))) :: ((Npos (XI
-    (XI (XO (XI (XI (XO (XO XH)))))))) :: ((Npos (XI (XI (XO (XI (XO
-    XH)))))) :: ((Npos (XO (XI (XI (XO (XI (XO XH))))))) :: ((Npos (XO (XO
-    (XI (XI (XO (XI (XO XH)))))))) :: ((Npos (XI (XO (XI (XO (XO (XO
-    XH))))))) :: ((Npos (XO (XI (XO (XI (XO (XO (XO XH)))))))) :: ((Npos (XI
-    (XO (XO XH)))) :: ((Npos (XO (XI (XO (XO XH))))) :: ((Npos (XO (XO (XI
-    (XO (XO XH)))))) :: ((Npos (XO (XO (XO (XI (XO (XO XH))))))) :: ((Npos
-    (XO (XO (XO (XO (XI (XO (XO XH)))))))) :: ((Npos (XI (XO (XI (XI (XI
-    XH)))))) :: ((Npos (XO (XI (XO (XI (XI (XI XH))))))) :: ((Npos (XO (XO
-    (XI (XO (XI (XI (XI XH)))))))) :: ((Npos (XI (XO (XI (XO (XI (XI (XI
-    XH)))))))) :: ((Npos (XI (XI (XI (XO (XI (XI (XI XH)))))))) :: ((Npos (XI
-    (XI (XO (XO (XI (XI (XI XH)))))))) :: ((Npos (XI (XI (XO (XI (XI (XI (XI
-    XH)))))))) :: ((Npos (XI (XI (XO (XI (XO (XI (XI XH)))))))) :: ((Npos (XI
-    (XI (XO (XI (XO (XO (XI XH)))))))) :: ((Npos (XI (XI (XO (XI (XO (XO (XO
-    XH)))))))) :: ((Npos (XI (XI (XO XH)))) :: ((Npos (XO (XI (XI (XO
-    XH))))) :: ((Npos (XO (XO (XI (XI (XO XH)))))) :: ((Npos (XO (XO (XO (XI
-    (XI (XO XH))))))) :: ((Npos (XO (XO (XO (XO (XI (XI (XO
-    XH)))))))) :: ((Npos (XI (XO (XI (XI (XI (XI XH))))))) :: ((Npos (XO (XI
-    (XO (XI (XI (XI (XI XH)))))))) :: ((Npos (XI (XO (XO (XI (XO (XI (XI
-    XH)))))))) :: ((Npos (XI (XI (XI (XI (XO (XO (XI XH)))))))) :: ((Npos (XI
-    (XI (XO (XO (XO (XO (XO XH)))))))) :: ((Npos (XI (XI (XO (XI
-    XH))))) :: ((Npos (XO (XI (XI (XO (XI XH)))))) :: ((Npos (XO (XO (XI (XI
-    (XO (XI XH))))))) :: ((Npos (XO (XO (XO (XI (XI (XO (XI
-    XH)))))))) :: ((Npos (XI (XO (XI (XI (XO (XI (XO XH)))))))) :: ((Npos (XI
-    (XI (XI (XO (XO (XO XH))))))) :: ((Npos (XO (XI (XI (XI (XO (XO (XO
-    XH)))))))) :: ((Npos XH) :: ((Npos (XO XH)) :: ((Npos (XO (XO
-    XH))) :: ((Npos (XO (XO (XO XH)))) :: ((Npos (XO (XO (XO (XO
-    XH))))) :: ((Npos (XO (XO (XO (XO (XO XH)))))) :: ((Npos (XO (XO (XO (XO
-    (XO (XO XH))))))) :: ((Npos (XO (XO (XO (XO (XO (XO (XO
-    XH)))))))) :: ((Npos (XI (XO (XI (XI XH))))) :: ((Npos (XO (XI (XO (XI
-    (XI XH)))))) :: ((Npos (XO (XO (XI (XO (XI (XI XH))))))) :: ((Npos (XO
-    (XO (XO (XI (XO (XI (XI XH)))))))) :: ((Npos (XI (XO (XI (XI (XO (XO (XI
-    XH)))))))) :: ((Npos (XI (XI (XI (XO (XO (XO (XO XH)))))))) :: ((Npos (XI
-    (XI (XO (XO XH))))) :: ((Npos (XO (XI (XI (XO (XO XH)))))) :: ((Npos (XO
-    (XO (XI (XI (XO (XO XH))))))) :: ((Npos (XO (XO (XO (XI (XI (XO (XO
-    XH)))))))) :: ((Npos (XI (XO (XI (XI (XO XH)))))) :: ((Npos (XO (XI (XO
-    (XI (XI (XO XH))))))) :: ((Npos (XO (XO (XI (XO (XI (XI (XO
-    XH)))))))) :: ((Npos (XI (XO (XI (XO (XI (XI XH))))))) :: ((Npos (XO (XI
-    (XO (XI (XO (XI (XI XH)))))))) :: ((Npos (XI (XO (XO (XI (XO (XO (XI
-    XH)))))))) :: ((Npos (XI (XI (XI (XI (XO (XO (XO XH)))))))) :: ((Npos (XI
-    XH)) :: ((Npos (XO (XI XH))) :: ((Npos (XO (XO (XI XH)))) :: ((Npos (XO
-    (XO (XO (XI XH))))) :: ((Npos (XO (XO (XO (XO (XI XH)))))) :: ((Npos (XO
-    (XO (XO (XO (XO (XI XH))))))) :: ((Npos (XO (XO (XO (XO (XO (XO (XI
-    XH)))))))) :: ((Npos (XI (XO (XI (XI (XI (XO (XO XH)))))))) :: ((Npos (XI
-    (XI (XI (XO (XO XH)))))) :: ((Npos (XO (XI (XI (XI (XO (XO
-    XH))))))) :: ((Npos (XO (XO (XI (XI (XI (XO (XO XH)))))))) :: ((Npos (XI
-    (XO (XI (XO (XO XH)))))) :: ((Npos (XO (XI (XO (XI (XO (XO
-    XH))))))) :: ((Npos (XO (XO (XI (XO (XI (XO (XO XH)))))))) :: ((Npos (XI
-    (XO (XI (XO (XI XH)))))) :: ((Npos (XO (XI (XO (XI (XO (XI
-    XH))))))) :: ((Npos (XO (XO (XI (XO (XI (XO (XI XH)))))))) :: ((Npos (XI
-    (XO (XI (XO (XI (XI (XO XH)))))))) :: ((Npos (XI (XI (XI (XO (XI (XI
-    XH))))))) :: ((Npos (XO (XI (XI (XI (XO (XI (XI XH)))))))) :: ((Npos (XI
-    (XO (XO (XO (XO (XO (XI XH)))))))) :: ((Npos (XI (XI (XI (XI (XI (XO (XO
-    XH)))))))) :: ((Npos (XI (XI (XO (XO (XO XH)))))) :: ((Npos (XO (XI (XI
-    (XO (XO (XO XH))))))) :: ((Npos (XO (XO (XI (XI (XO (XO (XO
-    XH)))))))) :: ((Npos (XI (XO XH))) :: ((Npos (XO (XI (XO XH)))) :: ((Npos
-    (XO (XO (XI (XO XH))))) :: ((Npos (XO (XO (XO (XI (XO XH)))))) :: ((Npos
-    (XO (XO (XO (XO (XI (XO XH))))))) :: ((Npos (XO (XO (XO (XO (XO (XI (XO
-    XH)))))))) :: ((Npos (XI (XO (XI (XI (XI (XO XH))))))) :: ((Npos (XO (XI
-    (XO (XI (XI (XI (XO XH)))))))) :: ((Npos (XI (XO (XO (XI (XO (XI
-    XH))))))) :: ((Npos (XO (XI (XO (XO (XI (XO (XI XH)))))))) :: ((Npos (XI
-    (XO (XO (XI (XI (XI (XO XH)))))))) :: ((Npos (XI (XI (XI (XI (XO (XI
-    XH))))))) :: ((Npos (XO (XI (XI (XI (XI (XO (XI XH)))))))) :: ((Npos (XI
-    (XO (XO (XO (XO (XI (XO XH)))))))) :: ((Npos (XI (XI (XI (XI (XI (XO
-    XH))))))) :: ((Npos (XO (XI (XI (XI (XI (XI (XO XH)))))))) :: ((Npos (XI
-    (XO (XO (XO (XO (XI XH))))))) :: ((Npos (XO (XI (XO (XO (XO (XO (XI
-    XH)))))))) :: ((Npos (XI (XO (XO (XI (XI (XO (XO XH)))))))) :: ((Npos (XI
-    (XI (XI (XI (XO XH)))))) :: ((Npos (XO (XI (XI (XI (XI (XO
-    XH))))))) :: ((Npos (XO (XO (XI (XI (XI (XI (XO XH)))))))) :: ((Npos (XI
-    (XO (XI (XO (XO (XI XH))))))) :: ((Npos (XO (XI (XO (XI (XO (XO (XI
-    XH)))))))) :: ((Npos (XI (XO (XO (XI (XO (XO (XO XH)))))))) :: ((Npos (XI
-    (XI (XI XH)))) :: ((Npos (XO (XI (XI (XI XH))))) :: ((Npos (XO (XO (XI
-    (XI (XI XH)))))) :: ((Npos (XO (XO (XO (XI (XI (XI XH))))))) :: ((Npos
-    (XO (XO (XO (XO (XI (XI (XI XH)))))))) :: ((Npos (XI (XO (XI (XI (XI (XI
-    (XI XH)))))))) :: ((Npos (XI (XI (XI (XO (XO (XI (XI XH)))))))) :: ((Npos
-    (XI (XI (XO (XO (XI (XO (XI XH)))))))) :: ((Npos (XI (XI (XO (XI (XI (XI
-    (XO XH)))))))) :: ((Npos (XI (XI (XO (XI (XO (XI XH))))))) :: ((Npos (XO
-    (XI (XI (XO (XI (XO (XI XH)))))))) :: ((Npos (XI (XO (XO (XO (XI (XI (XO
-    XH)))))))) :: ((Npos (XI (XI (XI (XI (XI (XI XH))))))) :: ((Npos (XO (XI
-    (XI (XI (XI (XI (XI XH)))))))) :: ((Npos (XI (XO (XO (XO (XO (XI (XI
-    XH)))))))) :: ((Npos (XI (XI (XI (XI (XI (XO (XI XH)))))))) :: ((Npos (XI
-    (XI (XO (XO (XO (XI (XO XH)))))))) :: ((Npos (XI (XI (XO (XI (XI (XO
-    XH))))))) :: ((Npos (XO (XI (XI (XO (XI (XI (XO XH)))))))) :: ((Npos (XI
-    (XO (XO (XO (XI (XI XH))))))) :: ((Npos (XO (XI (XO (XO (XO (XI (XI
-    XH)))))))) :: ((Npos (XI (XO (XO (XI (XI (XO (XI XH)))))))) :: ((Npos (XI
-    (XI (XI (XI (XO (XI (XO XH)))))))) :: ((Npos (XI (XI (XO (XO (XO (XO
-    XH))))))) :: ((Npos (XO (XI (XI (XO (XO (XO (XO XH)))))))) :: ((Npos (XI
-    (XO (XO (XO XH))))) :: ((Npos (XO (XI (XO (XO (XO XH)))))) :: ((Npos (XO
-    (XO (XI (XO (XO (XO XH))))))) :: ((Npos (XO (XO (XO (XI (XO (XO (XO
-    XH)))))))) :: ((Npos (XI (XO (XI XH)))) :: ((Npos (XO (XI (XO (XI
-    XH))))) :: ((Npos (XO (XO (XI (XO (XI XH)))))) :: ((Npos (XO (XO (XO (XI
-    (XO (XI XH))))))) :: ((Npos (XO (XO (XO (XO (XI (XO (XI
-    XH)))))))) :: ((Npos (XI (XO (XI (XI (XI (XI (XO XH)))))))) :: ((Npos (XI
-    (XI (XI (XO (XO (XI XH))))))) :: ((Npos (XO (XI (XI (XI (XO (XO (XI
-    XH)))))))) :: ((Npos (XI (XO (XO (XO (XO (XO (XO XH)))))))) :: ((Npos (XI
-    (XI (XI (XI XH))))) :: ((Npos (XO (XI (XI (XI (XI XH)))))) :: ((Npos (XO
-    (XO (XI (XI (XI (XI XH))))))) :: ((Npos (XO (XO (XO (XI (XI (XI (XI
-    XH)))))))) :: ((Npos (XI (XO (XI (XI (XO (XI (XI XH)))))))) :: ((Npos (XI
-    (XI (XI (XO (XO (XO (XI XH)))))))) :: ((Npos (XI (XI (XO (XO (XI (XO (XO
-    XH)))))))) :: ((Npos (XI (XI (XO (XI (XI XH)))))) :: ((Npos (XO (XI (XI
-    (XO (XI (XI XH))))))) :: ((Npos (XO (XO (XI (XI (XO (XI (XI
-    XH)))))))) :: ((Npos (XI (XO (XI (XO (XO (XO (XI XH)))))))) :: ((Npos (XI
-    (XI (XI (XO (XI (XO (XO XH)))))))) :: ((Npos (XI (XI (XO (XO (XI
-    XH)))))) :: ((Npos (XO (XI (XI (XO (XO (XI XH))))))) :: ((Npos (XO (XO
-    (XI (XI (XO (XO (XI XH)))))))) :: ((Npos (XI (XO (XI (XO (XO (XO (XO
-    XH)))))))) :: ((Npos (XI (XI (XI (XO XH))))) :: ((Npos (XO (XI (XI (XI
-    (XO XH)))))) :: ((Npos (XO (XO (XI (XI (XI (XO XH))))))) :: ((Npos (XO
-    (XO (XO (XI (XI (XI (XO XH)))))))) :: ((Npos (XI (XO (XI (XI (XO (XI
-    XH))))))) :: ((Npos (XO (XI (XO (XI (XI (XO (XI XH)))))))) :: ((Npos (XI
-    (XO (XO (XI (XO (XI (XO XH)))))))) :: ((Npos (XI (XI (XI (XI (XO (XO
-    XH))))))) :: ((Npos (XO (XI (XI (XI (XI (XO (XO XH)))))))) :: ((Npos (XI
-    (XO (XO (XO (XO XH)))))) :: ((Npos (XO (XI (XO (XO (XO (XO
-    XH))))))) :: ((Npos (XO (XO (XI (XO (XO (XO (XO XH)))))))) :: ((Npos (XI
-    (XO (XI (XO XH))))) :: ((Npos (XO (XI (XO (XI (XO XH)))))) :: ((Npos (XO
-    (XO (XI (XO (XI (XO XH))))))) :: ((Npos (XO (XO (XO (XI (XO (XI (XO
-    XH)))))))) :: ((Npos (XI (XO (XI (XI (XO (XO XH))))))) :: ((Npos (XO (XI
-    (XO (XI (XI (XO (XO XH)))))))) :: ((Npos (XI (XO (XO (XI (XO
-    XH)))))) :: ((Npos (XO (XI (XO (XO (XI (XO XH))))))) :: ((Npos (XO (XO
-    (XI (XO (XO (XI (XO XH)))))))) :: ((Npos (XI (XO (XI (XO (XI (XO
-    XH))))))) :: ((Npos (XO (XI (XO (XI (XO (XI (XO XH)))))))) :: ((Npos (XI
-    (XO (XO (XI (XO (XO XH))))))) :: ((Npos (XO (XI (XO (XO (XI (XO (XO
-    XH)))))))) :: ((Npos (XI (XO (XO (XI (XI XH)))))) :: ((Npos (XO (XI (XO
-    (XO (XI (XI XH))))))) :: ((Npos (XO (XO (XI (XO (XO (XI (XI
-    XH)))))))) :: ((Npos (XI (XO (XI (XO (XI (XO (XI XH)))))))) :: ((Npos (XI
-    (XI (XI (XO (XI (XI (XO XH)))))))) :: ((Npos (XI (XI (XO (XO (XI (XI
-    XH))))))) :: ((Npos (XO (XI (XI (XO (XO (XI (XI XH)))))))) :: ((Npos (XI
-    (XO (XO (XO (XI (XO (XI XH)))))))) :: ((Npos (XI (XI (XI (XI (XI (XI (XO
-    XH)))))))) :: ((Npos (XI (XI (XO (XO (XO (XI XH))))))) :: ((Npos (XO (XI
-    (XI (XO (XO (XO (XI XH)))))))) :: ((Npos (XI (XO (XO (XO (XI (XO (XO
-    XH)))))))) :: ((Npos (XI (XI (XI (XI (XI XH)))))) :: ((Npos (XO (XI (XI
-    (XI (XI (XI XH))))))) :: ((Npos (XO (XO (XI (XI (XI (XI (XI
-    XH)))))))) :: ((Npos (XI (XO (XI (XO (XO (XI (XI XH)))))))) :: ((Npos (XI
-    (XI (XI (XO (XI (XO (XI XH)))))))) :: ((Npos (XI (XI (XO (XO (XI (XI (XO
-    XH)))))))) :: ((Npos (XI (XI (XO (XI (XI (XI XH))))))) :: ((Npos (XO (XI
-    (XI (XO (XI (XI (XI XH)))))))) :: ((Npos (XI (XO (XO (XO (XI (XI (XI
-    XH)))))))) :: ((Npos (XI (XI (XI (XI (XI (XI (XI XH)))))))) :: ((Npos (XI
-    (XI (XO (XO (XO (XI (XI XH)))))))) :: ((Npos (XI (XI (XO (XI (XI (XO (XI
-    XH)))))))) :: ((Npos (XI (XI (XO (XI (XO (XI (XO XH)))))))) :: ((Npos (XI
-    (XI (XO (XI (XO (XO XH))))))) :: ((Npos (XO (XI (XI (XO (XI (XO (XO
-    XH)))))))) :: ((Npos (XI (XO (XO (XO (XI XH)))))) :: ((Npos (XO (XI (XO
-    (XO (XO (XI XH))))))) :: ((Npos (XO (XO (XI (XO (XO (XO (XI
-    XH)))))))) :: ((Npos (XI (XO (XI (XO (XI (XO (XO XH)))))))) :: ((Npos (XI
-    (XI (XI (XO (XI XH)))))) :: ((Npos (XO (XI (XI (XI (XO (XI
-    XH))))))) :: ((Npos (XO (XO (XI (XI (XI (XO (XI XH)))))))) :: ((Npos (XI
-    (XO (XI (XO (XO (XI (XO XH)))))))) :: ((Npos (XI (XI (XI (XO (XI (XO
-    XH))))))) :: ((Npos (XO (XI (XI (XI (XO (XI (XO XH)))))))) :: ((Npos (XI
-    (XO (XO (XO (XO (XO XH))))))) :: ((Npos (XO (XI (XO (XO (XO (XO (XO
-    XH)))))))) :: ((Npos (XI (XO (XO (XI XH))))) :: ((Npos (XO (XI (XO (XO
-    (XI XH)))))) :: ((Npos (XO (XO (XI (XO (XO (XI XH))))))) :: ((Npos (XO
-    (XO (XO (XI (XO (XO (XI XH)))))))) :: ((Npos (XI (XO (XI (XI (XO (XO (XO
-    XH)))))))) :: ((Npos (XI (XI XH))) :: ((Npos (XO (XI (XI XH)))) :: ((Npos
-    (XO (XO (XI (XI XH))))) :: ((Npos (XO (XO (XO (XI (XI XH)))))) :: ((Npos
-    (XO (XO (XO (XO (XI (XI XH))))))) :: ((Npos (XO (XO (XO (XO (XO (XI (XI
-    XH)))))))) :: ((Npos (XI (XO (XI (XI (XI (XO (XI XH)))))))) :: ((Npos (XI
-    (XI (XI (XO (XO (XI (XO XH)))))))) :: ((Npos (XI (XI (XO (XO (XI (XO
-    XH))))))) :: ((Npos (XO (XI (XI (XO (XO (XI (XO XH)))))))) :: ((Npos (XI
-    (XO (XO (XO (XI (XO XH))))))) :: ((Npos (XO (XI (XO (XO (XO (XI (XO
-    XH)))))))) :: ((Npos (XI (XO (XO (XI (XI (XO XH))))))) :: ((Npos (XO (XI
-    (XO (XO (XI (XI (XO XH)))))))) :: ((Npos (XI (XO (XO (XI (XI (XI
-    XH))))))) :: ((Npos (XO (XI (XO (XO (XI (XI (XI XH)))))))) :: ((Npos (XI
-    (XO (XO (XI (XI (XI (XI XH)))))))) :: ((Npos (XI (XI (XI (XI (XO (XI (XI
-    XH)))))))) :: ((Npos (XI (XI (XO (XO (XO (XO (XI XH)))))))) :: ((Npos (XI
-    (XI (XO (XI (XI (XO (XO XH)))))))) :: ((Npos (XI (XI (XO (XI (XO
-    XH)))))) :: ((Npos (XO (XI (XI (XO (XI (XO XH))))))) :: ((Npos (XO (XO
-    (XI (XI (XO (XI (XO XH)))))))) :: ((Npos (XI (XO (XI (XO (XO (XO
-    XH))))))) :: ((Npos (XO (XI (XO (XI (XO (XO (XO XH)))))))) :: ((Npos (XI
-    (XO (XO XH)))) :: ((Npos (XO (XI (XO (XO XH))))) :: ((Npos (XO (XO (XI
-    (XO (XO XH)))))) :: ((Npos (XO (XO (XO (XI (XO (XO XH))))))) :: ((Npos
-    (XO (XO (XO (XO (XI (XO (XO XH)))))))) :: ((Npos (XI (XO (XI (XI (XI
-    XH)))))) :: ((Npos (XO (XI (XO (XI (XI (XI XH))))))) :: ((Npos (XO (XO
-    (XI (XO (XI (XI (XI XH)))))))) :: ((Npos (XI (XO (XI (XO (XI (XI (XI
-    XH)))))))) :: ((Npos (XI (XI (XI (XO (XI (XI (XI XH)))))))) :: ((Npos (XI
-    (XI (XO (XO (XI (XI (XI XH)))))))) :: ((Npos (XI (XI (XO (XI (XI (XI (XI
-    XH)))))))) :: ((Npos (XI (XI (XO (XI (XO (XI (XI XH)))))))) :: ((Npos (XI
-    (XI (XO (XI (XO (XO (XI XH)))))))) :: ((Npos (XI (XI (XO (XI (XO (XO (XO
-    XH)))))))) :: ((Npos (XI (XI (XO XH)))) :: ((Npos (XO (XI (XI (XO
-    XH))))) :: ((Npos (XO (XO (XI (XI (XO XH)))))) :: ((Npos (XO (XO (XO (XI
-    (XI (XO XH))))))) :: ((Npos (XO (XO (XO (XO (XI (XI (XO
-    XH)))))))) :: ((Npos (XI (XO (XI (XI (XI (XI XH))))))) :: ((Npos (XO (XI
-    (XO (XI (XI (XI (XI XH)))))))) :: ((Npos (XI (XO (XO (XI (XO (XI (XI
-    XH)))))))) :: ((Npos (XI (XI (XI (XI (XO (XO (XI XH)))))))) :: ((Npos (XI
-    (XI (XO (XO (XO (XO (XO XH)))))))) :: ((Npos (XI (XI (XO (XI
-    XH))))) :: ((Npos (XO (XI (XI (XO (XI XH)))))) :: ((Npos (XO (XO (XI (XI
-    (XO (XI XH))))))) :: ((Npos (XO (XO (XO (XI (XI (XO (XI
-    XH)))))))) :: ((Npos (XI (XO (XI (XI (XO (XI (XO XH)))))))) :: ((Npos (XI
-    (XI (XI (XO (XO (XO XH))))))) :: ((Npos (XO (XI (XI (XI (XO (XO (XO
-    XH)))))))) :: [])))))))))))))))))))))))))))))))))))))))))))))))))))))))))))))))))))))))))))))))))))))))))))))))))))))))))))))))))))))))))))))))))))))))))))))))))))))))))))))))))))))))))))))))))))))))))))))))))))))))))))))))))))))))))))))))))))))))))))))))))))))))))))))))))))))))))))))))))))))))))))))))))))))))))))))))))))))))))))))))))))))))))))))))))))))))))))))))))))))))))))))))))))))))))))))))))))))))))))))))))))))))))))))))))))))))))))))))))))))))))))))))))))))))))))))))))))))))))))))))))))))))))))))))))))))))))))))
-
-(** val oCT_LOG : n list **)
-
-let oCT_LOG =
-  N0 :: (N0 :: ((Npos XH) :: ((Npos (XI (XO (XO (XI XH))))) :: ((Npos (XO
-    XH)) :: ((Npos (XO (XI (XO (XO (XI XH)))))) :: ((Npos (XO (XI (XO (XI
-    XH))))) :: ((Npos (XO (XI (XI (XO (XO (XO (XI XH)))))))) :: ((Npos (XI
-    XH)) :: ((Npos (XI (XI (XI (XI (XI (XO (XI XH)))))))) :: ((Npos (XI (XI
-    (XO (XO (XI XH)))))) :: ((Npos (XO (XI (XI (XI (XO (XI (XI
-    XH)))))))) :: ((Npos (XI (XI (XO (XI XH))))) :: ((Npos (XO (XO (XO (XI
-    (XO (XI XH))))))) :: ((Npos (XI (XI (XI (XO (XO (XO (XI
-    XH)))))))) :: ((Npos (XI (XI (XO (XI (XO (XO XH))))))) :: ((Npos (XO (XO
-    XH))) :: ((Npos (XO (XO (XI (XO (XO (XI XH))))))) :: ((Npos (XO (XO (XO
-    (XO (XO (XI (XI XH)))))))) :: ((Npos (XO (XI (XI XH)))) :: ((Npos (XO (XO
-    (XI (XO (XI XH)))))) :: ((Npos (XI (XO (XI (XI (XO (XO (XO
-    XH)))))))) :: ((Npos (XI (XI (XI (XI (XO (XI (XI XH)))))))) :: ((Npos (XI
-    (XO (XO (XO (XO (XO (XO XH)))))))) :: ((Npos (XO (XO (XI (XI
-    XH))))) :: ((Npos (XI (XO (XO (XO (XO (XO (XI XH)))))))) :: ((Npos (XI
-    (XO (XO (XI (XO (XI XH))))))) :: ((Npos (XO (XO (XO (XI (XI (XI (XI
-    XH)))))))) :: ((Npos (XO (XO (XO (XI (XO (XO (XI XH)))))))) :: ((Npos (XO
-    (XO (XO XH)))) :: ((Npos (XO (XO (XI (XI (XO (XO XH))))))) :: ((Npos (XI
-    (XO (XO (XO (XI (XI XH))))))) :: ((Npos (XI (XO XH))) :: ((Npos (XO (XI
-    (XO (XI (XO (XO (XO XH)))))))) :: ((Npos (XI (XO (XI (XO (XO (XI
-    XH))))))) :: ((Npos (XI (XI (XI (XI (XO XH)))))) :: ((Npos (XI (XO (XO
-    (XO (XO (XI (XI XH)))))))) :: ((Npos (XO (XO (XI (XO (XO
-    XH)))))) :: ((Npos (XI (XI (XI XH)))) :: ((Npos (XI (XO (XO (XO (XO
-    XH)))))) :: ((Npos (XI (XO (XI (XO (XI XH)))))) :: ((Npos (XI (XI (XO (XO
-    (XI (XO (XO XH)))))))) :: ((Npos (XO (XI (XI (XI (XO (XO (XO
-    XH)))))))) :: ((Npos (XO (XI (XO (XI (XI (XO (XI XH)))))))) :: ((Npos (XO
-    (XO (XO (XO (XI (XI (XI XH)))))))) :: ((Npos (XO (XI (XO (XO
-    XH))))) :: ((Npos (XO (XI (XO (XO (XO (XO (XO XH)))))))) :: ((Npos (XI
-    (XO (XI (XO (XO (XO XH))))))) :: ((Npos (XI (XO (XI (XI XH))))) :: ((Npos
-    (XI (XO (XI (XO (XI (XI (XO XH)))))))) :: ((Npos (XO (XI (XO (XO (XO (XO
-    (XI XH)))))))) :: ((Npos (XI (XO (XI (XI (XI (XI XH))))))) :: ((Npos (XO
-    (XI (XO (XI (XO (XI XH))))))) :: ((Npos (XI (XI (XI (XO (XO
-    XH)))))) :: ((Npos (XI (XO (XO (XI (XI (XI (XI XH)))))))) :: ((Npos (XI
-    (XO (XO (XI (XI (XI (XO XH)))))))) :: ((Npos (XI (XO (XO (XI (XO (XO (XI
-    XH)))))))) :: ((Npos (XO (XI (XO (XI (XI (XO (XO XH)))))))) :: ((Npos (XI
-    (XO (XO XH)))) :: ((Npos (XO (XO (XO (XI (XI (XI XH))))))) :: ((Npos (XI
-    (XO (XI (XI (XO (XO XH))))))) :: ((Npos (XO (XO (XI (XO (XO (XI (XI
-    XH)))))))) :: ((Npos (XO (XI (XO (XO (XI (XI XH))))))) :: ((Npos (XO (XI
-    (XI (XO (XO (XI (XO XH)))))))) :: ((Npos (XO (XI XH))) :: ((Npos (XI (XI
-    (XI (XI (XI (XI (XO XH)))))))) :: ((Npos (XI (XI (XO (XI (XO (XO (XO
-    XH)))))))) :: ((Npos (XO (XI (XO (XO (XO (XI XH))))))) :: ((Npos (XO (XI
-    (XI (XO (XO (XI XH))))))) :: ((Npos (XI (XO (XI (XI (XI (XO (XI
-    XH)))))))) :: ((Npos (XO (XO (XO (XO (XI XH)))))) :: ((Npos (XI (XO (XI
-    (XI (XI (XI (XI XH)))))))) :: ((Npos (XO (XI (XO (XO (XO (XI (XI
-    XH)))))))) :: ((Npos (XO (XO (XO (XI (XI (XO (XO XH)))))))) :: ((Npos (XI
-    (XO (XI (XO (XO XH)))))) :: ((Npos (XI (XI (XO (XO (XI (XI (XO
-    XH)))))))) :: ((Npos (XO (XO (XO (XO XH))))) :: ((Npos (XI (XO (XO (XO
-    (XI (XO (XO XH)))))))) :: ((Npos (XO (XI (XO (XO (XO XH)))))) :: ((Npos
-    (XO (XO (XO (XI (XO (XO (XO XH)))))))) :: ((Npos (XO (XI (XI (XO (XI
-    XH)))))) :: ((Npos (XO (XO (XO (XO (XI (XO (XI XH)))))))) :: ((Npos (XO
-    (XO (XI (XO (XI (XO (XO XH)))))))) :: ((Npos (XO (XI (XI (XI (XO (XO (XI
-    XH)))))))) :: ((Npos (XI (XI (XI (XI (XO (XO (XO XH)))))))) :: ((Npos (XO
-    (XI (XI (XO (XI (XO (XO XH)))))))) :: ((Npos (XI (XI (XO (XI (XI (XO (XI
-    XH)))))))) :: ((Npos (XI (XO (XI (XI (XI (XI (XO XH)))))))) :: ((Npos (XI
-    (XO (XO (XO (XI (XI (XI XH)))))))) :: ((Npos (XO (XI (XO (XO (XI (XO (XI
-    XH)))))))) :: ((Npos (XI (XI (XO (XO XH))))) :: ((Npos (XO (XO (XI (XI
-    (XI (XO XH))))))) :: ((Npos (XI (XI (XO (XO (XO (XO (XO
-    XH)))))))) :: ((Npos (XO (XO (XO (XI (XI XH)))))) :: ((Npos (XO (XI (XI
-    (XO (XO (XO XH))))))) :: ((Npos (XO (XO (XO (XO (XO (XO
-    XH))))))) :: ((Npos (XO (XI (XI (XI XH))))) :: ((Npos (XO (XI (XO (XO (XO
-    (XO XH))))))) :: ((Npos (XO (XI (XI (XO (XI (XI (XO XH)))))))) :: ((Npos
-    (XI (XI (XO (XO (XO (XI (XO XH)))))))) :: ((Npos (XI (XI (XO (XO (XO (XO
-    (XI XH)))))))) :: ((Npos (XO (XO (XO (XI (XO (XO XH))))))) :: ((Npos (XO
-    (XI (XI (XI (XI (XI XH))))))) :: ((Npos (XO (XI (XI (XI (XO (XI
-    XH))))))) :: ((Npos (XI (XI (XO (XI (XO (XI XH))))))) :: ((Npos (XO (XI
-    (XO (XI (XI XH)))))) :: ((Npos (XO (XO (XO (XI (XO XH)))))) :: ((Npos (XO
-    (XO (XI (XO (XI (XO XH))))))) :: ((Npos (XO (XI (XO (XI (XI (XI (XI
-    XH)))))))) :: ((Npos (XI (XO (XI (XO (XO (XO (XO XH)))))))) :: ((Npos (XO
-    (XI (XO (XI (XI (XI (XO XH)))))))) :: ((Npos (XI (XO (XI (XI (XI
-    XH)))))) :: ((Npos (XO (XI (XO (XI (XO (XO (XI XH)))))))) :: ((Npos (XO
-    (XI (XI (XI (XI (XO XH))))))) :: ((Npos (XI (XI (XO (XI (XI (XO (XO
-    XH)))))))) :: ((Npos (XI (XI (XI (XI (XI (XO (XO XH)))))))) :: ((Npos (XO
-    (XI (XO XH)))) :: ((Npos (XI (XO (XI (XO XH))))) :: ((Npos (XI (XO (XO
-    (XI (XI (XI XH))))))) :: ((Npos (XI (XI (XO (XI (XO XH)))))) :: ((Npos
-    (XO (XI (XI (XI (XO (XO XH))))))) :: ((Npos (XO (XO (XI (XO (XI (XO (XI
-    XH)))))))) :: ((Npos (XI (XO (XI (XO (XO (XI (XI XH)))))))) :: ((Npos (XO
-    (XO (XI (XI (XO (XI (XO XH)))))))) :: ((Npos (XI (XI (XO (XO (XI (XI
-    XH))))))) :: ((Npos (XI (XI (XO (XO (XI (XI (XI XH)))))))) :: ((Npos (XI
-    (XI (XI (XO (XO (XI (XO XH)))))))) :: ((Npos (XI (XI (XI (XO (XI (XO
-    XH))))))) :: ((Npos (XI (XI XH))) :: ((Npos (XO (XO (XO (XO (XI (XI
-    XH))))))) :: ((Npos (XO (XO (XO (XO (XO (XO (XI XH)))))))) :: ((Npos (XI
-    (XI (XI (XO (XI (XI (XI XH)))))))) :: ((Npos (XO (XO (XI (XI (XO (XO (XO
-    XH)))))))) :: ((Npos (XO (XO (XO (XO (XO (XO (XO XH)))))))) :: ((Npos (XI
-    (XI (XO (XO (XO (XI XH))))))) :: ((Npos (XI (XO (XI XH)))) :: ((Npos (XI
-    (XI (XI (XO (XO (XI XH))))))) :: ((Npos (XO (XI (XO (XI (XO (XO
-    XH))))))) :: ((Npos (XO (XI (XI (XI (XI (XO (XI XH)))))))) :: ((Npos (XI
-    (XO (XI (XI (XO (XI (XI XH)))))))) :: ((Npos (XI (XO (XO (XO (XI
-    XH)))))) :: ((Npos (XI (XO (XI (XO (XO (XO (XI XH)))))))) :: ((Npos (XO
-    (XI (XI (XI (XI (XI (XI XH)))))))) :: ((Npos (XO (XO (XO (XI
-    XH))))) :: ((Npos (XI (XI (XO (XO (XO (XI (XI XH)))))))) :: ((Npos (XI
-    (XO (XI (XO (XO (XI (XO XH)))))))) :: ((Npos (XI (XO (XO (XI (XI (XO (XO
-    XH)))))))) :: ((Npos (XI (XI (XI (XO (XI (XI XH))))))) :: ((Npos (XO (XI
-    (XI (XO (XO XH)))))) :: ((Npos (XO (XO (XO (XI (XI (XI (XO
-    XH)))))))) :: ((Npos (XO (XO (XI (XO (XI (XI (XO XH)))))))) :: ((Npos (XO
-    (XO (XI (XI (XI (XI XH))))))) :: ((Npos (XI (XO (XO (XO XH))))) :: ((Npos
-    (XO (XO (XI (XO (XO (XO XH))))))) :: ((Npos (XO (XI (XO (XO (XI (XO (XO
-    XH)))))))) :: ((Npos (XI (XO (XO (XI (XI (XO (XI XH)))))))) :: ((Npos (XI
-    (XI (XO (XO (XO XH)))))) :: ((Npos (XO (XO (XO (XO (XO XH)))))) :: ((Npos
-    (XI (XO (XO (XI (XO (XO (XO XH)))))))) :: ((Npos (XO (XI (XI (XI (XO
-    XH)))))) :: ((Npos (XI (XI (XI (XO (XI XH)))))) :: ((Npos (XI (XI (XI (XI
-    (XI XH)))))) :: ((Npos (XI (XO (XO (XO (XI (XO (XI XH)))))))) :: ((Npos
-    (XI (XI (XO (XI (XI (XO XH))))))) :: ((Npos (XI (XO (XI (XO (XI (XO (XO
-    XH)))))))) :: ((Npos (XO (XO (XI (XI (XI (XI (XO XH)))))))) :: ((Npos (XI
-    (XI (XI (XI (XO (XO (XI XH)))))))) :: ((Npos (XI (XO (XI (XI (XO (XO (XI
-    XH)))))))) :: ((Npos (XO (XO (XO (XO (XI (XO (XO XH)))))))) :: ((Npos (XI
-    (XI (XI (XO (XO (XO (XO XH)))))))) :: ((Npos (XI (XI (XI (XO (XI (XO (XO
-    XH)))))))) :: ((Npos (XO (XI (XO (XO (XI (XI (XO XH)))))))) :: ((Npos (XO
-    (XO (XI (XI (XI (XO (XI XH)))))))) :: ((Npos (XO (XO (XI (XI (XI (XI (XI
-    XH)))))))) :: ((Npos (XO (XI (XI (XI (XI (XI (XO XH)))))))) :: ((Npos (XI
-    (XO (XO (XO (XO (XI XH))))))) :: ((Npos (XO (XI (XO (XO (XI (XI (XI
-    XH)))))))) :: ((Npos (XO (XI (XI (XO (XI (XO XH))))))) :: ((Npos (XI (XI
-    (XO (XO (XI (XO (XI XH)))))))) :: ((Npos (XI (XI (XO (XI (XO (XI (XO
-    XH)))))))) :: ((Npos (XO (XO (XI (XO XH))))) :: ((Npos (XO (XI (XO (XI
-    (XO XH)))))) :: ((Npos (XI (XO (XI (XI (XI (XO XH))))))) :: ((Npos (XO
-    (XI (XI (XI (XI (XO (XO XH)))))))) :: ((Npos (XO (XO (XI (XO (XO (XO (XO
-    XH)))))))) :: ((Npos (XO (XO (XI (XI (XI XH)))))) :: ((Npos (XI (XO (XO
-    (XI (XI XH)))))) :: ((Npos (XI (XI (XO (XO (XI (XO XH))))))) :: ((Npos
-    (XI (XI (XI (XO (XO (XO XH))))))) :: ((Npos (XI (XO (XI (XI (XO (XI
-    XH))))))) :: ((Npos (XI (XO (XO (XO (XO (XO XH))))))) :: ((Npos (XO (XI
-    (XO (XO (XO (XI (XO XH)))))))) :: ((Npos (XI (XI (XI (XI
-    XH))))) :: ((Npos (XI (XO (XI (XI (XO XH)))))) :: ((Npos (XI (XI (XO (XO
-    (XO (XO XH))))))) :: ((Npos (XO (XO (XO (XI (XI (XO (XI
-    XH)))))))) :: ((Npos (XI (XI (XI (XO (XI (XI (XO XH)))))))) :: ((Npos (XI
-    (XI (XO (XI (XI (XI XH))))))) :: ((Npos (XO (XO (XI (XO (XO (XI (XO
-    XH)))))))) :: ((Npos (XO (XI (XI (XO (XI (XI XH))))))) :: ((Npos (XO (XO
-    (XI (XO (XO (XO (XI XH)))))))) :: ((Npos (XI (XI (XI (XO
-    XH))))) :: ((Npos (XI (XO (XO (XI (XO (XO XH))))))) :: ((Npos (XO (XO (XI
-    (XI (XO (XI (XI XH)))))))) :: ((Npos (XI (XI (XI (XI (XI (XI
-    XH))))))) :: ((Npos (XO (XO (XI XH)))) :: ((Npos (XI (XI (XI (XI (XO (XI
-    XH))))))) :: ((Npos (XO (XI (XI (XO (XI (XI (XI XH)))))))) :: ((Npos (XO
-    (XO (XI (XI (XO (XI XH))))))) :: ((Npos (XI (XO (XO (XO (XO (XI (XO
-    XH)))))))) :: ((Npos (XI (XI (XO (XI (XI XH)))))) :: ((Npos (XO (XI (XO
-    (XO (XI (XO XH))))))) :: ((Npos (XI (XO (XO (XI (XO XH)))))) :: ((Npos
-    (XI (XO (XI (XI (XI (XO (XO XH)))))))) :: ((Npos (XI (XO (XI (XO (XI (XO
-    XH))))))) :: ((Npos (XO (XI (XO (XI (XO (XI (XO XH)))))))) :: ((Npos (XI
-    (XI (XO (XI (XI (XI (XI XH)))))))) :: ((Npos (XO (XO (XO (XO (XO (XI
-    XH))))))) :: ((Npos (XO (XI (XI (XO (XO (XO (XO XH)))))))) :: ((Npos (XI
-    (XO (XO (XO (XI (XI (XO XH)))))))) :: ((Npos (XI (XI (XO (XI (XI (XI (XO
-    XH)))))))) :: ((Npos (XO (XO (XI (XI (XO (XO (XI XH)))))))) :: ((Npos (XO
-    (XI (XI (XI (XI XH)))))) :: ((Npos (XO (XI (XO (XI (XI (XO
-    XH))))))) :: ((Npos (XI (XI (XO (XI (XO (XO (XI XH)))))))) :: ((Npos (XI
-    (XO (XO (XI (XI (XO XH))))))) :: ((Npos (XI (XI (XI (XI (XI (XO
-    XH))))))) :: ((Npos (XO (XO (XO (XO (XI (XI (XO XH)))))))) :: ((Npos (XO
-    (XO (XI (XI (XI (XO (XO XH)))))))) :: ((Npos (XI (XO (XO (XI (XO (XI (XO
-    XH)))))))) :: ((Npos (XO (XO (XO (XO (XO (XI (XO XH)))))))) :: ((Npos (XI
-    (XO (XO (XO (XI (XO XH))))))) :: ((Npos (XI (XI (XO XH)))) :: ((Npos (XI
-    (XO (XI (XO (XI (XI (XI XH)))))))) :: ((Npos (XO (XI (XI (XO
-    XH))))) :: ((Npos (XI (XI (XO (XI (XO (XI (XI XH)))))))) :: ((Npos (XO
-    (XI (XO (XI (XI (XI XH))))))) :: ((Npos (XI (XO (XI (XO (XI (XI
-    XH))))))) :: ((Npos (XO (XO (XI (XI (XO XH)))))) :: ((Npos (XI (XI (XI
-    (XO (XI (XO (XI XH)))))))) :: ((Npos (XI (XI (XI (XI (XO (XO
-    XH))))))) :: ((Npos (XO (XI (XI (XI (XO (XI (XO XH)))))))) :: ((Npos (XI
-    (XO (XI (XO (XI (XO (XI XH)))))))) :: ((Npos (XI (XO (XO (XI (XO (XI (XI
-    XH)))))))) :: ((Npos (XO (XI (XI (XO (XO (XI (XI XH)))))))) :: ((Npos (XI
-    (XI (XI (XO (XO (XI (XI XH)))))))) :: ((Npos (XI (XO (XI (XI (XO (XI (XO
-    XH)))))))) :: ((Npos (XO (XO (XO (XI (XO (XI (XI XH)))))))) :: ((Npos (XO
-    (XO (XI (XO (XI (XI XH))))))) :: ((Npos (XO (XI (XI (XO (XI (XO (XI
-    XH)))))))) :: ((Npos (XO (XO (XI (XO (XI (XI (XI XH)))))))) :: ((Npos (XO
-    (XI (XO (XI (XO (XI (XI XH)))))))) :: ((Npos (XO (XO (XO (XI (XO (XI (XO
-    XH)))))))) :: ((Npos (XO (XO (XO (XO (XI (XO XH))))))) :: ((Npos (XO (XO
-    (XO (XI (XI (XO XH))))))) :: ((Npos (XI (XI (XI (XI (XO (XI (XO
-    XH)))))))) :: [])))))))))))))))))))))))))))))))))))))))))))))))))))))))))))))))))))))))))))))))))))))))))))))))))))))))))))))))))))))))))))))))))))))))))))))))))))))))))))))))))))))))))))))))))))))))))))))))))))))))))))))))))))))))))))))))))))))))))))))))))))))))))))))))
-
-(** val exp_at : n -> n outcome **)
-
-let exp_at i =
-  nth_ok oCT_EXP (N.to_nat i)
-
-(** val log_at : n -> n outcome **)
-
-let log_at a =
-  nth_ok oCT_LOG (N.to_nat a)
-
-(** val expN : n -> n **)
-
-let expN i =
-  nth (N.to_nat i) oCT_EXP N0
-
-(** val logN : n -> n **)
-
-let logN a =
-  nth (N.to_nat a) oCT_LOG N0
-
-(** val mulN : n -> n -> n **)
-
-let mulN a b =
-  if (||) (N.eqb a N0) (N.eqb b N0)
-  then N0
-  else expN (N.add (logN a) (logN b))
-
-(** val divN : n -> n -> n **)
-
-let divN a b =
-  if N.eqb a N0
-  then N0
-  else expN
-         (N.sub (N.add (Npos (XI (XI (XI (XI (XI (XI (XI XH)))))))) (logN a))
-           (logN b))
-
-(** val oct_add : n -> n -> n **)
-
-let oct_add =
-  N.coq_lxor
-
-(** val oct_mul : n -> n -> n outcome **)
-
-let oct_mul a b =
-  if (||) (N.eqb a N0) (N.eqb b N0)
-  then Ok N0
-  else obind (log_at a) (fun la ->
-         obind (log_at b) (fun lb -> exp_at (N.add la lb)))
-
-(** val oct_div : n -> n -> n outcome **)
-
-let oct_div a b =
-  if N.eqb b N0
-  then Panic PAssert
-  else if N.eqb a N0
-       then Ok N0
-       else obind (log_at a) (fun la ->
-              obind (log_at b) (fun lb ->
-                if N.ltb
-                     (N.add (Npos (XI (XI (XI (XI (XI (XI (XI XH)))))))) la)
-                     lb
-                then Panic POverflow
-                else exp_at
-                       (N.sub
-                         (N.add (Npos (XI (XI (XI (XI (XI (XI (XI XH))))))))
-                           la) lb)))
-
-(** val oct_fma : n -> n -> n -> n outcome **)
-
-let oct_fma acc a b =
-  if (&&) (negb (N.eqb a N0)) (negb (N.eqb b N0))
-  then obind (log_at a) (fun la ->
-         obind (log_at b) (fun lb ->
-           obind (exp_at (N.add la lb)) (fun e -> Ok (N.coq_lxor acc e))))
-  else Ok acc
-
-(** val oct_alpha : n -> n outcome **)
-
-let oct_alpha i =
-  if N.ltb i (Npos (XO (XO (XO (XO (XO (XO (XO (XO XH)))))))))
-  then exp_at i
-  else Panic PAssert
-
-(** val const_mul : n -> n -> n outcome **)
-
-let const_mul x y =
-  obind (log_at x) (fun lx ->
-    obind (log_at y) (fun ly -> exp_at (N.add lx ly)))
-
-(** val or0 : n outcome -> n **)
-
-let or0 = function
-| Ok v -> v
-| Panic _ -> N0
-
-(** val octet_mul_table : n list list **)
-
-let octet_mul_table =
-  map (fun i ->
-    map (fun j ->
-      if (||) (N.eqb i N0) (N.eqb j N0) then N0 else or0 (const_mul i j))
-      (rangeN (S (S (S (S (S (S (S (S (S (S (S (S (S (S (S (S (S (S (S (S (S
-        (S (S (S (S (S (S (S (S (S (S (S (S (S (S (S (S (S (S (S (S (S (S (S
-        (S (S (S (S (S (S (S (S (S (S (S (S (S (S (S (S (S (S (S (S (S (S (S
-        (S (S (S (S (S (S (S (S (S (S (S (S (S (S (S (S (S (S (S (S (S (S (S
-        (S (S (S (S (S (S (S (S (S (S (S (S (S (S (S (S (S (S (S (S (S (S (S
-        (S (S (S (S (S (S (S (S (S (S (S (S (S (S (S (S (S (S (S (S (S (S (S
-        (S (S (S (S (S (S (S (S (S (S (S (S (S (S (S (S (S (S (S (S (S (S (S
-        (S (S (S (S (S (S (S (S (S (S (S (S (S (S (S (S (S (S (S (S (S (S (S
-        (S (S (S (S (S (S (S (S (S (S (S (S (S (S (S (S (S (S (S (S (S (S (S
-        (S (S (S (S (S (S (S (S (S (S (S (S (S (S (S (S (S (S (S (S (S (S (S
-        (S (S (S (S (S (S (S (S (S (S (S (S (S (S (S (S (S (S (S (S (S (S (S
-        (S (S (S (S (S
-        O))))))))))))))))))))))))))))))))))))))))))))))))))))))))))))))))))))))))))))))))))))))))))))))))))))))))))))))))))))))))))))))))))))))))))))))))))))))))))))))))))))))))))))))))))))))))))))))))))))))))))))))))))))))))))))))))))))))))))))))))))))))))))))))))))
-    (rangeN (S (S (S (S (S (S (S (S (S (S (S (S (S (S (S (S (S (S (S (S (S (S
-      (S (S (S (S (S (S (S (S (S (S (S (S (S (S (S (S (S (S (S (S (S (S (S (S
-      (S (S (S (S (S (S (S (S (S (S (S (S (S (S (S (S (S (S (S (S (S (S (S (S
-      (S (S (S (S (S (S (S (S (S (S (S (S (S (S (S (S (S (S (S (S (S (S (S (S
-      (S (S (S (S (S (S (S (S (S (S (S (S (S (S (S (S (S (S (S (S (S (S (S (S
-      (S (S (S (S (S (S (S (S (S (S (S (S (S (S (S (S (S (S (S (S (S (S (S (S
-      (S (S (S (S (S (S (S (S (S (S (S (S (S (S (S (S (S (S (S (S (S (S (S (S
-      (S (S (S (S (S (S (S (S (S (S (S (S (S (S (S (S (S (S (S (S (S (S (S (S
-      (S (S (S (S (S (S (S (S (S (S (S (S (S (S (S (S (S (S (S (S (S (S (S (S
-      (S (S (S (S (S (S (S (S (S (S (S (S (S (S (S (S (S (S (S (S (S (S (S (S
-      (S (S (S (S (S (S (S (S (S (S (S (S (S (S (S (S (S (S
-      O)))))))))))))))))))))))))))))))))))))))))))))))))))))))))))))))))))))))))))))))))))))))))))))))))))))))))))))))))))))))))))))))))))))))))))))))))))))))))))))))))))))))))))))))))))))))))))))))))))))))))))))))))))))))))))))))))))))))))))))))))))))))))))))))))
-
-(** val low_entry : n -> n -> n **)
-
-let low_entry i j =
-  let jj = N.modulo j (Npos (XO (XO (XO (XO XH))))) in
-  if (||) (N.eqb i N0) (N.eqb jj N0) then N0 else or0 (const_mul i jj)
-
-(** val octet_mul_low_table : n list list **)
-
-let octet_mul_low_table =
-  map (fun i ->
-    map (fun j -> low_entry i j)
-      (rangeN (S (S (S (S (S (S (S (S (S (S (S (S (S (S (S (S (S (S (S (S (S
-        (S (S (S (S (S (S (S (S (S (S (S O))))))))))))))))))))))))))))))))))
-    (rangeN (S (S (S (S (S (S (S (S (S (S (S (S (S (S (S (S (S (S (S (S (S (S
-      (S (S (S (S (S (S (S (S (S (S (S (S (S (S (S (S (S (S (S (S (S (S (S (S
-      (S (S (S (S (S (S (S (S (S (S (S (S (S (S (S (S (S (S (S (S (S (S (S (S
-      (S (S (S (S (S (S (S (S (S (S (S (S (S (S (S (S (S (S (S (S (S (S (S (S
-      (S (S (S (S (S (S (S (S (S (S (S (S (S (S (S (S (S (S (S (S (S (S (S (S
-      (S (S (S (S (S (S (S (S (S (S (S (S (S (S (S (S (S (S (S (S (S (S (S (S
-      (S (S (S (S (S (S (S (S (S (S (S (S (S (S (S (S (S (S (S (S (S (S (S (S
-      (S (S (S (S (S (S (S (S (S (S (S (S (S (S (S (S (S (S (S (S (S (S (S (S
-      (S (S (S (S (S (S (S (S (S (S (S (S (S (S (S (S (S (S (S (S (S (S (S (S
-      (S (S (S (S (S (S (S (S (S (S (S (S (S (S (S (S (S (S (S (S (S (S (S (S
-      (S (S (S (S (S (S (S (S (S (S (S (S (S (S (S (S (S (S
-      O)))))))))))))))))))))))))))))))))))))))))))))))))))))))))))))))))))))))))))))))))))))))))))))))))))))))))))))))))))))))))))))))))))))))))))))))))))))))))))))))))))))))))))))))))))))))))))))))))))))))))))))))))))))))))))))))))))))))))))))))))))))))))))))))))
-
-(** val hi_entry : n -> n -> n **)
-
-let hi_entry i j =
-  let jj = N.modulo j (Npos (XO (XO (XO (XO XH))))) in
-  if (||) (N.eqb i N0) (N.eqb jj N0)
-  then N0
-  else or0 (const_mul i (N.shiftl jj (Npos (XO (XO XH)))))
-
-(** val octet_mul_hi_table : n list list **)
-
-let octet_mul_hi_table =
-  map (fun i ->
-    map (fun j -> hi_entry i j)
-      (rangeN (S (S (S (S (S (S (S (S (S (S (S (S (S (S (S (S (S (S (S (S (S
-        (S (S (S (S (S (S (S (S (S (S (S O))))))))))))))))))))))))))))))))))
-    (rangeN (S (S (S (S (S (S (S (S (S (S (S (S (S (S (S (S (S (S (S (S (S (S
-      (S (S (S (S (S (S (S (S (S (S (S (S (S (S (S (S (S (S (S (S (S (S (S (S
-      (S (S (S (S (S (S (S (S (S (S (S (S (S (S (S (S (S (S (S (S (S (S (S (S
-      (S (S (S (S (S (S (S (S (S (S (S (S (S (S (S (S (S (S (S (S (S (S (S (S
-      (S (S (S (S (S (S (S (S (S (S (S (S (S (S (S (S (S (S (S (S (S (S (S (S
-      (S (S (S (S (S (S (S (S (S (S (S (S (S (S (S (S (S (S (S (S (S (S (S (S
-      (S (S (S (S (S (S (S (S (S (S (S (S (S (S (S (S (S (S (S (S (S (S (S (S
-      (S (S (S (S (S (S (S (S (S (S (S (S (S (S (S (S (S (S (S (S (S (S (S (S
-      (S (S (S (S (S (S (S (S (S (S (S (S (S (S (S (S (S (S (S (S (S (S (S (S
-      (S (S (S (S (S (S (S (S (S (S (S (S (S (S (S (S (S (S (S (S (S (S (S (S
-      (S (S (S (S (S (S (S (S (S (S (S (S (S (S (S (S (S (S
-      O)))))))))))))))))))))))))))))))))))))))))))))))))))))))))))))))))))))))))))))))))))))))))))))))))))))))))))))))))))))))))))))))))))))))))))))))))))))))))))))))))))))))))))))))))))))))))))))))))))))))))))))))))))))))))))))))))))))))))))))))))))))))))))))))))
-
-(** val tbl2 : n list list -> n -> n -> n outcome **)
-
-let tbl2 t0 i j =
-  obind (nth_ok t0 (N.to_nat i)) (fun r -> nth_ok r (N.to_nat j))
-
-(** val pid_new : n -> n -> (n * n) outcome **)
-
-let pid_new sbn esi =
-  if N.ltb esi eSI_LIMIT then Ok (sbn, esi) else Panic PAssert
-
-(** val pid_ser : (n * n) -> n list **)
-
-let pid_ser = function
-| (sbn, esi) ->
-  sbn :: ((u8 (N.shiftr esi (Npos (XO (XO (XO (XO XH))))))) :: ((u8
-                                                                  (N.coq_land
-                                                                    (N.shiftr
-                                                                    esi (Npos
-                                                                    (XO (XO
-                                                                    (XO
-                                                                    XH)))))
-                                                                    (Npos (XI
-                                                                    (XI (XI
-                                                                    (XI (XI
-                                                                    (XI (XI
-                                                                    XH)))))))))) :: (
-    (u8 (N.coq_land esi (Npos (XI (XI (XI (XI (XI (XI (XI XH)))))))))) :: [])))
-
-(** val pid_deser : n list -> (n * n) outcome **)
-
-let pid_deser = function
-| [] -> Panic PIndex
-| d0 :: l ->
-  (match l with
-   | [] -> Panic PIndex
-   | d1 :: l0 ->
-     (match l0 with
-      | [] -> Panic PIndex
-      | d2 :: l1 ->
-        (match l1 with
-         | [] -> Panic PIndex
-         | d3 :: l2 ->
-           (match l2 with
-            | [] ->
-              Ok (d0,
-                (N.add
-                  (N.add (N.shiftl d1 (Npos (XO (XO (XO (XO XH))))))
-                    (N.shiftl d2 (Npos (XO (XO (XO XH)))))) d3))
-            | _ :: _ -> Panic PIndex))))
-
-(** val slice_from : 'a1 list -> nat -> 'a1 list outcome **)
-
-let slice_from l n0 =
-  if leb n0 (length l) then Ok (skipn n0 l) else Panic PIndex
-
-(** val pkt_ser : ((n * n) * n list) -> n list **)
-
-let pkt_ser = function
-| (id, data) -> app (pid_ser id) data
-
-(** val pkt_deser : n list -> ((n * n) * n list) outcome **)
-
-let pkt_deser b =
-  obind (nth_ok b O) (fun d0 ->
-    obind (nth_ok b (S O)) (fun d1 ->
-      obind (nth_ok b (S (S O))) (fun d2 ->
-        obind (nth_ok b (S (S (S O)))) (fun d3 ->
-          obind (pid_deser (d0 :: (d1 :: (d2 :: (d3 :: []))))) (fun id ->
-            obind (slice_from b (S (S (S (S O))))) (fun rest -> Ok (id, rest)))))))
-
-type oti = (((n * n) * n) * n) * n
-
-(** val oti_ser : oti -> n list **)
-
-let oti_ser = function
-| (p, al) ->
-  let (p0, nsub) = p in
-  let (p1, z) = p0 in
-  let (f, t0) = p1 in
-  (u8
-    (N.coq_land (N.shiftr f (Npos (XO (XO (XO (XO (XO XH))))))) (Npos (XI (XI
-      (XI (XI (XI (XI (XI XH)))))))))) :: ((u8
-                                             (N.coq_land
-                                               (N.shiftr f (Npos (XO (XO (XO
-                                                 (XI XH)))))) (Npos (XI (XI
-                                               (XI (XI (XI (XI (XI XH)))))))))) :: (
-  (u8
-    (N.coq_land (N.shiftr f (Npos (XO (XO (XO (XO XH)))))) (Npos (XI (XI (XI
-      (XI (XI (XI (XI XH)))))))))) :: ((u8
-                                         (N.coq_land
-                                           (N.shiftr f (Npos (XO (XO (XO
-                                             XH))))) (Npos (XI (XI (XI (XI
-                                           (XI (XI (XI XH)))))))))) :: (
-  (u8 (N.coq_land f (Npos (XI (XI (XI (XI (XI (XI (XI XH)))))))))) :: (N0 :: (
-  (u8 (N.shiftr t0 (Npos (XO (XO (XO XH)))))) :: ((u8
-                                                    (N.coq_land t0 (Npos (XI
-                                                      (XI (XI (XI (XI (XI (XI
-                                                      XH)))))))))) :: (z :: (
-  (u8 (N.shiftr nsub (Npos (XO (XO (XO XH)))))) :: ((u8
-                                                      (N.coq_land nsub (Npos
-                                                        (XI (XI (XI (XI (XI
-                                                        (XI (XI XH)))))))))) :: (al :: [])))))))))))
-
-(** val oti_deser : n list -> oti outcome **)
-
-let oti_deser = function
-| [] -> Panic PIndex
-| d0 :: l ->
-  (match l with
-   | [] -> Panic PIndex
-   | d1 :: l0 ->
-     (match l0 with
-      | [] -> Panic PIndex
-      | d2 :: l1 ->
-        (match l1 with
-         | [] -> Panic PIndex
-         | d3 :: l2 ->
-           (match l2 with
-            | [] -> Panic PIndex
-            | d4 :: l3 ->
-              (match l3 with
-               | [] -> Panic PIndex
-               | _ :: l4 ->
-                 (match l4 with
-                  | [] -> Panic PIndex
-                  | d6 :: l5 ->
-                    (match l5 with
-                     | [] -> Panic PIndex
-                     | d7 :: l6 ->
-                       (match l6 with
-                        | [] -> Panic PIndex
-                        | d8 :: l7 ->
-                          (match l7 with
-                           | [] -> Panic PIndex
-                           | d9 :: l8 ->
-                             (match l8 with
-                              | [] -> Panic PIndex
-                              | d10 :: l9 ->
-                                (match l9 with
-                                 | [] -> Panic PIndex
-                                 | d11 :: l10 ->
-                                   (match l10 with
-                                    | [] ->
-                                      Ok
-                                        (((((N.add
-                                              (N.add
-                                                (N.add
-                                                  (N.add
-                                                    (N.shiftl d0 (Npos (XO
-                                                      (XO (XO (XO (XO
-                                                      XH)))))))
-                                                    (N.shiftl d1 (Npos (XO
-                                                      (XO (XO (XI XH)))))))
-                                                  (N.shiftl d2 (Npos (XO (XO
-                                                    (XO (XO XH)))))))
-                                                (N.shiftl d3 (Npos (XO (XO
-                                                  (XO XH)))))) d4),
-                                        (N.add
-                                          (N.shiftl d6 (Npos (XO (XO (XO
-                                            XH))))) d7)), d8),
-                                        (N.add
-                                          (N.shiftl d9 (Npos (XO (XO (XO
-                                            XH))))) d10)), d11)
-                                    | _ :: _ -> Panic PIndex))))))))))))
-
-(** val ceil_div64 : n -> n -> n **)
-
-let ceil_div64 num den =
-  if N.eqb (N.modulo num den) N0
-  then N.div num den
-  else N.add (N.div num den) (Npos XH)
-
-(** val int_div_ceil_pinned : n -> n -> n **)
-
-let int_div_ceil_pinned num den =
-  u32
-    (if N.eqb (N.modulo num den) N0
-     then N.div num den
-     else N.add (N.div num den) (Npos XH))
-
-(** val oti_new_gen :
-    (n -> n -> n) -> mode -> n -> n -> n -> n -> n -> oti outcome **)
-
-let oti_new_gen idc _ f t0 z nsub al =
-  obind (assert_ok (N.leb f mAX_TRANSFER_LENGTH)) (fun _ ->
-    obind (rem_ok t0 al) (fun r ->
-      obind (assert_ok (N.eqb r N0)) (fun _ ->
-        obind
-          (if (&&) (negb (N.eqb t0 N0)) (negb (N.eqb z N0))
-           then let symbols_required = idc (idc f t0) z in
-                assert_ok
-                  (N.leb symbols_required mAX_SOURCE_SYMBOLS_PER_BLOCK)
-           else Ok ()) (fun _ -> Ok ((((f, t0), z), nsub), al)))))
-
-(** val oti_new_pinned : mode -> n -> n -> n -> n -> n -> oti outcome **)
-
-let oti_new_pinned =
-  oti_new_gen int_div_ceil_pinned
-
-(** val oti_new_fixed : mode -> n -> n -> n -> n -> n -> oti outcome **)
-
-let oti_new_fixed =
-  oti_new_gen ceil_div64
-
-(** val oti_new : mode -> n -> n -> n -> n -> n -> oti outcome **)
-
-let oti_new =
-  oti_new_fixed
-
-(** val assoc_get : n -> (n * 'a1) list -> 'a1 option **)
-
-let rec assoc_get k = function
-| [] -> None
-| p :: t0 -> let (k', v) = p in if N.eqb k' k then Some v else assoc_get k t0
-
-(** val assoc_remove : n -> (n * 'a1) list -> (n * 'a1) list **)
-
-let assoc_remove k l =
-  filter (fun kv -> negb (N.eqb (fst kv) k)) l
-
-(** val assoc_insert : n -> 'a1 -> (n * 'a1) list -> (n * 'a1) list **)
-
-let rec assoc_insert k v = function
-| [] -> (k, v) :: []
-| p :: t0 ->
-  let (k', v') = p in
-  if N.eqb k' k then (k, v) :: t0 else (k', v') :: (assoc_insert k v t0)
-
-(** val keys : (n * 'a1) list -> n list **)
-
-let keys l =
-  map fst l
-
-type 'plan pc =
-| Idle
-| Missed of n
-| Generated of n * 'plan
-
-(** val get_pc : nat -> (nat * 'a1 pc) list -> 'a1 pc **)
-
-let rec get_pc t0 = function
-| [] -> Idle
-| p :: r -> let (t', c) = p in if Nat.eqb t' t0 then c else get_pc t0 r
-
-(** val set_pc :
-    nat -> 'a1 pc -> (nat * 'a1 pc) list -> (nat * 'a1 pc) list **)
-
-let rec set_pc t0 c = function
-| [] -> (t0, c) :: []
-| p :: r ->
-  let (t', c') = p in
-  if Nat.eqb t' t0 then (t0, c) :: r else (t', c') :: (set_pc t0 c r)
-
-type 'plan sysstate = { plans : (n * 'plan) list; order : n list;
-                        threads : (nat * 'plan pc) list }
-
-type step =
-| Lookup of nat * n
-| Generate of nat
-| Insert of nat
-
-type 'plan event =
-| Ret of nat * n * 'plan
-
-(** val init : 'a1 sysstate **)
-
-let init =
-  { plans = []; order = []; threads = [] }
-
-(** val do_lookup :
-    nat -> n -> 'a1 sysstate -> 'a1 sysstate * 'a1 event list **)
-
-let do_lookup t0 k st =
-  match get_pc t0 st.threads with
-  | Idle ->
-    (match assoc_get k st.plans with
-     | Some p -> (st, ((Ret (t0, k, p)) :: []))
-     | None ->
-       ({ plans = st.plans; order = st.order; threads =
-         (set_pc t0 (Missed k) st.threads) }, []))
-  | _ -> (st, [])
-
-(** val do_generate :
-    (n -> 'a1) -> nat -> 'a1 sysstate -> 'a1 sysstate * 'a1 event list **)
-
-let do_generate gen t0 st =
-  match get_pc t0 st.threads with
-  | Missed k ->
-    ({ plans = st.plans; order = st.order; threads =
-      (set_pc t0 (Generated (k, (gen k))) st.threads) }, [])
-  | _ -> (st, [])
-
-(** val evict : nat -> (n * 'a1) list -> n list -> (n * 'a1) list * n list **)
-
-let evict capacity pl ord =
-  if Nat.leb capacity (length pl)
-  then (match ord with
-        | [] -> (pl, ord)
-        | e :: rest -> ((assoc_remove e pl), rest))
-  else (pl, ord)
-
-(** val do_insert :
-    nat -> nat -> 'a1 sysstate -> 'a1 sysstate * 'a1 event list **)
-
-let do_insert capacity t0 st =
-  match get_pc t0 st.threads with
-  | Generated (k, p) ->
-    (match assoc_get k st.plans with
-     | Some p' ->
-       ({ plans = st.plans; order = st.order; threads =
-         (set_pc t0 Idle st.threads) }, ((Ret (t0, k, p')) :: []))
-     | None ->
-       let (pl1, ord1) = evict capacity st.plans st.order in
-       ({ plans = (assoc_insert k p pl1); order = (app ord1 (k :: []));
-       threads = (set_pc t0 Idle st.threads) }, ((Ret (t0, k, p)) :: [])))
-  | _ -> (st, [])
-
-(** val exec :
-    (n -> 'a1) -> nat -> step -> 'a1 sysstate -> 'a1 sysstate * 'a1 event list **)
-
-let exec gen capacity s st =
-  match s with
-  | Lookup (t0, k) -> do_lookup t0 k st
-  | Generate t0 -> do_generate gen t0 st
-  | Insert t0 -> do_insert capacity t0 st
-
-(** val insert_sorted : n -> n list -> n list **)
-
-let rec insert_sorted x l = match l with
-| [] -> x :: []
-| y :: t0 -> if N.leb x y then x :: l else y :: (insert_sorted x t0)
-
-(** val sort_N : n list -> n list **)
-
-let sort_N l =
-  fold_right insert_sorted [] l
-
-(** val decode_step : ((n * n) * n) -> step option **)
-
-let decode_step = function
-| (p, k) ->
-  let (t0, kind) = p in
-  (match kind with
-   | N0 -> Some (Lookup ((N.to_nat t0), k))
-   | Npos p0 ->
-     (match p0 with
-      | XI _ -> None
-      | XO p1 -> (match p1 with
-                  | XH -> Some (Insert (N.to_nat t0))
-                  | _ -> None)
-      | XH -> Some (Generate (N.to_nat t0))))
-
-(** val observe : n sysstate -> n event list -> n list **)
-
-let observe st evs =
-  app
-    (match evs with
-     | [] -> N0 :: (N0 :: [])
-     | e :: _ -> let Ret (_, _, p) = e in (Npos XH) :: (p :: []))
-    (app ((N.of_nat (length st.order)) :: [])
-      (app st.order
-        (app ((N.of_nat (length st.plans)) :: []) (sort_N (keys st.plans)))))
-
-(** val cache_trace_from :
-    nat -> ((n * n) * n) list -> n sysstate -> n list list **)
-
-let rec cache_trace_from capacity sched st =
-  match sched with
-  | [] -> []
-  | e :: rest ->
-    let (st1, evs) =
-      match decode_step e with
-      | Some s -> exec (fun k -> k) capacity s st
-      | None -> (st, [])
-    in
-    (observe st1 evs) :: (cache_trace_from capacity rest st1)
-
-(** val cache_trace : nat -> ((n * n) * n) list -> n list list **)
-
-let cache_trace capacity sched =
-  cache_trace_from capacity sched init
-
-(** val vadd : n list -> n list -> n list **)
-
-let rec vadd u v =
-  match u with
-  | [] -> []
-  | x :: u' ->
-    (match v with
-     | [] -> []
-     | y :: v' -> (N.coq_lxor x y) :: (vadd u' v'))
-
-(** val vzero : nat -> n list **)
-
-let vzero n0 =
-  repeat N0 n0
-
-(** val vec_eqb : n list -> n list -> bool **)
-
-let rec vec_eqb u v =
-  match u with
-  | [] -> (match v with
-           | [] -> true
-           | _ :: _ -> false)
-  | x :: u' ->
-    (match v with
-     | [] -> false
-     | y :: v' -> (&&) (N.eqb x y) (vec_eqb u' v'))
-
-(** val map2 : ('a1 -> 'a2 -> 'a3) -> 'a1 list -> 'a2 list -> 'a3 list **)
-
-let rec map2 f l m =
-  match l with
-  | [] -> []
-  | a :: l' -> (match m with
-                | [] -> []
-                | b :: m' -> (f a b) :: (map2 f l' m'))
-
-(** val vscale : (n -> n -> n) -> n -> n list -> n list **)
-
-let vscale mul0 c v =
-  map (mul0 c) v
-
-(** val lincomb : (n -> n -> n) -> nat -> n list -> n list list -> n list **)
-
-let rec lincomb mul0 t0 r c =
-  match r with
-  | [] -> vzero t0
-  | a :: r' ->
-    (match c with
-     | [] -> vzero t0
-     | c0 :: c' -> vadd (vscale mul0 a c0) (lincomb mul0 t0 r' c'))
-
-(** val pick_row : n list list -> (n list * n list list) option **)
-
-let rec pick_row = function
-| [] -> None
-| r :: a' ->
-  if N.eqb (hd N0 r) N0
-  then (match pick_row a' with
-        | Some p0 -> let (p, r0) = p0 in Some (p, (r :: r0))
-        | None -> None)
-  else Some (r, a')
-
-(** val pick_rhs : n list list -> n list list -> n list * n list list **)
-
-let rec pick_rhs a d =
-  match a with
-  | [] -> ([], d)
-  | r :: a' ->
-    if N.eqb (hd N0 r) N0
-    then let (dp, r0) = pick_rhs a' (tl d) in (dp, ((hd [] d) :: r0))
-    else ((hd [] d), (tl d))
-
-(** val elim_coef : (n -> n -> n) -> (n -> n) -> n list -> n list -> n **)
-
-let elim_coef mul0 inv p r =
-  mul0 (hd N0 r) (inv (hd N0 p))
-
-(** val elim_row : (n -> n -> n) -> (n -> n) -> n list -> n list -> n list **)
-
-let elim_row mul0 inv p r =
-  vadd (tl r) (vscale mul0 (elim_coef mul0 inv p r) (tl p))
-
-(** val elim_rhs :
-    (n -> n -> n) -> (n -> n) -> n list -> n list -> n list -> n list -> n
-    list **)
-
-let elim_rhs mul0 inv p dp r d =
-  vadd d (vscale mul0 (elim_coef mul0 inv p r) dp)
-
-(** val gauss_solve :
-    (n -> n -> n) -> (n -> n) -> nat -> nat -> n list list -> n list list ->
-    n list list option **)
-
-let rec gauss_solve mul0 inv t0 l a d =
-  match l with
-  | O -> Some []
-  | S l' ->
-    (match pick_row a with
-     | Some p0 ->
-       let (p, r) = p0 in
-       let (dp, rD) = pick_rhs a d in
-       (match gauss_solve mul0 inv t0 l' (map (elim_row mul0 inv p) r)
-                (map2 (elim_rhs mul0 inv p dp) r rD) with
-        | Some y ->
-          Some
-            ((vscale mul0 (inv (hd N0 p))
-               (vadd dp (lincomb mul0 t0 (tl p) y))) :: y)
-        | None -> None)
-     | None -> None)
-
-type cfg = { cF : n; cT : n; cZ : n; cN : n; cAl : n }
-
-(** val ceil : n -> n -> n **)
-
-let ceil a b =
-  N.div (N.add a (N.sub b (Npos XH))) b
-
-(** val floor : n -> n -> n **)
-
-let floor =
-  N.div
-
-(** val partition : n -> n -> ((n * n) * n) * n **)
-
-let partition i j =
-  let iL = ceil i j in
-  let iS = floor i j in
-  let jL = N.sub i (N.mul iS j) in let jS = N.sub j jL in (((iL, iS), jL), jS)
-
-(** val q1 : (((n * n) * n) * n) -> n **)
-
-let q1 = function
-| (p0, _) -> let (p1, _) = p0 in let (a, _) = p1 in a
-
-(** val q2 : (((n * n) * n) * n) -> n **)
-
-let q2 = function
-| (p0, _) -> let (p1, _) = p0 in let (_, b) = p1 in b
-
-(** val q3 : (((n * n) * n) * n) -> n **)
-
-let q3 = function
-| (p0, _) -> let (_, x) = p0 in x
-
-(** val sumN : n list -> n **)
-
-let sumN l =
-  fold_right N.add N0 l
-
-(** val kt : cfg -> n **)
-
-let kt c =
-  ceil c.cF c.cT
-
-(** val kL : cfg -> n **)
-
-let kL c =
-  q1 (partition (kt c) c.cZ)
-
-(** val kS : cfg -> n **)
-
-let kS c =
-  q2 (partition (kt c) c.cZ)
-
-(** val zL : cfg -> n **)
-
-let zL c =
-  q3 (partition (kt c) c.cZ)
-
-(** val tL : cfg -> n **)
-
-let tL c =
-  q1 (partition (N.div c.cT c.cAl) c.cN)
-
-(** val tS : cfg -> n **)
-
-let tS c =
-  q2 (partition (N.div c.cT c.cAl) c.cN)
-
-(** val nL : cfg -> n **)
-
-let nL c =
-  q3 (partition (N.div c.cT c.cAl) c.cN)
-
-(** val blk_K : cfg -> n -> n **)
-
-let blk_K c j =
-  if N.ltb j (zL c) then kL c else kS c
-
-(** val blk_off : cfg -> n -> n **)
-
-let blk_off c j =
-  N.mul c.cT (sumN (map (blk_K c) (rangeN (N.to_nat j))))
-
-(** val obj_byte : n list -> n -> n **)
-
-let obj_byte data i =
-  nth (N.to_nat i) data N0
-
-(** val blk_byte : cfg -> n list -> n -> n -> n **)
-
-let blk_byte c data j i =
-  obj_byte data (N.add (blk_off c j) i)
-
-(** val sub_len : cfg -> n -> n **)
-
-let sub_len c s =
-  if N.ltb s (nL c) then N.mul (tL c) c.cAl else N.mul (tS c) c.cAl
-
-(** val sub_off : cfg -> n -> n -> n **)
-
-let sub_off c j s =
-  N.mul (blk_K c j) (sumN (map (sub_len c) (rangeN (N.to_nat s))))
-
-(** val sub_symbol : cfg -> n list -> n -> n -> n -> n list **)
-
-let sub_symbol c data j s m =
-  map (fun i ->
-    blk_byte c data j
-      (N.add (N.add (sub_off c j s) (N.mul m (sub_len c s))) i))
-    (rangeN (N.to_nat (sub_len c s)))
-
-(** val symbol : cfg -> n list -> n -> n -> n list **)
-
-let symbol c data j m =
-  concat (map (fun s -> sub_symbol c data j s m) (rangeN (N.to_nat c.cN)))
-
-(** val source_packets_spec : cfg -> n list -> ((n * n) * n list) list **)
-
-let source_packets_spec c data =
-  concat
-    (map (fun j ->
-      map (fun m -> ((j, m), (symbol c data j m)))
-        (rangeN (N.to_nat (blk_K c j)))) (rangeN (N.to_nat c.cZ)))
 
 (** val rFC_V0 : n list **)
 
@@ -5031,296 +3888,22 @@ let tuple j w p1 x =
   in
   let b1 = rand x (Npos (XI (XO XH))) p1 in (((((d, a), b), d1), a1), b1)
 
-type cparams = { cK : n; cJ : n; cS : n; cH : n; cW : n; cP1 : n }
+(** val no_divisor_from : nat -> n -> n -> bool **)
 
-(** val cL : cparams -> n **)
-
-let cL p =
-  N.add (N.add p.cK p.cS) p.cH
-
-(** val cP : cparams -> n **)
-
-let cP p =
-  N.sub (cL p) p.cW
-
-(** val cB : cparams -> n **)
-
-let cB p =
-  N.sub p.cW p.cS
-
-(** val b2n : bool -> n **)
-
-let b2n = function
-| true -> Npos XH
-| false -> N0
-
-(** val parity : n -> n **)
-
-let parity n0 =
-  N.modulo n0 (Npos (XO XH))
-
-(** val ldpc_count : cparams -> n -> n -> n **)
-
-let ldpc_count p r j =
-  let s = p.cS in
-  let b = cB p in
-  let w = p.cW in
-  let p0 = cP p in
-  if N.ltb j b
-  then let a = N.add (Npos XH) (N.div j s) in
-       let b0 = N.modulo j s in
-       let b1 = N.modulo (N.add b0 a) s in
-       let b2 = N.modulo (N.add b1 a) s in
-       N.add (N.add (b2n (N.eqb b0 r)) (b2n (N.eqb b1 r))) (b2n (N.eqb b2 r))
-  else if N.ltb j w
-       then b2n (N.eqb (N.sub j b) r)
-       else N.add (b2n (N.eqb (N.modulo r p0) (N.sub j w)))
-              (b2n (N.eqb (N.modulo (N.add r (Npos XH)) p0) (N.sub j w)))
-
-(** val ldpc_entry : cparams -> n -> n -> n **)
-
-let ldpc_entry p r j =
-  parity (ldpc_count p r j)
-
-(** val alpha_pow : n -> n **)
-
-let alpha_pow i =
-  ppow2 (N.to_nat i)
-
-(** val mT : cparams -> n -> n -> n **)
-
-let mT p i k =
-  let h = p.cH in
-  let n0 = N.add p.cK p.cS in
-  if N.ltb (N.add k (Npos XH)) n0
-  then let r6 = rand (N.add k (Npos XH)) (Npos (XO (XI XH))) h in
-       let r7 =
-         rand (N.add k (Npos XH)) (Npos (XI (XI XH))) (N.sub h (Npos XH))
-       in
-       if (||) (N.eqb i r6)
-            (N.eqb i (N.modulo (N.add (N.add r6 r7) (Npos XH)) h))
-       then Npos XH
-       else N0
-  else alpha_pow i
-
-(** val gAMMA : n -> n -> n **)
-
-let gAMMA k j =
-  if N.leb j k then alpha_pow (N.sub k j) else N0
-
-(** val g_HDPC : cparams -> n -> n -> n **)
-
-let g_HDPC p i j =
-  let n0 = N.to_nat (N.add p.cK p.cS) in
-  xsum (map (fun k -> pmul (mT p i k) (gAMMA k j)) (rangeN n0))
-
-(** val hdpc_entry : cparams -> n -> n -> n **)
-
-let hdpc_entry p i j =
-  let n0 = N.add p.cK p.cS in
-  if N.ltb j n0 then g_HDPC p i j else b2n (N.eqb (N.sub j n0) i)
-
-(** val enc_lt : nat -> n -> n -> n -> n list **)
-
-let rec enc_lt n0 a w b =
-  match n0 with
-  | O -> []
-  | S n' -> let b' = N.modulo (N.add b a) w in b' :: (enc_lt n' a w b')
-
-(** val enc_skip : nat -> n -> n -> n -> n -> n **)
-
-let rec enc_skip fuel a1 p p1 b1 =
+let rec no_divisor_from fuel n0 d0 =
   match fuel with
-  | O -> b1
+  | O -> true
   | S f ->
-    if N.leb p b1 then enc_skip f a1 p p1 (N.modulo (N.add b1 a1) p1) else b1
+    if N.eqb (N.modulo n0 d0) N0
+    then false
+    else no_divisor_from f n0 (N.add d0 (Npos XH))
 
-(** val enc_pi : nat -> nat -> n -> n -> n -> n -> n -> n list **)
+(** val is_prime : n -> bool **)
 
-let rec enc_pi fuel n0 a1 w p p1 b1 =
-  match n0 with
-  | O -> []
-  | S n' ->
-    let b1' = enc_skip fuel a1 p p1 (N.modulo (N.add b1 a1) p1) in
-    (N.add w b1') :: (enc_pi fuel n' a1 w p p1 b1')
-
-(** val enc_indices : cparams -> (((((n * n) * n) * n) * n) * n) -> n list **)
-
-let enc_indices p = function
-| (p0, b1) ->
-  let (p1, a1) = p0 in
-  let (p2, d1) = p1 in
-  let (p3, b) = p2 in
-  let (d, a) = p3 in
-  let w = p.cW in
-  let p4 = cP p in
-  let p5 = p.cP1 in
-  let fuel = N.to_nat p5 in
-  let b1' = enc_skip fuel a1 p4 p5 b1 in
-  b :: (app (enc_lt (N.to_nat (N.sub d (Npos XH))) a w b)
-         ((N.add w b1') :: (enc_pi fuel (N.to_nat (N.sub d1 (Npos XH))) a1 w
-                             p4 p5 b1')))
-
-(** val tuple_of : cparams -> n -> ((((n * n) * n) * n) * n) * n **)
-
-let tuple_of p x =
-  tuple p.cJ p.cW p.cP1 x
-
-(** val count_occ_N : n list -> n -> n **)
-
-let count_occ_N l j =
-  fold_left (fun acc x -> if N.eqb x j then N.add acc (Npos XH) else acc) l N0
-
-(** val enc_entry : cparams -> n -> n -> n **)
-
-let enc_entry p x j =
-  parity (count_occ_N (enc_indices p (tuple_of p x)) j)
-
-(** val a_entry : cparams -> n list -> n -> n -> n **)
-
-let a_entry p isis r j =
-  let s = p.cS in
-  let h = p.cH in
-  if N.ltb r s
-  then ldpc_entry p r j
-  else if N.ltb r (N.add s h)
-       then hdpc_entry p (N.sub r s) j
-       else enc_entry p (nth (N.to_nat (N.sub (N.sub r s) h)) isis N0) j
-
-(** val a_rfc : cparams -> n list -> n list list **)
-
-let a_rfc p isis =
-  let l = N.to_nat (cL p) in
-  map (fun r -> map (fun j -> a_entry p isis r j) (rangeN l))
-    (rangeN (add (N.to_nat (N.add p.cS p.cH)) (length isis)))
-
-(** val vxor : n list -> n list -> n list **)
-
-let rec vxor u v =
-  match u with
-  | [] -> []
-  | x :: u' ->
-    (match v with
-     | [] -> []
-     | y :: v' -> (N.coq_lxor x y) :: (vxor u' v'))
-
-(** val enc :
-    cparams -> nat -> n list list -> (((((n * n) * n) * n) * n) * n) -> n list **)
-
-let enc p t0 c t1 =
-  fold_left (fun acc i -> vxor acc (nth (N.to_nat i) c (repeat N0 t0)))
-    (enc_indices p t1) (repeat N0 t0)
-
-module PositiveMap =
- struct
-  type key = positive
-
-  type 'a tree =
-  | Leaf
-  | Node of 'a tree * 'a option * 'a tree
-
-  type 'a t = 'a tree
-
-  (** val empty : 'a1 t **)
-
-  let empty =
-    Leaf
-
-  (** val find : key -> 'a1 t -> 'a1 option **)
-
-  let rec find i = function
-  | Leaf -> None
-  | Node (l, o, r) ->
-    (match i with
-     | XI ii -> find ii r
-     | XO ii -> find ii l
-     | XH -> o)
-
-  (** val add : key -> 'a1 -> 'a1 t -> 'a1 t **)
-
-  let rec add i v = function
-  | Leaf ->
-    (match i with
-     | XI ii -> Node (Leaf, None, (add ii v Leaf))
-     | XO ii -> Node ((add ii v Leaf), None, Leaf)
-     | XH -> Node (Leaf, (Some v), Leaf))
-  | Node (l, o, r) ->
-    (match i with
-     | XI ii -> Node (l, o, (add ii v r))
-     | XO ii -> Node ((add ii v l), o, r)
-     | XH -> Node (l, (Some v), r))
- end
-
-(** val fmul_key : n -> n -> positive **)
-
-let fmul_key a b =
-  N.succ_pos
-    (N.add (N.mul a (Npos (XO (XO (XO (XO (XO (XO (XO (XO XH)))))))))) b)
-
-(** val fmul_table : n PositiveMap.t **)
-
-let fmul_table =
-  fold_left (fun m a ->
-    fold_left (fun m0 b -> PositiveMap.add (fmul_key a b) (mulN a b) m0)
-      (rangeN (S (S (S (S (S (S (S (S (S (S (S (S (S (S (S (S (S (S (S (S (S
-        (S (S (S (S (S (S (S (S (S (S (S (S (S (S (S (S (S (S (S (S (S (S (S
-        (S (S (S (S (S (S (S (S (S (S (S (S (S (S (S (S (S (S (S (S (S (S (S
-        (S (S (S (S (S (S (S (S (S (S (S (S (S (S (S (S (S (S (S (S (S (S (S
-        (S (S (S (S (S (S (S (S (S (S (S (S (S (S (S (S (S (S (S (S (S (S (S
-        (S (S (S (S (S (S (S (S (S (S (S (S (S (S (S (S (S (S (S (S (S (S (S
-        (S (S (S (S (S (S (S (S (S (S (S (S (S (S (S (S (S (S (S (S (S (S (S
-        (S (S (S (S (S (S (S (S (S (S (S (S (S (S (S (S (S (S (S (S (S (S (S
-        (S (S (S (S (S (S (S (S (S (S (S (S (S (S (S (S (S (S (S (S (S (S (S
-        (S (S (S (S (S (S (S (S (S (S (S (S (S (S (S (S (S (S (S (S (S (S (S
-        (S (S (S (S (S (S (S (S (S (S (S (S (S (S (S (S (S (S (S (S (S (S (S
-        (S (S (S (S (S
-        O)))))))))))))))))))))))))))))))))))))))))))))))))))))))))))))))))))))))))))))))))))))))))))))))))))))))))))))))))))))))))))))))))))))))))))))))))))))))))))))))))))))))))))))))))))))))))))))))))))))))))))))))))))))))))))))))))))))))))))))))))))))))))))))))))
-      m)
-    (rangeN (S (S (S (S (S (S (S (S (S (S (S (S (S (S (S (S (S (S (S (S (S (S
-      (S (S (S (S (S (S (S (S (S (S (S (S (S (S (S (S (S (S (S (S (S (S (S (S
-      (S (S (S (S (S (S (S (S (S (S (S (S (S (S (S (S (S (S (S (S (S (S (S (S
-      (S (S (S (S (S (S (S (S (S (S (S (S (S (S (S (S (S (S (S (S (S (S (S (S
-      (S (S (S (S (S (S (S (S (S (S (S (S (S (S (S (S (S (S (S (S (S (S (S (S
-      (S (S (S (S (S (S (S (S (S (S (S (S (S (S (S (S (S (S (S (S (S (S (S (S
-      (S (S (S (S (S (S (S (S (S (S (S (S (S (S (S (S (S (S (S (S (S (S (S (S
-      (S (S (S (S (S (S (S (S (S (S (S (S (S (S (S (S (S (S (S (S (S (S (S (S
-      (S (S (S (S (S (S (S (S (S (S (S (S (S (S (S (S (S (S (S (S (S (S (S (S
-      (S (S (S (S (S (S (S (S (S (S (S (S (S (S (S (S (S (S (S (S (S (S (S (S
-      (S (S (S (S (S (S (S (S (S (S (S (S (S (S (S (S (S (S
-      O)))))))))))))))))))))))))))))))))))))))))))))))))))))))))))))))))))))))))))))))))))))))))))))))))))))))))))))))))))))))))))))))))))))))))))))))))))))))))))))))))))))))))))))))))))))))))))))))))))))))))))))))))))))))))))))))))))))))))))))))))))))))))))))))))
-    PositiveMap.empty
-
-(** val fmul : n -> n -> n **)
-
-let fmul a b =
-  match PositiveMap.find (fmul_key a b) fmul_table with
-  | Some v -> v
-  | None -> N0
-
-(** val finv_table : n PositiveMap.t **)
-
-let finv_table =
-  fold_left (fun m a -> PositiveMap.add (N.succ_pos a) (divN (Npos XH) a) m)
-    (rangeN (S (S (S (S (S (S (S (S (S (S (S (S (S (S (S (S (S (S (S (S (S (S
-      (S (S (S (S (S (S (S (S (S (S (S (S (S (S (S (S (S (S (S (S (S (S (S (S
-      (S (S (S (S (S (S (S (S (S (S (S (S (S (S (S (S (S (S (S (S (S (S (S (S
-      (S (S (S (S (S (S (S (S (S (S (S (S (S (S (S (S (S (S (S (S (S (S (S (S
-      (S (S (S (S (S (S (S (S (S (S (S (S (S (S (S (S (S (S (S (S (S (S (S (S
-      (S (S (S (S (S (S (S (S (S (S (S (S (S (S (S (S (S (S (S (S (S (S (S (S
-      (S (S (S (S (S (S (S (S (S (S (S (S (S (S (S (S (S (S (S (S (S (S (S (S
-      (S (S (S (S (S (S (S (S (S (S (S (S (S (S (S (S (S (S (S (S (S (S (S (S
-      (S (S (S (S (S (S (S (S (S (S (S (S (S (S (S (S (S (S (S (S (S (S (S (S
-      (S (S (S (S (S (S (S (S (S (S (S (S (S (S (S (S (S (S (S (S (S (S (S (S
-      (S (S (S (S (S (S (S (S (S (S (S (S (S (S (S (S (S (S
-      O)))))))))))))))))))))))))))))))))))))))))))))))))))))))))))))))))))))))))))))))))))))))))))))))))))))))))))))))))))))))))))))))))))))))))))))))))))))))))))))))))))))))))))))))))))))))))))))))))))))))))))))))))))))))))))))))))))))))))))))))))))))))))))))))))
-    PositiveMap.empty
-
-(** val finv : n -> n **)
-
-let finv a =
-  match PositiveMap.find (N.succ_pos a) finv_table with
-  | Some v -> v
-  | None -> N0
+let is_prime n0 =
+  (&&) (N.ltb (Npos XH) n0)
+    (no_divisor_from (N.to_nat (N.sub (N.sqrt n0) (Npos XH))) n0 (Npos (XO
+      XH)))
 
 (** val tABLE2 : ((((n * n) * n) * n) * n) list **)
 
@@ -7945,6 +6528,1256 @@ let p1_TABLE =
     XH)))))))))) :: (((Npos (XI (XI (XO (XO (XI (XO (XI (XO (XO (XO (XI (XI
     (XI (XO (XI XH)))))))))))))))), (Npos (XI (XI (XO (XI (XI (XI (XI (XO
     XH)))))))))) :: []))))))))))))))))))))))))))))))))))))))))))))))))))))))))))))))))))))))))))))))))))))))))))))))))))))))))))))))))))))))))))))))))))))))))))))))))))))))))))))))))))))))))))))))))))))))))))))))))))))))))))))))))))))))))))))))))))))))))))))))))))))))))))))))))))))))))))))))))))))))))))))))))))))))))))))))))))))))))))))))))))))))))))))))))))))))))))))))))))))))))))))))))))))))))))))))))))))))))))))))))))))))))))))))))))))))))))))))))))))))))))))))))))))))))))))))))))))))))))))
+
+(** val kprimes : n list **)
+
+let kprimes =
+  map (fun r ->
+    let (p, _) = r in
+    let (p0, _) = p in let (p1, _) = p0 in let (k, _) = p1 in k) tABLE2
+
+(** val pick_le : n -> n -> n option -> n option **)
+
+let pick_le b k r =
+  if N.leb k b
+  then (match r with
+        | Some a -> Some (N.max k a)
+        | None -> Some k)
+  else r
+
+(** val greatest_le : n -> n list -> n option **)
+
+let rec greatest_le b = function
+| [] -> None
+| k :: t0 -> pick_le b k (greatest_le b t0)
+
+(** val al_of : n -> n **)
+
+let al_of mtu =
+  if N.leb (Npos (XO (XO (XO (XO (XO (XO XH))))))) mtu
+  then Npos (XO (XO (XO XH)))
+  else Npos XH
+
+(** val sS_of : n -> n **)
+
+let sS_of mtu =
+  if N.leb (Npos (XO (XO (XO (XO (XO (XO XH))))))) mtu
+  then Npos (XO (XO (XO XH)))
+  else Npos XH
+
+(** val t_of : n -> n **)
+
+let t_of mtu =
+  N.mul (N.div mtu (al_of mtu)) (al_of mtu)
+
+(** val kt_of : n -> n -> n **)
+
+let kt_of f mtu =
+  ceil_div f (t_of mtu)
+
+(** val nmax_of : n -> n **)
+
+let nmax_of mtu =
+  N.div (t_of mtu) (N.mul (sS_of mtu) (al_of mtu))
+
+(** val kL_bound : n -> n -> n -> n **)
+
+let kL_bound mtu wS n0 =
+  N.div wS (N.mul (al_of mtu) (ceil_div (t_of mtu) (N.mul (al_of mtu) n0)))
+
+(** val kL : n -> n -> n -> n option **)
+
+let kL mtu wS n0 =
+  greatest_le (kL_bound mtu wS n0) kprimes
+
+(** val z_of : n -> n -> n -> n **)
+
+let z_of f mtu wS =
+  match kL mtu wS (nmax_of mtu) with
+  | Some k -> ceil_div (kt_of f mtu) k
+  | None -> N0
+
+(** val fits : n -> n -> n -> n -> bool **)
+
+let fits f mtu wS n0 =
+  match kL mtu wS n0 with
+  | Some k -> N.leb (ceil_div (kt_of f mtu) (z_of f mtu wS)) k
+  | None -> false
+
+(** val n_opt : n -> n -> n -> n option **)
+
+let n_opt f mtu wS =
+  find (fits f mtu wS) (map N.of_nat (seq (S O) (N.to_nat (nmax_of mtu))))
+
+(** val n_of : n -> n -> n -> n **)
+
+let n_of f mtu wS =
+  match n_opt f mtu wS with
+  | Some n0 -> n0
+  | None -> N0
+
+(** val db : n -> n -> n -> bool **)
+
+let db f mtu wS =
+  (&&)
+    ((&&)
+      ((&&)
+        ((&&) ((&&) (N.leb (Npos XH) f) (N.leb (al_of mtu) mtu))
+          (N.leb f
+            (N.mul
+              (N.mul (Npos (XI (XI (XO (XO (XI (XO (XI (XO (XO (XO (XI (XI
+                (XI (XO (XI XH)))))))))))))))) (Npos (XI (XI (XI (XI (XI (XI
+                (XI XH))))))))) (t_of mtu))))
+        (match kL mtu wS (nmax_of mtu) with
+         | Some _ -> true
+         | None -> false))
+      (N.leb (z_of f mtu wS) (Npos (XI (XI (XI (XI (XI (XI (XI XH))))))))))
+    (N.ltb (kt_of f mtu)
+      (N.pow (Npos (XO XH)) (Npos (XO (XO (XO (XO (XO XH))))))))
+
+(** val int_div_ceil : mode -> n -> n -> n outcome **)
+
+let int_div_ceil m num denom =
+  if N.eqb denom N0
+  then Panic PDivZero
+  else if N.eqb (N.modulo num denom) N0
+       then Ok (u32 (N.div num denom))
+       else obind
+              (add_w m (Npos (XO (XO (XO (XO (XO (XO XH)))))))
+                (N.div num denom) (Npos XH)) (fun s -> Ok (u32 s))
+
+(** val kl_scan :
+    bool -> mode -> n -> n -> n -> n -> ((((n * n) * n) * n) * n) list -> n
+    outcome **)
+
+let rec kl_scan fixed m symbol_size alignment n0 wS = function
+| [] -> if fixed then Ok N0 else Panic PUnreachable
+| p :: rest ->
+  let (p0, _) = p in
+  let (p1, _) = p0 in
+  let (p2, _) = p1 in
+  let (kprime, _) = p2 in
+  obind (mul_w m (Npos (XO (XO (XO (XO (XO (XO XH))))))) alignment n0)
+    (fun d ->
+    obind (int_div_ceil m symbol_size d) (fun x ->
+      obind (mul_w m (Npos (XO (XO (XO (XO (XO (XO XH))))))) alignment x)
+        (fun d2 ->
+        obind (div_ok wS d2) (fun q ->
+          if if fixed then N.leb kprime q else N.leb kprime (u32 q)
+          then Ok kprime
+          else kl_scan fixed m symbol_size alignment n0 wS rest))))
+
+(** val kl : bool -> mode -> n -> n -> n -> n -> n outcome **)
+
+let kl fixed m symbol_size alignment n0 wS =
+  kl_scan fixed m symbol_size alignment n0 wS (rev tABLE2)
+
+(** val nsearch :
+    bool -> mode -> n -> n -> n -> n -> n -> nat -> n -> n -> n outcome **)
+
+let rec nsearch fixed m symbol_size alignment wS kt0 nsb cnt i n0 =
+  match cnt with
+  | O -> Ok n0
+  | S c ->
+    obind (int_div_ceil m kt0 nsb) (fun lhs ->
+      obind (kl fixed m symbol_size alignment i wS) (fun k ->
+        if N.leb lhs k
+        then Ok i
+        else nsearch fixed m symbol_size alignment wS kt0 nsb c
+               (N.add i (Npos XH)) i))
+
+(** val gen_params_body :
+    bool -> mode -> n -> n -> n -> n -> n -> ((((n * n) * n) * n) * n) outcome **)
+
+let gen_params_body fixed m f mtu wS alignment sub_symbol_size =
+  obind (assert_ok (N.leb alignment mtu)) (fun _ ->
+    obind (rem_ok mtu alignment) (fun r ->
+      obind (sub_w m (Npos (XO (XO (XO (XO XH))))) mtu r) (fun symbol_size ->
+        obind (int_div_ceil m f symbol_size) (fun kt0 ->
+          obind
+            (mul_w m (Npos (XO (XO (XO (XO XH))))) sub_symbol_size alignment)
+            (fun sa ->
+            obind (div_ok symbol_size sa) (fun n_max ->
+              obind (kl fixed m symbol_size alignment n_max wS) (fun klmax ->
+                obind (int_div_ceil m kt0 klmax) (fun nsb ->
+                  obind
+                    (nsearch fixed m symbol_size alignment wS kt0 nsb
+                      (N.to_nat n_max) (Npos XH) (Npos XH)) (fun n0 -> Ok
+                    ((((f, symbol_size), (u8 nsb)), (u16 n0)),
+                    (u8 alignment)))))))))))
+
+(** val gen_params :
+    bool -> mode -> n -> n -> n -> ((((n * n) * n) * n) * n) outcome **)
+
+let gen_params fixed m f mtu wS =
+  if N.leb (N.mul (Npos (XO (XO (XO XH)))) (Npos (XO (XO (XO XH))))) mtu
+  then let alignment = Npos (XO (XO (XO XH))) in
+       let sub_symbol_size = Npos (XO (XO (XO XH))) in
+       gen_params_body fixed m f mtu wS alignment sub_symbol_size
+  else let alignment = Npos XH in
+       let sub_symbol_size = Npos XH in
+       gen_params_body fixed m f mtu wS alignment sub_symbol_size
+
+(** val with_defaults :
+    bool -> mode -> n -> n -> ((((n * n) * n) * n) * n) outcome **)
+
+let with_defaults fixed m f mtu =
+  gen_params fixed m f mtu dEFAULT_MEMORY
+
+(** val oCT_EXP : n list **)
+
+let oCT_EXP =
+  (Npos XH) :: ((Npos (XO XH)) :: ((Npos (XO (XO XH))) :: ((Npos (XO (XO (XO
+    XH)))) :: ((Npos (XO (XO (XO (XO XH))))) :: ((Npos (XO (XO (XO (XO (XO
+    XH)))))) :: ((Npos (XO (XO (XO (XO (XO (XO XH))))))) :: ((Npos (XO (XO
+    (XO (XO (XO (XO (XO XH)))))))) :: ((Npos (XI (XO (XI (XI
+    XH))))) :: ((Npos (XO (XI (XO (XI (XI XH)))))) :: ((Npos (XO (XO (XI (XO
+    (XI (XI XH))))))) :: ((Npos (XO (XO (XO (XI (XO (XI (XI
+    XH)))))))) :: ((Npos (XI (XO (XI (XI (XO (XO (XI XH)))))))) :: ((Npos (XI
+    (XI (XI (XO (XO (XO (XO XH)))))))) :: ((Npos (XI (XI (XO (XO
+    XH))))) :: ((Npos (XO (XI (XI (XO (XO XH)))))) :: ((Npos (XO (XO (XI (XI
+    (XO (XO XH))))))) :: ((Npos (XO (XO (XO (XI (XI (XO (XO
+    XH)))))))) :: ((Npos (XI (XO (XI (XI (XO XH)))))) :: ((Npos (XO (XI (XO
+    (XI (XI (XO XH))))))) :: ((Npos (XO (XO (XI (XO (XI (XI (XO
+    XH)))))))) :: ((Npos (XI (XO (XI (XO (XI (XI XH))))))) :: ((Npos (XO (XI
+    (XO (XI (XO (XI (XI XH)))))))) :: ((Npos (XI (XO (XO (XI (XO (XO (XI
+    XH)))))))) :: ((Npos (XI (XI (XI (XI (XO (XO (XO XH)))))))) :: ((Npos (XI
+    XH)) :: ((Npos (XO (XI XH))) :: ((Npos (XO (XO (XI XH)))) :: ((Npos (XO
+    (XO (XO (XI XH))))) :: ((Npos (XO (XO (XO (XO (XI XH)))))) :: ((Npos (XO
+    (XO (XO (XO (XO (XI XH))))))) :: ((Npos (XO (XO (XO (XO (XO (XO (XI
+    XH)))))))) :: ((Npos (XI (XO (XI (XI (XI (XO (XO XH)))))))) :: ((Npos (XI
+    (XI (XI (XO (XO XH)))))) :: ((Npos (XO (XI (XI (XI (XO (XO
+    XH))))))) :: ((Npos (XO (XO (XI (XI (XI (XO (XO XH)))))))) :: ((Npos (XI
+    (XO (XI (XO (XO XH)))))) :: ((Npos (XO (XI (XO (XI (XO (XO
+    XH))))))) :: ((Npos (XO (XO (XI (XO (XI (XO (XO XH)))))))) :: ((Npos (XI
+    (XO (XI (XO (XI XH)))))) :: ((Npos (XO (XI (XO (XI (XO (XI
+    XH))))))) :: ((Npos (XO (XO (XI (XO (XI (XO (XI XH)))))))) :: ((Npos (XI
+    (XO (XI (XO (XI (XI (XO XH)))))))) :: ((Npos (XI (XI (XI (XO (XI (XI
+    XH))))))) :: ((Npos (XO (XI (XI (XI (XO (XI (XI XH)))))))) :: ((Npos (XI
+    (XO (XO (XO (XO (XO (XI XH)))))))) :: ((Npos (XI (XI (XI (XI (XI (XO (XO
+    XH)))))))) :: ((Npos (XI (XI (XO (XO (XO XH)))))) :: ((Npos (XO (XI (XI
+    (XO (XO (XO XH))))))) :: ((Npos (XO (XO (XI (XI (XO (XO (XO
+    XH)))))))) :: ((Npos (XI (XO XH))) :: ((Npos (XO (XI (XO XH)))) :: ((Npos
+    (XO (XO (XI (XO XH))))) :: ((Npos (XO (XO (XO (XI (XO XH)))))) :: ((Npos
+    (XO (XO (XO (XO (XI (XO XH))))))) :: ((Npos (XO (XO (XO (XO (XO (XI (XO
+    XH)))))))) :: ((Npos (XI (XO (XI (XI (XI (XO XH))))))) :: ((Npos (XO (XI
+    (XO (XI (XI (XI (XO XH)))))))) :: ((Npos (XI (XO (XO (XI (XO (XI
+    XH))))))) :: ((Npos (XO (XI (XO (XO (XI (XO (XI XH)))))))) :: ((Npos (XI
+    (XO (XO (XI (XI (XI (XO XH)))))))) :: ((Npos (XI (XI (XI (XI (XO (XI
+    XH))))))) :: ((Npos (XO (XI (XI (XI (XI (XO (XI XH)))))))) :: ((Npos (XI
+    (XO (XO (XO (XO (XI (XO XH)))))))) :: ((Npos (XI (XI (XI (XI (XI (XO
+    XH))))))) :: ((Npos (XO (XI (XI (XI (XI (XI (XO XH)))))))) :: ((Npos (XI
+    (XO (XO (XO (XO (XI XH))))))) :: ((Npos (XO (XI (XO (XO (XO (XO (XI
+    XH)))))))) :: ((Npos (XI (XO (XO (XI (XI (XO (XO XH)))))))) :: ((Npos (XI
+    (XI (XI (XI (XO XH)))))) :: ((Npos (XO (XI (XI (XI (XI (XO
+    XH))))))) :: ((Npos (XO (XO (XI (XI (XI (XI (XO XH)))))))) :: ((Npos (XI
+    (XO (XI (XO (XO (XI XH))))))) :: ((Npos (XO (XI (XO (XI (XO (XO (XI
+    XH)))))))) :: ((Npos (XI (XO (XO (XI (XO (XO (XO XH)))))))) :: ((Npos (XI
+    (XI (XI XH)))) :: ((Npos (XO (XI (XI (XI XH))))) :: ((Npos (XO (XO (XI
+    (XI (XI XH)))))) :: ((Npos (XO (XO (XO (XI (XI (XI XH))))))) :: ((Npos
+    (XO (XO (XO (XO (XI (XI (XI XH)))))))) :: ((Npos (XI (XO (XI (XI (XI (XI
+    (XI XH)))))))) :: ((Npos (XI (XI (XI (XO (XO (XI (XI XH)))))))) :: ((Npos
+    (XI (XI (XO (XO (XI (XO (XI XH)))))))) :: ((Npos (XI (XI (XO (XI (XI (XI
+    (XO XH)))))))) :: ((Npos (XI (XI (XO (XI (XO (XI XH))))))) :: ((Npos (XO
+    (XI (XI (XO (XI (XO (XI XH)))))))) :: ((Npos (XI (XO (XO (XO (XI (XI (XO
+    XH)))))))) :: ((Npos (XI (XI (XI (XI (XI (XI XH))))))) :: ((Npos (XO (XI
+    (XI (XI (XI (XI (XI XH)))))))) :: ((Npos (XI (XO (XO (XO (XO (XI (XI
+    XH)))))))) :: ((Npos (XI (XI (XI (XI (XI (XO (XI XH)))))))) :: ((Npos (XI
+    (XI (XO (XO (XO (XI (XO XH)))))))) :: ((Npos (XI (XI (XO (XI (XI (XO
+    XH))))))) :: ((Npos (XO (XI (XI (XO (XI (XI (XO XH)))))))) :: ((Npos (XI
+    (XO (XO (XO (XI (XI XH))))))) :: ((Npos (XO (XI (XO (XO (XO (XI (XI
+    XH)))))))) :: ((Npos (XI (XO (XO (XI (XI (XO (XI XH)))))))) :: ((Npos (XI
+    (XI (XI (XI (XO (XI (XO XH)))))))) :: ((Npos (XI (XI (XO (XO (XO (XO
+    XH))))))) :: ((Npos (XO (XI (XI (XO (XO (XO (XO XH)))))))) :: ((Npos (XI
+    (XO (XO (XO XH))))) :: ((Npos (XO (XI (XO (XO (XO XH)))))) :: ((Npos (XO
+    (XO (XI (XO (XO (XO XH))))))) :: ((Npos (XO (XO (XO (XI (XO (XO (XO
+    XH)))))))) :: ((Npos (XI (XO (XI XH)))) :: ((Npos (XO (XI (XO (XI
+    XH))))) :: ((Npos (XO (XO (XI (XO (XI XH)))))) :: ((Npos (XO (XO (XO (XI
+    (XO (XI XH))))))) :: ((Npos (XO (XO (XO (XO (XI (XO (XI
+    XH)))))))) :: ((Npos (XI (XO (XI (XI (XI (XI (XO XH)))))))) :: ((Npos (XI
+    (XI (XI (XO (XO (XI XH))))))) :: ((Npos (XO (XI (XI (XI (XO (XO (XI
+    XH)))))))) :: ((Npos (XI (XO (XO (XO (XO (XO (XO XH)))))))) :: ((Npos (XI
+    (XI (XI (XI XH))))) :: ((Npos (XO (XI (XI (XI (XI XH)))))) :: ((Npos (XO
+    (XO (XI (XI (XI (XI XH))))))) :: ((Npos (XO (XO (XO (XI (XI (XI (XI
+    XH)))))))) :: ((Npos (XI (XO (XI (XI (XO (XI (XI XH)))))))) :: ((Npos (XI
+    (XI (XI (XO (XO (XO (XI XH)))))))) :: ((Npos (XI (XI (XO (XO (XI (XO (XO
+    XH)))))))) :: ((Npos (XI (XI (XO (XI (XI XH)))))) :: ((Npos (XO (XI (XI
+    (XO (XI (XI XH))))))) :: ((Npos (XO (XO (XI (XI (XO (XI (XI
+    XH)))))))) :: ((Npos (XI (XO (XI (XO (XO (XO (XI XH)))))))) :: ((Npos (XI
+    (XI (XI (XO (XI (XO (XO XH)))))))) :: ((Npos (XI (XI (XO (XO (XI
+    XH)))))) :: ((Npos (XO (XI (XI (XO (XO (XI XH))))))) :: ((Npos (XO (XO
+    (XI (XI (XO (XO (XI XH)))))))) :: ((Npos (XI (XO (XI (XO (XO (XO (XO
+    XH)))))))) :: ((Npos (XI (XI (XI (XO XH))))) :: ((Npos (XO (XI (XI (XI
+    (XO XH)))))) :: ((Npos (XO (XO (XI (XI (XI (XO XH))))))) :: ((Npos (XO
+    (XO (XO (XI (XI (XI (XO XH)))))))) :: ((Npos (XI (XO (XI (XI (XO (XI
+    XH))))))) :: ((Npos (XO (XI (XO (XI (XI (XO (XI XH)))))))) :: ((Npos (XI
+    (XO (XO (XI (XO (XI (XO XH)))))))) :: ((Npos (XI (XI (XI (XI (XO (XO
+    XH))))))) :: ((Npos (XO (XI (XI (XI (XI (XO (XO XH)))))))) :: ((Npos (XI
+    (XO (XO (XO (XO XH)))))) :: ((Npos (XO (XI (XO (XO (XO (XO
+    XH))))))) :: ((Npos (XO (XO (XI (XO (XO (XO (XO XH)))))))) :: ((Npos (XI
+    (XO (XI (XO XH))))) :: ((Npos (XO (XI (XO (XI (XO XH)))))) :: ((Npos (XO
+    (XO (XI (XO (XI (XO XH))))))) :: ((Npos (XO (XO (XO (XI (XO (XI (XO
+    XH)))))))) :: ((Npos (XI (XO (XI (XI (XO (XO XH))))))) :: ((Npos (XO (XI
+    (XO (XI (XI (XO (XO XH)))))))) :: ((Npos (XI (XO (XO (XI (XO
+    XH)))))) :: ((Npos (XO (XI (XO (XO (XI (XO XH))))))) :: ((Npos (XO (XO
+    (XI (XO (XO (XI (XO XH)))))))) :: ((Npos (XI (XO (XI (XO (XI (XO
+    XH))))))) :: ((Npos (XO (XI (XO (XI (XO (XI (XO XH)))))))) :: ((Npos (XI
+    (XO (XO (XI (XO (XO XH))))))) :: ((Npos (XO (XI (XO (XO (XI (XO (XO
+    XH)))))))) :: ((Npos (XI (XO (XO (XI (XI XH)))))) :: ((Npos (XO (XI (XO
+    (XO (XI (XI XH))))))) :: ((Npos (XO (XO (XI (XO (XO (XI (XI
+    XH)))))))) :: ((Npos (XI (XO (XI (XO (XI (XO (XI XH)))))))) :: ((Npos (XI
+    (XI (XI (XO (XI (XI (XO XH)))))))) :: ((Npos (XI (XI (XO (XO (XI (XI
+    XH))))))) :: ((Npos (XO (XI (XI (XO (XO (XI (XI XH)))))))) :: ((Npos (XI
+    (XO (XO (XO (XI (XO (XI XH)))))))) :: ((Npos (XI (XI (XI (XI (XI (XI (XO
+    XH)))))))) :: ((Npos (XI (XI (XO (XO (XO (XI XH))))))) :: ((Npos (XO (XI
+    (XI (XO (XO (XO (XI XH)))))))) :: ((Npos (XI (XO (XO (XO (XI (XO (XO
+    XH)))))))) :: ((Npos (XI (XI (XI (XI (XI XH)))))) :: ((Npos (XO (XI (XI
+    (XI (XI (XI XH))))))) :: ((Npos (XO (XO (XI (XI (XI (XI (XI
+    XH)))))))) :: ((Npos (XI (XO (XI (XO (XO (XI (XI XH)))))))) :: ((Npos (XI
+    (XI (XI (XO (XI (XO (XI XH)))))))) :: ((Npos (XI (XI (XO (XO (XI (XI (XO
+    XH)))))))) :: ((Npos (XI (XI (XO (XI (XI (XI XH))))))) :: ((Npos (XO (XI
+    (XI (XO (XI (XI (XI XH)))))))) :: ((Npos (XI (XO (XO (XO (XI (XI (XI
+    XH)))))))) :: ((Npos (XI (XI (XI (XI (XI (XI (XI XH)))))))) :: ((Npos (XI
+    (XI (XO (XO (XO (XI (XI XH)))))))) :: ((Npos (XI (XI (XO (XI (XI (XO (XI
+    XH)))))))) :: ((Npos (XI (XI (XO (XI (XO (XI (XO XH)))))))) :: ((Npos (XI
+    (XI (XO (XI (XO (XO XH))))))) :: ((Npos (XO (XI (XI (XO (XI (XO (XO
+    XH)))))))) :: ((Npos (XI (XO (XO (XO (XI XH)))))) :: ((Npos (XO (XI (XO
+    (XO (XO (XI XH))))))) :: ((Npos (XO (XO (XI (XO (XO (XO (XI
+    XH)))))))) :: ((Npos (XI (XO (XI (XO (XI (XO (XO XH)))))))) :: ((Npos (XI
+    (XI (XI (XO (XI XH)))))) :: ((Npos (XO (XI (XI (XI (XO (XI
+    XH))))))) :: ((Npos (XO (XO (XI (XI (XI (XO (XI XH)))))))) :: ((Npos (XI
+    (XO (XI (XO (XO (XI (XO XH)))))))) :: ((Npos (XI (XI (XI (XO (XI (XO
+    XH))))))) :: ((Npos (XO (XI (XI (XI (XO (XI (XO XH)))))))) :: ((Npos (XI
+    (XO (XO (XO (XO (XO XH))))))) :: ((Npos (XO (XI (XO (XO (XO (XO (XO
+    XH)))))))) :: ((Npos (XI (XO (XO (XI XH))))) :: ((Npos (XO (XI (XO (XO
+    (XI XH)))))) :: ((Npos (XO (XO (XI (XO (XO (XI XH))))))) :: ((Npos (XO
+    (XO (XO (XI (XO (XO (XI XH)))))))) :: ((Npos (XI (XO (XI (XI (XO (XO (XO
+    XH)))))))) :: ((Npos (XI (XI XH))) :: ((Npos (XO (XI (XI XH)))) :: ((Npos
+    (XO (XO (XI (XI XH))))) :: ((Npos (XO (XO (XO (XI (XI XH)))))) :: ((Npos
+    (XO (XO (XO (XO (XI (XI XH))))))) :: ((Npos (XO (XO (XO (XO (XO (XI (XI
+    XH)))))))) :: ((Npos (XI (XO (XI (XI (XI (XO (XI XH)))))))) :: ((Npos (XI
+    (XI (XI (XO (XO (XI (XO XH)))))))) :: ((Npos (XI (XI (XO (XO (XI (XO
+    XH))))))) :: ((Npos (XO (XI (XI (XO (XO (XI (XO XH)))))))) :: ((Npos (XI
+    (XO (XO (XO (XI (XO XH))))))) :: ((Npos (XO (XI (XO (XO (XO (XI (XO
+    XH)))))))) :: ((Npos (XI (XO (XO (XI (XI (XO XH))))))) :: ((Npos (XO (XI
+    (XO (XO (XI (XI (XO XH)))))))) :: ((Npos (XI (XO (XO (XI (XI (XI
+    XH))))))) :: ((Npos (XO (XI (XO (XO (XI (XI (XI XH)))))))) :: ((Npos (XI
+    (XO (XO (XI (XI (XI (XI XH)))))))) :: ((Npos (XI (XI (XI (XI (XO (XI (XI
+    XH)))))))) :: ((Npos (XI (XI (XO (XO (XO (XO (XI XH)))))))) :: ((Npos (XI
+    (XI (XO (XI (XI (XO (XO XH)))))))) :: ((Npos (XI (XI (XO (XI (XO
+    XH)))))) :: ((Npos (XO (XI (XI (XO (XI (XO XH))))))) :: ((Npos (XO (XO
+    (XI (XI (XO (XI (XO XH)))))))) :: ((Npos (XI (XO (XI (XO (XO (XO
+    XH))))))) :: ((Npos (XO (XI (XO (XI (XO (XO (XO XH)))))))) :: ((Npos (XI
+    (XO (XO XH)))) :: ((Npos (XO (XI (XO (XO XH))))) :: ((Npos (XO (XO (XI
+    (XO (XO XH)))))) :: ((Npos (XO (XO (XO (XI (XO (XO XH))))))) :: ((Npos
+    (XO (XO (XO (XO (XI (XO (XO XH)))))))) :: ((Npos (XI (XO (XI (XI (XI
+    XH)))))) :: ((Npos (XO (XI (XO (XI (XI (XI XH))))))) :: ((Npos (XO (XO
+    (XI (XO (XI (XI (XI XH)))))))) :: ((Npos (XI (XO (XI (XO (XI (XI (XI
+    XH)))))))) :: ((Npos (XI (XI (XI (XO (XI (XI (XI XH)))))))) :: ((Npos (XI
+    (XI (XO (XO (XI (XI (XI XH)))))))) :: ((Npos (XI (XI (XO (XI (XI (XI (XI
+    XH)))))))) :: ((Npos (XI (XI (XO (XI (XO (XI (XI XH)))))))) :: ((Npos (XI
+    (XI (XO (XI (XO (XO (XI XH)))))))) :: ((Npos (XI (XI (XO (XI (XO (XO (XO
+    XH)))))))) :: ((Npos (XI (XI (XO XH)))) :: ((Npos (XO (XI (XI (XO
+    XH))))) :: ((Npos (XO (XO (XI (XI (XO XH)))))) :: ((Npos (XO (XO (XO (XI
+    (XI (XO XH))))))) :: ((Npos (XO (XO (XO (XO (XI (XI (XO
+    XH)))))))) :: ((Npos (XI (XO (XI (XI (XI (XI XH))))))) :: ((Npos (XO (XI
+    (XO (XI (XI (XI (XI XH)))))))) :: ((Npos (XI (XO (XO (XI (XO (XI (XI
+    XH)))))))) :: ((Npos (XI (XI (XI (XI (XO (XO (XI XH)))))))) :: ((Npos (XI
+    (XI (XO (XO (XO (XO (XO XH)))))))) :: ((Npos (XI (XI (XO (XI
+    XH))))) :: ((Npos (XO (XI (XI (XO (XI XH)))))) :: ((Npos (XO (XO (XI (XI
+    (XO (XI XH))))))) :: ((Npos (XO (XO (XO (XI (XI (XO (XI
+    XH)))))))) :: ((Npos (XI (XO (XI (XI (XO (XI (XO XH)))))))) :: ((Npos (XI
+    (XI (XI (XO (XO (XO XH))))))) :: ((Npos (XO (XI (XI (XI (XO (XO (XO
+    XH)))))))) :: ((Npos XH) :: ((Npos (XO XH)) :: ((Npos (XO (XO
+    XH))) :: ((Npos (XO (XO (XO XH)))) :: ((Npos (XO (XO (XO (XO
+    XH))))) :: ((Npos (XO (XO (XO (XO (XO XH)))))) :: ((Npos (XO (XO (XO (XO
+    (XO (XO XH))))))) :: ((Npos (XO (XO (XO (XO (XO (XO (XO
+    XH)))))))) :: ((Npos (XI (XO (XI (XI XH))))) :: ((Npos (XO (XI (XO (XI
+    (XI XH)))))) :: ((Npos (XO (XO (XI (XO (XI (XI XH))))))) :: ((Npos (XO
+    (XO (XO (XI (XO (XI (XI XH)))))))) :: ((Npos (XI (XO (XI (XI (XO (XO (XI
+    XH)))))))) :: ((Npos (XI (XI (XI (XO (XO (XO (XO XH)))))))) :: ((Npos (XI
+    (XI (XO (XO XH))))) :: ((Npos (XO (XI (XI (XO (XO XH)))))) :: ((Npos (XO
+    (XO (XI (XI (XO (XO XH))))))) :: ((Npos (XO (XO (XO (XI (XI (XO (XO
+    XH)))))))) :: ((Npos (XI (XO (XI (XI (XO XH)))))) :: ((Npos (XO (XI (XO
+    (XI (XI (XO XH))))))) :: ((Npos (XO (XO (XI (XO (XI (XI (XO
+    XH)))))))) :: ((Npos (XI (XO (XI (XO (XI (XI XH))))))) :: ((Npos (XO (XI
+    (XO (XI (XO (XI (XI XH)))))))) :: ((Npos (XI (XO (XO (XI (XO (XO (XI
+    XH)))))))) :: ((Npos (XI (XI (XI (XI (XO (XO (XO XH)))))))) :: ((Npos (XI
+    XH)) :: ((Npos (XO (XI XH))) :: ((Npos (XO (XO (XI XH)))) :: ((Npos (XO
+    (XO (XO (XI XH))))) :: ((Npos (XO (XO (XO (XO (XI XH)))))) :: ((Npos (XO
+    (XO (XO (XO (XO (XI XH))))))) :: ((Npos (XO (XO (XO (XO (XO (XO (XI
+    XH)))))))) :: ((Npos (XI (XO (XI (XI (XI (XO (XO XH)))))))) :: ((Npos (XI
+    (XI (XI (XO (XO XH)))))) :: ((Npos (XO (XI (XI (XI (XO (XO
+    XH))))))) :: ((Npos (XO (XO (XI (XI (XI (XO (XO XH)))))))) :: ((Npos (XI
+    (XO (XI (XO (XO XH)))))) :: ((Npos (XO (XI (XO (XI (XO (XO
+    XH))))))) :: ((Npos (XO (XO (XI (XO (XI (XO (XO XH)))))))) :: ((Npos (XI
+    (XO (XI (XO (XI XH)))))) :: ((Npos (XO (XI (XO (XI (XO (XI
+    XH))))))) :: ((Npos (XO (XO (XI (XO (XI (XO (XI XH)))))))) :: ((Npos (XI
+    (XO (XI (XO (XI (XI (XO XH)))))))) :: ((Npos (XI (XI (XI (XO (XI (XI
+    XH))))))) :: ((Npos (XO (XI (XI (XI (XO (XI (XI XH)))))))) :: ((Npos (XI
+    (XO (XO (XO (XO (XO (XI XH)))))))) :: ((Npos (XI (XI (XI (XI (XI (XO (XO
+    XH)))))))) :: ((Npos (XI (XI (XO (XO (XO XH)))))) :: ((Npos (XO (XI (XI
+    (XO (XO (XO XH))))))) :: ((Npos (XO (XO (XI (XI (XO (XO (XO
+    XH)))))))) :: ((Npos (XI (XO XH))) :: ((Npos (XO (XI (XO XH)))) :: ((Npos
+    (XO (XO (XI (XO XH))))) :: ((Npos (XO (XO (XO (XI (XO XH)))))) :: ((Npos
+    (XO (XO (XO (XO (XI (XO XH))))))) :: ((Npos (XO (XO (XO (XO (XO (XI (XO
+    XH)))))))) :: ((Npos (XI (XO (XI (XI (XI (XO XH))))))) :: ((Npos (XO (XI
+    (XO (XI (XI (XI (XO XH)))))))) :: ((Npos (XI (XO (XO (XI (XO (XI
+    XH))))))) :: ((Npos (XO (XI (XO (XO (XI (XO (XI XH)))))))) :: ((Npos (XI
+    (XO (XO (XI (XI (XI (XO XH)))))))) :: ((Npos (XI (XI (XI (XI (XO (XI
+    XH))))))) :: ((Npos (XO (XI (XI (XI (XI (XO (XI XH)))))))) :: ((Npos (XI
+    (XO (XO (XO (XO (XI (XO XH)))))))) :: ((Npos (XI (XI (XI (XI (XI (XO
+    XH))))))) :: ((Npos (XO (XI (XI (XI (XI (XI (XO XH)))))))) :: ((Npos (XI
+    (XO (XO (XO (XO (XI XH))))))) :: ((Npos (XO (XI (XO (XO (XO (XO (XI
+    XH)))))))) :: ((Npos (XI (XO (XO (XI (XI (XO (XO XH)))))))) :: ((Npos (XI
+    (XI (XI (XI (XO XH)))))) :: ((Npos (XO (XI (XI (XI (XI (XO
+    XH))))))) :: ((Npos (XO (XO (XI (XI (XI (XI (XO XH)))))))) :: ((Npos (XI
+    (XO (XI (XO (XO (XI XH))))))) :: ((Npos (XO (XI (XO (XI (XO (XO (XI
+    XH)))))))) :: ((Npos (XI (XO (XO (XI (XO (XO (XO XH)))))))) :: ((Npos (XI
+    (XI (XI XH)))) :: ((Npos (XO (XI (XI (XI XH))))) :: ((Npos (XO (XO (XI
+    (XI (XI XH)))))) :: ((Npos (XO (XO (XO (XI (XI (XI XH))))))) :: ((Npos
+    (XO (XO (XO (XO (XI (XI (XI XH)))))))) :: ((Npos (XI (XO (XI (XI (XI (XI
+    (XI XH)))))))) :: ((Npos (XI (XI (XI (XO (XO (XI (XI XH)))))))) :: ((Npos
+    (XI (XI (XO (XO (XI (XO (XI XH)))))))) :: ((Npos (XI (XI (XO (XI (XI (XI
+    (XO XH)))))))) :: ((Npos (XI (XI (XO (XI (XO (XI XH))))))) :: ((Npos (XO
+    (XI (XI (XO (XI (XO (XI XH)))))))) :: ((Npos (XI (XO (XO (XO (XI (XI (XO
+    XH)))))))) :: ((Npos (XI (XI (XI (XI (XI (XI XH))))))) :: ((Npos (XO (XI
+    (XI (XI (XI (XI (XI XH)))))))) :: ((Npos (XI (XO (XO (XO (XO (XI (XI
+    XH)))))))) :: ((Npos (XI (XI (XI (XI (XI (XO (XI XH)))))))) :: ((Npos (XI
+    (XI (XO (XO (XO (XI (XO XH)))))))) :: ((Npos (XI (XI (XO (XI (XI (XO
+    XH))))))) :: ((Npos (XO (XI (XI (XO (XI (XI (XO XH)))))))) :: ((Npos (XI
+    (XO (XO (XO (XI (XI XH))))))) :: ((Npos (XO (XI (XO (XO (XO (XI (XI
+    XH)))))))) :: ((Npos (XI (XO (XO (XI (XI (XO (XI XH)))))))) :: ((Npos (XI
+    (XI (XI (XI (XO (XI (XO XH)))))))) :: ((Npos (XI (XI (XO (XO (XO (XO
+    XH))))))) :: ((Npos (XO (XI (XI (XO (XO (XO (XO XH)))))))) :: ((Npos (XI
+    (XO (XO (XO XH))))) :: ((Npos (XO (XI (XO (XO (XO XH)))))) :: ((Npos (XO
+    (XO (XI (XO (XO (XO XH))))))) :: ((Npos (XO (XO (XO (XI (XO (XO (XO
+    XH)))))))) :: ((Npos (XI (XO (XI XH)))) :: ((Npos (XO (XI (XO (XI
+    XH))))) :: ((Npos (XO (XO (XI (XO (XI XH)))))) :: ((Npos (XO (XO (XO (XI
+    (XO (XI XH))))))) :: ((Npos (XO (XO (XO (XO (XI (XO (XI
+    XH)))))))) :: ((Npos (XI (XO (XI (XI (XI (XI (XO XH)))))))) :: ((Npos (XI
+    (XI (XI (XO (XO (XI XH))))))) :: ((Npos (XO (XI (XI (XI (XO (XO (XI
+    XH)))))))) :: ((Npos (XI (XO (XO (XO (XO (XO (XO XH)))))))) :: ((Npos (XI
+    (XI (XI (XI XH))))) :: ((Npos (XO (XI (XI (XI (XI XH)))))) :: ((Npos (XO
+    (XO (XI (XI (XI (XI XH))))))) :: ((Npos (XO (XO (XO (XI (XI (XI (XI
+    XH)))))))) :: ((Npos (XI (XO (XI (XI (XO (XI (XI XH)))))))) :: ((Npos (XI
+    (XI (XI (XO (XO (XO (XI XH)))))))) :: ((Npos (XI (XI (XO (XO (XI (XO (XO
+    XH)))))))) :: ((Npos (XI (XI (XO (XI (XI XH)))))) :: ((Npos (XO (XI (XI
+    (XO (XI (XI XH))))))) :: ((Npos (XO (XO (XI (XI (XO (XI (XI
+    XH)))))))) :: ((Npos (XI (XO (XI (XO (XO (XO (XI XH)))))))) :: ((Npos (XI
+    (XI (XI (XO (XI (XO (XO XH)))))))) :: ((Npos (XI (XI (XO (XO (XI
+    XH)))))) :: ((Npos (XO (XI (XI (XO (XO (XI XH))))))) :: ((Npos (XO (XO
+    (XI (XI (XO (XO (XI XH)))))))) :: ((Npos (XI (XO (XI (XO (XO (XO (XO
+    XH)))))))) :: ((Npos (XI (XI (XI (XO XH))))) :: ((Npos (XO (XI (XI (XI
+    (XO XH)))))) :: ((Npos (XO (XO (XI (XI (XI (XO XH))))))) :: ((Npos (XO
+    (XO (XO (XI (XI (XI (XO XH)))))))) :: ((Npos (XI (XO (XI (XI (XO (XI
+    XH))))))) :: ((Npos (XO (XI (XO (XI (XI (XO (XI XH)))))))) :: ((Npos (XI
+    (XO (XO (XI (XO (XI (XO XH)))))))) :: ((Npos (XI (XI (XI (XI (XO (XO
+    XH))))))) :: ((Npos (XO (XI (XI (XI (XI (XO (XO XH)))))))) :: ((Npos (XI
+    (XO (XO (XO (XO XH)))))) :: ((Npos (XO (XI (XO (XO (XO (XO
+    XH))))))) :: ((Npos (XO (XO (XI (XO (XO (XO (XO XH)))))))) :: ((Npos (XI
+    (XO (XI (XO XH))))) :: ((Npos (XO (XI (XO (XI (XO XH)))))) :: ((Npos (XO
+    (XO (XI (XO (XI (XO XH))))))) :: ((Npos (XO (XO (XO (XI (XO (XI (XO
+    XH)))))))) :: ((Npos (XI (XO (XI (XI (XO (XO XH))))))) :: ((Npos (XO (XI
+    (XO (XI (XI (XO (XO XH)))))))) :: ((Npos (XI (XO (XO (XI (XO
+    XH)))))) :: ((Npos (XO (XI (XO (XO (XI (XO XH))))))) :: ((Npos (XO (XO
+    (XI (XO (XO (XI (XO XH)))))))) :: ((Npos (XI (XO (XI (XO (XI (XO
+    XH))))))) :: ((Npos (XO (XI (XO (XI (XO (XI (XO XH)))))))) :: ((Npos (XI
+    (XO (XO (XI (XO (XO XH))))))) :: ((Npos (XO (XI (XO (XO (XI (XO (XO
+    XH)))))))) :: ((Npos (XI (XO (XO (XI (XI XH)))))) :: ((Npos (XO (XI (XO
+    (XO (XI (XI XH))))))) :: ((Npos (XO (XO (XI (XO (XO (XI (XI
+    XH)))))))) :: ((Npos (XI (XO (XI (XO (XI (XO (XI XH)))))))) :: ((Npos (XI
+    (XI (XI (XO (XI (XI (XO XH)))))))) :: ((Npos (XI (XI (XO (XO (XI (XI
+    XH))))))) :: ((Npos (XO (XI (XI (XO (XO (XI (XI XH)))))))) :: ((Npos (XI
+    (XO (XO (XO (XI (XO (XI XH)))))))) :: ((Npos (XI (XI (XI (XI (XI (XI (XO
+    XH)))))))) :: ((Npos (XI (XI (XO (XO (XO (XI XH))))))) :: ((Npos (XO (XI
+    (XI (XO (XO (XO (XI XH)))))))) :: ((Npos (XI (XO (XO (XO (XI (XO (XO
+    XH)))))))) :: ((Npos (XI (XI (XI (XI (XI XH)))))) :: ((Npos (XO (XI (XI
+    (XI (XI (XI XH))))))) :: ((Npos (XO (XO (XI (XI (XI (XI (XI
+    XH)))))))) :: ((Npos (XI (XO (XI (XO (XO (XI (XI XH)))))))) :: ((Npos (XI
+    (XI (XI (XO (XI (XO (XI XH)))))))) :: ((Npos (XI (XI (XO (XO (XI (XI (XO
+    XH)))))))) :: ((Npos (XI (XI (XO (XI (XI (XI XH))))))) :: ((Npos (XO (XI
+    (XI (XO (XI (XI (XI XH)))))))) :: ((Npos (XI (XO (XO (XO (XI (XI (XI
+    XH)))))))) :: ((Npos (XI (XI (XI (XI (XI (XI (XI XH)))))))) :: ((Npos (XI
+    (XI (XO (XO (XO (XI (XI XH)))))))) :: ((Npos (XI (XI (XO (XI (XI (XO (XI
+    XH)))))))) :: ((Npos (XI (XI (XO (XI (XO (XI (XO XH)))))))) :: ((Npos (XI
+    (XI (XO (XI (XO (XO XH))))))) :: ((Npos (XO (XI (XI (XO (XI (XO (XO
+    XH)))))))) :: ((Npos (XI (XO (XO (XO (XI XH)))))) :: ((Npos (XO (XI (XO
+    (XO (XO (XI XH))))))) :: ((Npos (XO (XO (XI (XO (XO (XO (XI
+    XH)))))))) :: ((Npos (XI (XO (XI (XO (XI (XO (XO XH)))))))) :: ((Npos (XI
+    (XI (XI (XO (XI XH)))))) :: ((Npos (XO (XI (XI (XI (XO (XI
+    XH))))))) :: ((Npos (XO (XO (XI (XI (XI (XO (XI XH)))))))) :: ((Npos (XI
+    (XO (XI (XO (XO (XI (XO XH)))))))) :: ((Npos (XI (XI (XI (XO (XI (XO
+    XH))))))) :: ((Npos (XO (XI (XI (XI (XO (XI (XO XH)))))))) :: ((Npos (XI
+    (XO (XO (XO (XO (XO XH))))))) :: ((Npos (XO (XI (XO (XO (XO (XO (XO
+    XH)))))))) :: ((Npos (XI (XO (XO (XI XH))))) :: ((Npos (XO (XI (XO (XO
+    (XI XH)))))) :: ((Npos (XO (XO (XI (XO (XO (XI XH))))))) :: ((Npos (XO
+    (XO (XO (XI (XO (XO (XI XH)))))))) :: ((Npos (XI (XO (XI (XI (XO (XO (XO
+    XH)))))))) :: ((Npos (XI (XI XH))) :: ((Npos (XO (XI (XI XH)))) :: ((Npos
+    (XO (XO (XI (XI XH))))) :: ((Npos (XO (XO (XO (XI (XI XH)))))) :: ((Npos
+    (XO (XO (XO (XO (XI (XI XH))))))) :: ((Npos (XO (XO (XO (XO (XO (XI (XI
+    XH)))))))) :: ((Npos (XI (XO (XI (XI (XI (XO (XI XH)))))))) :: ((Npos (XI
+    (XI (XI (XO (XO (XI (XO XH)))))))) :: ((Npos (XI (XI (XO (XO (XI (XO
+    XH))))))) :: ((Npos (XO (XI (XI (XO (XO (XI (XO XH)))))))) :: ((Npos (XI
+    (XO (XO (XO (XI (XO XH))))))) :: ((Npos (XO (XI (XO (XO (XO (XI (XO
+    XH)))))))) :: ((Npos (XI (XO (XO (XI (XI (XO XH))))))) :: ((Npos (XO (XI
+    (XO (XO (XI (XI (XO XH)))))))) :: ((Npos (XI (XO (XO (XI (XI (XI
+    XH))))))) :: ((Npos (XO (XI (XO (XO (XI (XI (XI XH)))))))) :: ((Npos (XI
+    (XO (XO (XI (XI (XI (XI XH)))))))) :: ((Npos (XI (XI (XI (XI (XO (XI (XI
+    XH)))))))) :: ((Npos (XI (XI (XO (XO (XO (XO (XI XH)))))))) :: ((Npos (XI
+    (XI (XO (XI (XI (XO (XO XH)))))))) :: ((Npos (XI (XI (XO (XI (XO
+    XH)))))) :: ((Npos (XO (XI (XI (XO (XI (XO XH))))))) :: ((Npos (XO (XO
+    (XI (XI (XO (XI (XO XH)))))))) :: ((Npos (XI (XO (XI (XO (XO (XO
+    XH))))))) :: ((Npos (XO (XI (XO (XI (XO (XO (XO XH)))))))) :: ((Npos (XI
+    (XO (XO XH)))) :: ((Npos (XO (XI (XO (XO XH))))) :: ((Npos (XO (XO (XI
+    (XO (XO XH)))))) :: ((Npos (XO (XO (XO (XI (XO (XO XH))))))) :: ((Npos
+    (XO (XO (XO (XO (XI (XO (XO XH)))))))) :: ((Npos (XI (XO (XI (XI (XI
+    XH)))))) :: ((Npos (XO (XI (XO (XI (XI (XI XH))))))) :: ((Npos (XO (XO
+    (XI (XO (XI (XI (XI XH)))))))) :: ((Npos (XI (XO (XI (XO (XI (XI (XI
+    XH)))))))) :: ((Npos (XI (XI (XI (XO (XI (XI (XI XH)))))))) :: ((Npos (XI
+    (XI (XO (XO (XI (XI (XI XH)))))))) :: ((Npos (XI (XI (XO (XI (XI (XI (XI
+    XH)))))))) :: ((Npos (XI (XI (XO (XI (XO (XI (XI XH)))))))) :: ((Npos (XI
+    (XI (XO (XI (XO (XO (XI XH)))))))) :: ((Npos (XI (XI (XO (XI (XO (XO (XO
+    XH)))))))) :: ((Npos (XI (XI (XO XH)))) :: ((Npos (XO (XI (XI (XO
+    XH))))) :: ((Npos (XO (XO (XI (XI (XO XH)))))) :: ((Npos (XO (XO (XO (XI
+    (XI (XO XH))))))) :: ((Npos (XO (XO (XO (XO (XI (XI (XO
+    XH)))))))) :: ((Npos (XI (XO (XI (XI (XI (XI XH))))))) :: ((Npos (XO (XI
+    (XO (XI (XI (XI (XI XH)))))))) :: ((Npos (XI (XO (XO (XI (XO (XI (XI
+    XH)))))))) :: ((Npos (XI (XI (XI (XI (XO (XO (XI XH)))))))) :: ((Npos (XI
+    (XI (XO (XO (XO (XO (XO XH)))))))) :: ((Npos (XI (XI (XO (XI
+    XH))))) :: ((Npos (XO (XI (XI (XO (XI XH)))))) :: ((Npos (XO (XO (XI (XI
+    (XO (XI XH))))))) :: ((Npos (XO (XO (XO (XI (XI (XO (XI
+    XH)))))))) :: ((Npos (XI (XO (XI (XI (XO (XI (XO XH)))))))) :: ((Npos (XI
+    (XI (XI (XO (XO (XO XH))))))) :: ((Npos (XO (XI (XI (XI (XO (XO (XO
+    XH)))))))) :: [])))))))))))))))))))))))))))))))))))))))))))))))))))))))))))))))))))))))))))))))))))))))))))))))))))))))))))))))))))))))))))))))))))))))))))))))))))))))))))))))))))))))))))))))))))))))))))))))))))))))))))))))))))))))))))))))))))))))))))))))))))))))))))))))))))))))))))))))))))))))))))))))))))))))))))))))))))))))))))))))))))))))))))))))))))))))))))))))))))))))))))))))))))))))))))))))))))))))))))))))))))))))))))))))))))))))))))))))))))))))))))))))))))))))))))))))))))))))))))))))))))))))))))))))))))))))))))))
+
+(** val oCT_LOG : n list **)
+
+let oCT_LOG =
+  N0 :: (N0 :: ((Npos XH) :: ((Npos (XI (XO (XO (XI XH))))) :: ((Npos (XO
+    XH)) :: ((Npos (XO (XI (XO (XO (XI XH)))))) :: ((Npos (XO (XI (XO (XI
+    XH))))) :: ((Npos (XO (XI (XI (XO (XO (XO (XI XH)))))))) :: ((Npos (XI
+    XH)) :: ((Npos (XI (XI (XI (XI (XI (XO (XI XH)))))))) :: ((Npos (XI (XI
+    (XO (XO (XI XH)))))) :: ((Npos (XO (XI (XI (XI (XO (XI (XI
+    XH)))))))) :: ((Npos (XI (XI (XO (XI XH))))) :: ((Npos (XO (XO (XO (XI
+    (XO (XI XH))))))) :: ((Npos (XI (XI (XI (XO (XO (XO (XI
+    XH)))))))) :: ((Npos (XI (XI (XO (XI (XO (XO XH))))))) :: ((Npos (XO (XO
+    XH))) :: ((Npos (XO (XO (XI (XO (XO (XI XH))))))) :: ((Npos (XO (XO (XO
+    (XO (XO (XI (XI XH)))))))) :: ((Npos (XO (XI (XI XH)))) :: ((Npos (XO (XO
+    (XI (XO (XI XH)))))) :: ((Npos (XI (XO (XI (XI (XO (XO (XO
+    XH)))))))) :: ((Npos (XI (XI (XI (XI (XO (XI (XI XH)))))))) :: ((Npos (XI
+    (XO (XO (XO (XO (XO (XO XH)))))))) :: ((Npos (XO (XO (XI (XI
+    XH))))) :: ((Npos (XI (XO (XO (XO (XO (XO (XI XH)))))))) :: ((Npos (XI
+    (XO (XO (XI (XO (XI XH))))))) :: ((Npos (XO (XO (XO (XI (XI (XI (XI
+    XH)))))))) :: ((Npos (XO (XO (XO (XI (XO (XO (XI XH)))))))) :: ((Npos (XO
+    (XO (XO XH)))) :: ((Npos (XO (XO (XI (XI (XO (XO XH))))))) :: ((Npos (XI
+    (XO (XO (XO (XI (XI XH))))))) :: ((Npos (XI (XO XH))) :: ((Npos (XO (XI
+    (XO (XI (XO (XO (XO XH)))))))) :: ((Npos (XI (XO (XI (XO (XO (XI
+    XH))))))) :: ((Npos (XI (XI (XI (XI (XO XH)))))) :: ((Npos (XI (XO (XO
+    (XO (XO (XI (XI XH)))))))) :: ((Npos (XO (XO (XI (XO (XO
+    XH)))))) :: ((Npos (XI (XI (XI XH)))) :: ((Npos (XI (XO (XO (XO (XO
+    XH)))))) :: ((Npos (XI (XO (XI (XO (XI XH)))))) :: ((Npos (XI (XI (XO (XO
+    (XI (XO (XO XH)))))))) :: ((Npos (XO (XI (XI (XI (XO (XO (XO
+    XH)))))))) :: ((Npos (XO (XI (XO (XI (XI (XO (XI XH)))))))) :: ((Npos (XO
+    (XO (XO (XO (XI (XI (XI XH)))))))) :: ((Npos (XO (XI (XO (XO
+    XH))))) :: ((Npos (XO (XI (XO (XO (XO (XO (XO XH)))))))) :: ((Npos (XI
+    (XO (XI (XO (XO (XO XH))))))) :: ((Npos (XI (XO (XI (XI XH))))) :: ((Npos
+    (XI (XO (XI (XO (XI (XI (XO XH)))))))) :: ((Npos (XO (XI (XO (XO (XO (XO
+    (XI XH)))))))) :: ((Npos (XI (XO (XI (XI (XI (XI XH))))))) :: ((Npos (XO
+    (XI (XO (XI (XO (XI XH))))))) :: ((Npos (XI (XI (XI (XO (XO
+    XH)))))) :: ((Npos (XI (XO (XO (XI (XI (XI (XI XH)))))))) :: ((Npos (XI
+    (XO (XO (XI (XI (XI (XO XH)))))))) :: ((Npos (XI (XO (XO (XI (XO (XO (XI
+    XH)))))))) :: ((Npos (XO (XI (XO (XI (XI (XO (XO XH)))))))) :: ((Npos (XI
+    (XO (XO XH)))) :: ((Npos (XO (XO (XO (XI (XI (XI XH))))))) :: ((Npos (XI
+    (XO (XI (XI (XO (XO XH))))))) :: ((Npos (XO (XO (XI (XO (XO (XI (XI
+    XH)))))))) :: ((Npos (XO (XI (XO (XO (XI (XI XH))))))) :: ((Npos (XO (XI
+    (XI (XO (XO (XI (XO XH)))))))) :: ((Npos (XO (XI XH))) :: ((Npos (XI (XI
+    (XI (XI (XI (XI (XO XH)))))))) :: ((Npos (XI (XI (XO (XI (XO (XO (XO
+    XH)))))))) :: ((Npos (XO (XI (XO (XO (XO (XI XH))))))) :: ((Npos (XO (XI
+    (XI (XO (XO (XI XH))))))) :: ((Npos (XI (XO (XI (XI (XI (XO (XI
+    XH)))))))) :: ((Npos (XO (XO (XO (XO (XI XH)))))) :: ((Npos (XI (XO (XI
+    (XI (XI (XI (XI XH)))))))) :: ((Npos (XO (XI (XO (XO (XO (XI (XI
+    XH)))))))) :: ((Npos (XO (XO (XO (XI (XI (XO (XO XH)))))))) :: ((Npos (XI
+    (XO (XI (XO (XO XH)))))) :: ((Npos (XI (XI (XO (XO (XI (XI (XO
+    XH)))))))) :: ((Npos (XO (XO (XO (XO XH))))) :: ((Npos (XI (XO (XO (XO
+    (XI (XO (XO XH)))))))) :: ((Npos (XO (XI (XO (XO (XO XH)))))) :: ((Npos
+    (XO (XO (XO (XI (XO (XO (XO XH)))))))) :: ((Npos (XO (XI (XI (XO (XI
+    XH)))))) :: ((Npos (XO (XO (XO (XO (XI (XO (XI XH)))))))) :: ((Npos (XO
+    (XO (XI (XO (XI (XO (XO XH)))))))) :: ((Npos (XO (XI (XI (XI (XO (XO (XI
+    XH)))))))) :: ((Npos (XI (XI (XI (XI (XO (XO (XO XH)))))))) :: ((Npos (XO
+    (XI (XI (XO (XI (XO (XO XH)))))))) :: ((Npos (XI (XI (XO (XI (XI (XO (XI
+    XH)))))))) :: ((Npos (XI (XO (XI (XI (XI (XI (XO XH)))))))) :: ((Npos (XI
+    (XO (XO (XO (XI (XI (XI XH)))))))) :: ((Npos (XO (XI (XO (XO (XI (XO (XI
+    XH)))))))) :: ((Npos (XI (XI (XO (XO XH))))) :: ((Npos (XO (XO (XI (XI
+    (XI (XO XH))))))) :: ((Npos (XI (XI (XO (XO (XO (XO (XO
+    XH)))))))) :: ((Npos (XO (XO (XO (XI (XI XH)))))) :: ((Npos (XO (XI (XI
+    (XO (XO (XO XH))))))) :: ((Npos (XO (XO (XO (XO (XO (XO
+    XH))))))) :: ((Npos (XO (XI (XI (XI XH))))) :: ((Npos (XO (XI (XO (XO (XO
+    (XO XH))))))) :: ((Npos (XO (XI (XI (XO (XI (XI (XO XH)))))))) :: ((Npos
+    (XI (XI (XO (XO (XO (XI (XO XH)))))))) :: ((Npos (XI (XI (XO (XO (XO (XO
+    (XI XH)))))))) :: ((Npos (XO (XO (XO (XI (XO (XO XH))))))) :: ((Npos (XO
+    (XI (XI (XI (XI (XI XH))))))) :: ((Npos (XO (XI (XI (XI (XO (XI
+    XH))))))) :: ((Npos (XI (XI (XO (XI (XO (XI XH))))))) :: ((Npos (XO (XI
+    (XO (XI (XI XH)))))) :: ((Npos (XO (XO (XO (XI (XO XH)))))) :: ((Npos (XO
+    (XO (XI (XO (XI (XO XH))))))) :: ((Npos (XO (XI (XO (XI (XI (XI (XI
+    XH)))))))) :: ((Npos (XI (XO (XI (XO (XO (XO (XO XH)))))))) :: ((Npos (XO
+    (XI (XO (XI (XI (XI (XO XH)))))))) :: ((Npos (XI (XO (XI (XI (XI
+    XH)))))) :: ((Npos (XO (XI (XO (XI (XO (XO (XI XH)))))))) :: ((Npos (XO
+    (XI (XI (XI (XI (XO XH))))))) :: ((Npos (XI (XI (XO (XI (XI (XO (XO
+    XH)))))))) :: ((Npos (XI (XI (XI (XI (XI (XO (XO XH)))))))) :: ((Npos (XO
+    (XI (XO XH)))) :: ((Npos (XI (XO (XI (XO XH))))) :: ((Npos (XI (XO (XO
+    (XI (XI (XI XH))))))) :: ((Npos (XI (XI (XO (XI (XO XH)))))) :: ((Npos
+    (XO (XI (XI (XI (XO (XO XH))))))) :: ((Npos (XO (XO (XI (XO (XI (XO (XI
+    XH)))))))) :: ((Npos (XI (XO (XI (XO (XO (XI (XI XH)))))))) :: ((Npos (XO
+    (XO (XI (XI (XO (XI (XO XH)))))))) :: ((Npos (XI (XI (XO (XO (XI (XI
+    XH))))))) :: ((Npos (XI (XI (XO (XO (XI (XI (XI XH)))))))) :: ((Npos (XI
+    (XI (XI (XO (XO (XI (XO XH)))))))) :: ((Npos (XI (XI (XI (XO (XI (XO
+    XH))))))) :: ((Npos (XI (XI XH))) :: ((Npos (XO (XO (XO (XO (XI (XI
+    XH))))))) :: ((Npos (XO (XO (XO (XO (XO (XO (XI XH)))))))) :: ((Npos (XI
+    (XI (XI (XO (XI (XI (XI XH)))))))) :: ((Npos (XO (XO (XI (XI (XO (XO (XO
+    XH)))))))) :: ((Npos (XO (XO (XO (XO (XO (XO (XO XH)))))))) :: ((Npos (XI
+    (XI (XO (XO (XO (XI XH))))))) :: ((Npos (XI (XO (XI XH)))) :: ((Npos (XI
+    (XI (XI (XO (XO (XI XH))))))) :: ((Npos (XO (XI (XO (XI (XO (XO
+    XH))))))) :: ((Npos (XO (XI (XI (XI (XI (XO (XI XH)))))))) :: ((Npos (XI
+    (XO (XI (XI (XO (XI (XI XH)))))))) :: ((Npos (XI (XO (XO (XO (XI
+    XH)))))) :: ((Npos (XI (XO (XI (XO (XO (XO (XI XH)))))))) :: ((Npos (XO
+    (XI (XI (XI (XI (XI (XI XH)))))))) :: ((Npos (XO (XO (XO (XI
+    XH))))) :: ((Npos (XI (XI (XO (XO (XO (XI (XI XH)))))))) :: ((Npos (XI
+    (XO (XI (XO (XO (XI (XO XH)))))))) :: ((Npos (XI (XO (XO (XI (XI (XO (XO
+    XH)))))))) :: ((Npos (XI (XI (XI (XO (XI (XI XH))))))) :: ((Npos (XO (XI
+    (XI (XO (XO XH)))))) :: ((Npos (XO (XO (XO (XI (XI (XI (XO
+    XH)))))))) :: ((Npos (XO (XO (XI (XO (XI (XI (XO XH)))))))) :: ((Npos (XO
+    (XO (XI (XI (XI (XI XH))))))) :: ((Npos (XI (XO (XO (XO XH))))) :: ((Npos
+    (XO (XO (XI (XO (XO (XO XH))))))) :: ((Npos (XO (XI (XO (XO (XI (XO (XO
+    XH)))))))) :: ((Npos (XI (XO (XO (XI (XI (XO (XI XH)))))))) :: ((Npos (XI
+    (XI (XO (XO (XO XH)))))) :: ((Npos (XO (XO (XO (XO (XO XH)))))) :: ((Npos
+    (XI (XO (XO (XI (XO (XO (XO XH)))))))) :: ((Npos (XO (XI (XI (XI (XO
+    XH)))))) :: ((Npos (XI (XI (XI (XO (XI XH)))))) :: ((Npos (XI (XI (XI (XI
+    (XI XH)))))) :: ((Npos (XI (XO (XO (XO (XI (XO (XI XH)))))))) :: ((Npos
+    (XI (XI (XO (XI (XI (XO XH))))))) :: ((Npos (XI (XO (XI (XO (XI (XO (XO
+    XH)))))))) :: ((Npos (XO (XO (XI (XI (XI (XI (XO XH)))))))) :: ((Npos (XI
+    (XI (XI (XI (XO (XO (XI XH)))))))) :: ((Npos (XI (XO (XI (XI (XO (XO (XI
+    XH)))))))) :: ((Npos (XO (XO (XO (XO (XI (XO (XO XH)))))))) :: ((Npos (XI
+    (XI (XI (XO (XO (XO (XO XH)))))))) :: ((Npos (XI (XI (XI (XO (XI (XO (XO
+    XH)))))))) :: ((Npos (XO (XI (XO (XO (XI (XI (XO XH)))))))) :: ((Npos (XO
+    (XO (XI (XI (XI (XO (XI XH)))))))) :: ((Npos (XO (XO (XI (XI (XI (XI (XI
+    XH)))))))) :: ((Npos (XO (XI (XI (XI (XI (XI (XO XH)))))))) :: ((Npos (XI
+    (XO (XO (XO (XO (XI XH))))))) :: ((Npos (XO (XI (XO (XO (XI (XI (XI
+    XH)))))))) :: ((Npos (XO (XI (XI (XO (XI (XO XH))))))) :: ((Npos (XI (XI
+    (XO (XO (XI (XO (XI XH)))))))) :: ((Npos (XI (XI (XO (XI (XO (XI (XO
+    XH)))))))) :: ((Npos (XO (XO (XI (XO XH))))) :: ((Npos (XO (XI (XO (XI
+    (XO XH)))))) :: ((Npos (XI (XO (XI (XI (XI (XO XH))))))) :: ((Npos (XO
+    (XI (XI (XI (XI (XO (XO XH)))))))) :: ((Npos (XO (XO (XI (XO (XO (XO (XO
+    XH)))))))) :: ((Npos (XO (XO (XI (XI (XI XH)))))) :: ((Npos (XI (XO (XO
+    (XI (XI XH)))))) :: ((Npos (XI (XI (XO (XO (XI (XO XH))))))) :: ((Npos
+    (XI (XI (XI (XO (XO (XO XH))))))) :: ((Npos (XI (XO (XI (XI (XO (XI
+    XH))))))) :: ((Npos (XI (XO (XO (XO (XO (XO XH))))))) :: ((Npos (XO (XI
+    (XO (XO (XO (XI (XO XH)))))))) :: ((Npos (XI (XI (XI (XI
+    XH))))) :: ((Npos (XI (XO (XI (XI (XO XH)))))) :: ((Npos (XI (XI (XO (XO
+    (XO (XO XH))))))) :: ((Npos (XO (XO (XO (XI (XI (XO (XI
+    XH)))))))) :: ((Npos (XI (XI (XI (XO (XI (XI (XO XH)))))))) :: ((Npos (XI
+    (XI (XO (XI (XI (XI XH))))))) :: ((Npos (XO (XO (XI (XO (XO (XI (XO
+    XH)))))))) :: ((Npos (XO (XI (XI (XO (XI (XI XH))))))) :: ((Npos (XO (XO
+    (XI (XO (XO (XO (XI XH)))))))) :: ((Npos (XI (XI (XI (XO
+    XH))))) :: ((Npos (XI (XO (XO (XI (XO (XO XH))))))) :: ((Npos (XO (XO (XI
+    (XI (XO (XI (XI XH)))))))) :: ((Npos (XI (XI (XI (XI (XI (XI
+    XH))))))) :: ((Npos (XO (XO (XI XH)))) :: ((Npos (XI (XI (XI (XI (XO (XI
+    XH))))))) :: ((Npos (XO (XI (XI (XO (XI (XI (XI XH)))))))) :: ((Npos (XO
+    (XO (XI (XI (XO (XI XH))))))) :: ((Npos (XI (XO (XO (XO (XO (XI (XO
+    XH)))))))) :: ((Npos (XI (XI (XO (XI (XI XH)))))) :: ((Npos (XO (XI (XO
+    (XO (XI (XO XH))))))) :: ((Npos (XI (XO (XO (XI (XO XH)))))) :: ((Npos
+    (XI (XO (XI (XI (XI (XO (XO XH)))))))) :: ((Npos (XI (XO (XI (XO (XI (XO
+    XH))))))) :: ((Npos (XO (XI (XO (XI (XO (XI (XO XH)))))))) :: ((Npos (XI
+    (XI (XO (XI (XI (XI (XI XH)))))))) :: ((Npos (XO (XO (XO (XO (XO (XI
+    XH))))))) :: ((Npos (XO (XI (XI (XO (XO (XO (XO XH)))))))) :: ((Npos (XI
+    (XO (XO (XO (XI (XI (XO XH)))))))) :: ((Npos (XI (XI (XO (XI (XI (XI (XO
+    XH)))))))) :: ((Npos (XO (XO (XI (XI (XO (XO (XI XH)))))))) :: ((Npos (XO
+    (XI (XI (XI (XI XH)))))) :: ((Npos (XO (XI (XO (XI (XI (XO
+    XH))))))) :: ((Npos (XI (XI (XO (XI (XO (XO (XI XH)))))))) :: ((Npos (XI
+    (XO (XO (XI (XI (XO XH))))))) :: ((Npos (XI (XI (XI (XI (XI (XO
+    XH))))))) :: ((Npos (XO (XO (XO (XO (XI (XI (XO XH)))))))) :: ((Npos (XO
+    (XO (XI (XI (XI (XO (XO XH)))))))) :: ((Npos (XI (XO (XO (XI (XO (XI (XO
+    XH)))))))) :: ((Npos (XO (XO (XO (XO (XO (XI (XO XH)))))))) :: ((Npos (XI
+    (XO (XO (XO (XI (XO XH))))))) :: ((Npos (XI (XI (XO XH)))) :: ((Npos (XI
+    (XO (XI (XO (XI (XI (XI XH)))))))) :: ((Npos (XO (XI (XI (XO
+    XH))))) :: ((Npos (XI (XI (XO (XI (XO (XI (XI XH)))))))) :: ((Npos (XO
+    (XI (XO (XI (XI (XI XH))))))) :: ((Npos (XI (XO (XI (XO (XI (XI
+    XH))))))) :: ((Npos (XO (XO (XI (XI (XO XH)))))) :: ((Npos (XI (XI (XI
+    (XO (XI (XO (XI XH)))))))) :: ((Npos (XI (XI (XI (XI (XO (XO
+    XH))))))) :: ((Npos (XO (XI (XI (XI (XO (XI (XO XH)))))))) :: ((Npos (XI
+    (XO (XI (XO (XI (XO (XI XH)))))))) :: ((Npos (XI (XO (XO (XI (XO (XI (XI
+    XH)))))))) :: ((Npos (XO (XI (XI (XO (XO (XI (XI XH)))))))) :: ((Npos (XI
+    (XI (XI (XO (XO (XI (XI XH)))))))) :: ((Npos (XI (XO (XI (XI (XO (XI (XO
+    XH)))))))) :: ((Npos (XO (XO (XO (XI (XO (XI (XI XH)))))))) :: ((Npos (XO
+    (XO (XI (XO (XI (XI XH))))))) :: ((Npos (XO (XI (XI (XO (XI (XO (XI
+    XH)))))))) :: ((Npos (XO (XO (XI (XO (XI (XI (XI XH)))))))) :: ((Npos (XO
+    (XI (XO (XI (XO (XI (XI XH)))))))) :: ((Npos (XO (XO (XO (XI (XO (XI (XO
+    XH)))))))) :: ((Npos (XO (XO (XO (XO (XI (XO XH))))))) :: ((Npos (XO (XO
+    (XO (XI (XI (XO XH))))))) :: ((Npos (XI (XI (XI (XI (XO (XI (XO
+    XH)))))))) :: [])))))))))))))))))))))))))))))))))))))))))))))))))))))))))))))))))))))))))))))))))))))))))))))))))))))))))))))))))))))))))))))))))))))))))))))))))))))))))))))))))))))))))))))))))))))))))))))))))))))))))))))))))))))))))))))))))))))))))))))))))))))))))))))))
+
+(** val exp_at : n -> n outcome **)
+
+let exp_at i =
+  nth_ok oCT_EXP (N.to_nat i)
+
+(** val log_at : n -> n outcome **)
+
+let log_at a =
+  nth_ok oCT_LOG (N.to_nat a)
+
+(** val expN : n -> n **)
+
+let expN i =
+  nth (N.to_nat i) oCT_EXP N0
+
+(** val logN : n -> n **)
+
+let logN a =
+  nth (N.to_nat a) oCT_LOG N0
+
+(** val mulN : n -> n -> n **)
+
+let mulN a b =
+  if (||) (N.eqb a N0) (N.eqb b N0)
+  then N0
+  else expN (N.add (logN a) (logN b))
+
+(** val divN : n -> n -> n **)
+
+let divN a b =
+  if N.eqb a N0
+  then N0
+  else expN
+         (N.sub (N.add (Npos (XI (XI (XI (XI (XI (XI (XI XH)))))))) (logN a))
+           (logN b))
+
+(** val oct_add : n -> n -> n **)
+
+let oct_add =
+  N.coq_lxor
+
+(** val oct_mul : n -> n -> n outcome **)
+
+let oct_mul a b =
+  if (||) (N.eqb a N0) (N.eqb b N0)
+  then Ok N0
+  else obind (log_at a) (fun la ->
+         obind (log_at b) (fun lb -> exp_at (N.add la lb)))
+
+(** val oct_div : n -> n -> n outcome **)
+
+let oct_div a b =
+  if N.eqb b N0
+  then Panic PAssert
+  else if N.eqb a N0
+       then Ok N0
+       else obind (log_at a) (fun la ->
+              obind (log_at b) (fun lb ->
+                if N.ltb
+                     (N.add (Npos (XI (XI (XI (XI (XI (XI (XI XH)))))))) la)
+                     lb
+                then Panic POverflow
+                else exp_at
+                       (N.sub
+                         (N.add (Npos (XI (XI (XI (XI (XI (XI (XI XH))))))))
+                           la) lb)))
+
+(** val oct_fma : n -> n -> n -> n outcome **)
+
+let oct_fma acc a b =
+  if (&&) (negb (N.eqb a N0)) (negb (N.eqb b N0))
+  then obind (log_at a) (fun la ->
+         obind (log_at b) (fun lb ->
+           obind (exp_at (N.add la lb)) (fun e -> Ok (N.coq_lxor acc e))))
+  else Ok acc
+
+(** val oct_alpha : n -> n outcome **)
+
+let oct_alpha i =
+  if N.ltb i (Npos (XO (XO (XO (XO (XO (XO (XO (XO XH)))))))))
+  then exp_at i
+  else Panic PAssert
+
+(** val const_mul : n -> n -> n outcome **)
+
+let const_mul x y =
+  obind (log_at x) (fun lx ->
+    obind (log_at y) (fun ly -> exp_at (N.add lx ly)))
+
+(** val or0 : n outcome -> n **)
+
+let or0 = function
+| Ok v -> v
+| Panic _ -> N0
+
+(** val octet_mul_table : n list list **)
+
+let octet_mul_table =
+  map (fun i ->
+    map (fun j ->
+      if (||) (N.eqb i N0) (N.eqb j N0) then N0 else or0 (const_mul i j))
+      (rangeN (S (S (S (S (S (S (S (S (S (S (S (S (S (S (S (S (S (S (S (S (S
+        (S (S (S (S (S (S (S (S (S (S (S (S (S (S (S (S (S (S (S (S (S (S (S
+        (S (S (S (S (S (S (S (S (S (S (S (S (S (S (S (S (S (S (S (S (S (S (S
+        (S (S (S (S (S (S (S (S (S (S (S (S (S (S (S (S (S (S (S (S (S (S (S
+        (S (S (S (S (S (S (S (S (S (S (S (S (S (S (S (S (S (S (S (S (S (S (S
+        (S (S (S (S (S (S (S (S (S (S (S (S (S (S (S (S (S (S (S (S (S (S (S
+        (S (S (S (S (S (S (S (S (S (S (S (S (S (S (S (S (S (S (S (S (S (S (S
+        (S (S (S (S (S (S (S (S (S (S (S (S (S (S (S (S (S (S (S (S (S (S (S
+        (S (S (S (S (S (S (S (S (S (S (S (S (S (S (S (S (S (S (S (S (S (S (S
+        (S (S (S (S (S (S (S (S (S (S (S (S (S (S (S (S (S (S (S (S (S (S (S
+        (S (S (S (S (S (S (S (S (S (S (S (S (S (S (S (S (S (S (S (S (S (S (S
+        (S (S (S (S (S
+        O))))))))))))))))))))))))))))))))))))))))))))))))))))))))))))))))))))))))))))))))))))))))))))))))))))))))))))))))))))))))))))))))))))))))))))))))))))))))))))))))))))))))))))))))))))))))))))))))))))))))))))))))))))))))))))))))))))))))))))))))))))))))))))))))))
+    (rangeN (S (S (S (S (S (S (S (S (S (S (S (S (S (S (S (S (S (S (S (S (S (S
+      (S (S (S (S (S (S (S (S (S (S (S (S (S (S (S (S (S (S (S (S (S (S (S (S
+      (S (S (S (S (S (S (S (S (S (S (S (S (S (S (S (S (S (S (S (S (S (S (S (S
+      (S (S (S (S (S (S (S (S (S (S (S (S (S (S (S (S (S (S (S (S (S (S (S (S
+      (S (S (S (S (S (S (S (S (S (S (S (S (S (S (S (S (S (S (S (S (S (S (S (S
+      (S (S (S (S (S (S (S (S (S (S (S (S (S (S (S (S (S (S (S (S (S (S (S (S
+      (S (S (S (S (S (S (S (S (S (S (S (S (S (S (S (S (S (S (S (S (S (S (S (S
+      (S (S (S (S (S (S (S (S (S (S (S (S (S (S (S (S (S (S (S (S (S (S (S (S
+      (S (S (S (S (S (S (S (S (S (S (S (S (S (S (S (S (S (S (S (S (S (S (S (S
+      (S (S (S (S (S (S (S (S (S (S (S (S (S (S (S (S (S (S (S (S (S (S (S (S
+      (S (S (S (S (S (S (S (S (S (S (S (S (S (S (S (S (S (S
+      O)))))))))))))))))))))))))))))))))))))))))))))))))))))))))))))))))))))))))))))))))))))))))))))))))))))))))))))))))))))))))))))))))))))))))))))))))))))))))))))))))))))))))))))))))))))))))))))))))))))))))))))))))))))))))))))))))))))))))))))))))))))))))))))))))
+
+(** val low_entry : n -> n -> n **)
+
+let low_entry i j =
+  let jj = N.modulo j (Npos (XO (XO (XO (XO XH))))) in
+  if (||) (N.eqb i N0) (N.eqb jj N0) then N0 else or0 (const_mul i jj)
+
+(** val octet_mul_low_table : n list list **)
+
+let octet_mul_low_table =
+  map (fun i ->
+    map (fun j -> low_entry i j)
+      (rangeN (S (S (S (S (S (S (S (S (S (S (S (S (S (S (S (S (S (S (S (S (S
+        (S (S (S (S (S (S (S (S (S (S (S O))))))))))))))))))))))))))))))))))
+    (rangeN (S (S (S (S (S (S (S (S (S (S (S (S (S (S (S (S (S (S (S (S (S (S
+      (S (S (S (S (S (S (S (S (S (S (S (S (S (S (S (S (S (S (S (S (S (S (S (S
+      (S (S (S (S (S (S (S (S (S (S (S (S (S (S (S (S (S (S (S (S (S (S (S (S
+      (S (S (S (S (S (S (S (S (S (S (S (S (S (S (S (S (S (S (S (S (S (S (S (S
+      (S (S (S (S (S (S (S (S (S (S (S (S (S (S (S (S (S (S (S (S (S (S (S (S
+      (S (S (S (S (S (S (S (S (S (S (S (S (S (S (S (S (S (S (S (S (S (S (S (S
+      (S (S (S (S (S (S (S (S (S (S (S (S (S (S (S (S (S (S (S (S (S (S (S (S
+      (S (S (S (S (S (S (S (S (S (S (S (S (S (S (S (S (S (S (S (S (S (S (S (S
+      (S (S (S (S (S (S (S (S (S (S (S (S (S (S (S (S (S (S (S (S (S (S (S (S
+      (S (S (S (S (S (S (S (S (S (S (S (S (S (S (S (S (S (S (S (S (S (S (S (S
+      (S (S (S (S (S (S (S (S (S (S (S (S (S (S (S (S (S (S
+      O)))))))))))))))))))))))))))))))))))))))))))))))))))))))))))))))))))))))))))))))))))))))))))))))))))))))))))))))))))))))))))))))))))))))))))))))))))))))))))))))))))))))))))))))))))))))))))))))))))))))))))))))))))))))))))))))))))))))))))))))))))))))))))))))))
+
+(** val hi_entry : n -> n -> n **)
+
+let hi_entry i j =
+  let jj = N.modulo j (Npos (XO (XO (XO (XO XH))))) in
+  if (||) (N.eqb i N0) (N.eqb jj N0)
+  then N0
+  else or0 (const_mul i (N.shiftl jj (Npos (XO (XO XH)))))
+
+(** val octet_mul_hi_table : n list list **)
+
+let octet_mul_hi_table =
+  map (fun i ->
+    map (fun j -> hi_entry i j)
+      (rangeN (S (S (S (S (S (S (S (S (S (S (S (S (S (S (S (S (S (S (S (S (S
+        (S (S (S (S (S (S (S (S (S (S (S O))))))))))))))))))))))))))))))))))
+    (rangeN (S (S (S (S (S (S (S (S (S (S (S (S (S (S (S (S (S (S (S (S (S (S
+      (S (S (S (S (S (S (S (S (S (S (S (S (S (S (S (S (S (S (S (S (S (S (S (S
+      (S (S (S (S (S (S (S (S (S (S (S (S (S (S (S (S (S (S (S (S (S (S (S (S
+      (S (S (S (S (S (S (S (S (S (S (S (S (S (S (S (S (S (S (S (S (S (S (S (S
+      (S (S (S (S (S (S (S (S (S (S (S (S (S (S (S (S (S (S (S (S (S (S (S (S
+      (S (S (S (S (S (S (S (S (S (S (S (S (S (S (S (S (S (S (S (S (S (S (S (S
+      (S (S (S (S (S (S (S (S (S (S (S (S (S (S (S (S (S (S (S (S (S (S (S (S
+      (S (S (S (S (S (S (S (S (S (S (S (S (S (S (S (S (S (S (S (S (S (S (S (S
+      (S (S (S (S (S (S (S (S (S (S (S (S (S (S (S (S (S (S (S (S (S (S (S (S
+      (S (S (S (S (S (S (S (S (S (S (S (S (S (S (S (S (S (S (S (S (S (S (S (S
+      (S (S (S (S (S (S (S (S (S (S (S (S (S (S (S (S (S (S
+      O)))))))))))))))))))))))))))))))))))))))))))))))))))))))))))))))))))))))))))))))))))))))))))))))))))))))))))))))))))))))))))))))))))))))))))))))))))))))))))))))))))))))))))))))))))))))))))))))))))))))))))))))))))))))))))))))))))))))))))))))))))))))))))))))))
+
+(** val tbl2 : n list list -> n -> n -> n outcome **)
+
+let tbl2 t0 i j =
+  obind (nth_ok t0 (N.to_nat i)) (fun r -> nth_ok r (N.to_nat j))
+
+(** val pid_new : n -> n -> (n * n) outcome **)
+
+let pid_new sbn esi =
+  if N.ltb esi eSI_LIMIT then Ok (sbn, esi) else Panic PAssert
+
+(** val pid_ser : (n * n) -> n list **)
+
+let pid_ser = function
+| (sbn, esi) ->
+  sbn :: ((u8 (N.shiftr esi (Npos (XO (XO (XO (XO XH))))))) :: ((u8
+                                                                  (N.coq_land
+                                                                    (N.shiftr
+                                                                    esi (Npos
+                                                                    (XO (XO
+                                                                    (XO
+                                                                    XH)))))
+                                                                    (Npos (XI
+                                                                    (XI (XI
+                                                                    (XI (XI
+                                                                    (XI (XI
+                                                                    XH)))))))))) :: (
+    (u8 (N.coq_land esi (Npos (XI (XI (XI (XI (XI (XI (XI XH)))))))))) :: [])))
+
+(** val pid_deser : n list -> (n * n) outcome **)
+
+let pid_deser = function
+| [] -> Panic PIndex
+| d0 :: l ->
+  (match l with
+   | [] -> Panic PIndex
+   | d1 :: l0 ->
+     (match l0 with
+      | [] -> Panic PIndex
+      | d2 :: l1 ->
+        (match l1 with
+         | [] -> Panic PIndex
+         | d3 :: l2 ->
+           (match l2 with
+            | [] ->
+              Ok (d0,
+                (N.add
+                  (N.add (N.shiftl d1 (Npos (XO (XO (XO (XO XH))))))
+                    (N.shiftl d2 (Npos (XO (XO (XO XH)))))) d3))
+            | _ :: _ -> Panic PIndex))))
+
+(** val slice_from : 'a1 list -> nat -> 'a1 list outcome **)
+
+let slice_from l n0 =
+  if leb n0 (length l) then Ok (skipn n0 l) else Panic PIndex
+
+(** val pkt_ser : ((n * n) * n list) -> n list **)
+
+let pkt_ser = function
+| (id, data) -> app (pid_ser id) data
+
+(** val pkt_deser : n list -> ((n * n) * n list) outcome **)
+
+let pkt_deser b =
+  obind (nth_ok b O) (fun d0 ->
+    obind (nth_ok b (S O)) (fun d1 ->
+      obind (nth_ok b (S (S O))) (fun d2 ->
+        obind (nth_ok b (S (S (S O)))) (fun d3 ->
+          obind (pid_deser (d0 :: (d1 :: (d2 :: (d3 :: []))))) (fun id ->
+            obind (slice_from b (S (S (S (S O))))) (fun rest -> Ok (id, rest)))))))
+
+type oti = (((n * n) * n) * n) * n
+
+(** val oti_ser : oti -> n list **)
+
+let oti_ser = function
+| (p, al) ->
+  let (p0, nsub) = p in
+  let (p1, z) = p0 in
+  let (f, t0) = p1 in
+  (u8
+    (N.coq_land (N.shiftr f (Npos (XO (XO (XO (XO (XO XH))))))) (Npos (XI (XI
+      (XI (XI (XI (XI (XI XH)))))))))) :: ((u8
+                                             (N.coq_land
+                                               (N.shiftr f (Npos (XO (XO (XO
+                                                 (XI XH)))))) (Npos (XI (XI
+                                               (XI (XI (XI (XI (XI XH)))))))))) :: (
+  (u8
+    (N.coq_land (N.shiftr f (Npos (XO (XO (XO (XO XH)))))) (Npos (XI (XI (XI
+      (XI (XI (XI (XI XH)))))))))) :: ((u8
+                                         (N.coq_land
+                                           (N.shiftr f (Npos (XO (XO (XO
+                                             XH))))) (Npos (XI (XI (XI (XI
+                                           (XI (XI (XI XH)))))))))) :: (
+  (u8 (N.coq_land f (Npos (XI (XI (XI (XI (XI (XI (XI XH)))))))))) :: (N0 :: (
+  (u8 (N.shiftr t0 (Npos (XO (XO (XO XH)))))) :: ((u8
+                                                    (N.coq_land t0 (Npos (XI
+                                                      (XI (XI (XI (XI (XI (XI
+                                                      XH)))))))))) :: (z :: (
+  (u8 (N.shiftr nsub (Npos (XO (XO (XO XH)))))) :: ((u8
+                                                      (N.coq_land nsub (Npos
+                                                        (XI (XI (XI (XI (XI
+                                                        (XI (XI XH)))))))))) :: (al :: [])))))))))))
+
+(** val oti_deser : n list -> oti outcome **)
+
+let oti_deser = function
+| [] -> Panic PIndex
+| d0 :: l ->
+  (match l with
+   | [] -> Panic PIndex
+   | d1 :: l0 ->
+     (match l0 with
+      | [] -> Panic PIndex
+      | d2 :: l1 ->
+        (match l1 with
+         | [] -> Panic PIndex
+         | d3 :: l2 ->
+           (match l2 with
+            | [] -> Panic PIndex
+            | d4 :: l3 ->
+              (match l3 with
+               | [] -> Panic PIndex
+               | _ :: l4 ->
+                 (match l4 with
+                  | [] -> Panic PIndex
+                  | d6 :: l5 ->
+                    (match l5 with
+                     | [] -> Panic PIndex
+                     | d7 :: l6 ->
+                       (match l6 with
+                        | [] -> Panic PIndex
+                        | d8 :: l7 ->
+                          (match l7 with
+                           | [] -> Panic PIndex
+                           | d9 :: l8 ->
+                             (match l8 with
+                              | [] -> Panic PIndex
+                              | d10 :: l9 ->
+                                (match l9 with
+                                 | [] -> Panic PIndex
+                                 | d11 :: l10 ->
+                                   (match l10 with
+                                    | [] ->
+                                      Ok
+                                        (((((N.add
+                                              (N.add
+                                                (N.add
+                                                  (N.add
+                                                    (N.shiftl d0 (Npos (XO
+                                                      (XO (XO (XO (XO
+                                                      XH)))))))
+                                                    (N.shiftl d1 (Npos (XO
+                                                      (XO (XO (XI XH)))))))
+                                                  (N.shiftl d2 (Npos (XO (XO
+                                                    (XO (XO XH)))))))
+                                                (N.shiftl d3 (Npos (XO (XO
+                                                  (XO XH)))))) d4),
+                                        (N.add
+                                          (N.shiftl d6 (Npos (XO (XO (XO
+                                            XH))))) d7)), d8),
+                                        (N.add
+                                          (N.shiftl d9 (Npos (XO (XO (XO
+                                            XH))))) d10)), d11)
+                                    | _ :: _ -> Panic PIndex))))))))))))
+
+(** val ceil_div64 : n -> n -> n **)
+
+let ceil_div64 num den =
+  if N.eqb (N.modulo num den) N0
+  then N.div num den
+  else N.add (N.div num den) (Npos XH)
+
+(** val int_div_ceil_pinned : n -> n -> n **)
+
+let int_div_ceil_pinned num den =
+  u32
+    (if N.eqb (N.modulo num den) N0
+     then N.div num den
+     else N.add (N.div num den) (Npos XH))
+
+(** val oti_new_gen :
+    (n -> n -> n) -> mode -> n -> n -> n -> n -> n -> oti outcome **)
+
+let oti_new_gen idc _ f t0 z nsub al =
+  obind (assert_ok (N.leb f mAX_TRANSFER_LENGTH)) (fun _ ->
+    obind (rem_ok t0 al) (fun r ->
+      obind (assert_ok (N.eqb r N0)) (fun _ ->
+        obind
+          (if (&&) (negb (N.eqb t0 N0)) (negb (N.eqb z N0))
+           then let symbols_required = idc (idc f t0) z in
+                assert_ok
+                  (N.leb symbols_required mAX_SOURCE_SYMBOLS_PER_BLOCK)
+           else Ok ()) (fun _ -> Ok ((((f, t0), z), nsub), al)))))
+
+(** val oti_new_pinned : mode -> n -> n -> n -> n -> n -> oti outcome **)
+
+let oti_new_pinned =
+  oti_new_gen int_div_ceil_pinned
+
+(** val oti_new_fixed : mode -> n -> n -> n -> n -> n -> oti outcome **)
+
+let oti_new_fixed =
+  oti_new_gen ceil_div64
+
+(** val oti_new : mode -> n -> n -> n -> n -> n -> oti outcome **)
+
+let oti_new =
+  oti_new_fixed
+
+(** val assoc_get : n -> (n * 'a1) list -> 'a1 option **)
+
+let rec assoc_get k = function
+| [] -> None
+| p :: t0 -> let (k', v) = p in if N.eqb k' k then Some v else assoc_get k t0
+
+(** val assoc_remove : n -> (n * 'a1) list -> (n * 'a1) list **)
+
+let assoc_remove k l =
+  filter (fun kv -> negb (N.eqb (fst kv) k)) l
+
+(** val assoc_insert : n -> 'a1 -> (n * 'a1) list -> (n * 'a1) list **)
+
+let rec assoc_insert k v = function
+| [] -> (k, v) :: []
+| p :: t0 ->
+  let (k', v') = p in
+  if N.eqb k' k then (k, v) :: t0 else (k', v') :: (assoc_insert k v t0)
+
+(** val keys : (n * 'a1) list -> n list **)
+
+let keys l =
+  map fst l
+
+type 'plan pc =
+| Idle
+| Missed of n
+| Generated of n * 'plan
+
+(** val get_pc : nat -> (nat * 'a1 pc) list -> 'a1 pc **)
+
+let rec get_pc t0 = function
+| [] -> Idle
+| p :: r -> let (t', c) = p in if Nat.eqb t' t0 then c else get_pc t0 r
+
+(** val set_pc :
+    nat -> 'a1 pc -> (nat * 'a1 pc) list -> (nat * 'a1 pc) list **)
+
+let rec set_pc t0 c = function
+| [] -> (t0, c) :: []
+| p :: r ->
+  let (t', c') = p in
+  if Nat.eqb t' t0 then (t0, c) :: r else (t', c') :: (set_pc t0 c r)
+
+type 'plan sysstate = { plans : (n * 'plan) list; order : n list;
+                        threads : (nat * 'plan pc) list }
+
+type step =
+| Lookup of nat * n
+| Generate of nat
+| Insert of nat
+
+type 'plan event =
+| Ret of nat * n * 'plan
+
+(** val init : 'a1 sysstate **)
+
+let init =
+  { plans = []; order = []; threads = [] }
+
+(** val do_lookup :
+    nat -> n -> 'a1 sysstate -> 'a1 sysstate * 'a1 event list **)
+
+let do_lookup t0 k st =
+  match get_pc t0 st.threads with
+  | Idle ->
+    (match assoc_get k st.plans with
+     | Some p -> (st, ((Ret (t0, k, p)) :: []))
+     | None ->
+       ({ plans = st.plans; order = st.order; threads =
+         (set_pc t0 (Missed k) st.threads) }, []))
+  | _ -> (st, [])
+
+(** val do_generate :
+    (n -> 'a1) -> nat -> 'a1 sysstate -> 'a1 sysstate * 'a1 event list **)
+
+let do_generate gen t0 st =
+  match get_pc t0 st.threads with
+  | Missed k ->
+    ({ plans = st.plans; order = st.order; threads =
+      (set_pc t0 (Generated (k, (gen k))) st.threads) }, [])
+  | _ -> (st, [])
+
+(** val evict : nat -> (n * 'a1) list -> n list -> (n * 'a1) list * n list **)
+
+let evict capacity pl ord =
+  if Nat.leb capacity (length pl)
+  then (match ord with
+        | [] -> (pl, ord)
+        | e :: rest -> ((assoc_remove e pl), rest))
+  else (pl, ord)
+
+(** val do_insert :
+    nat -> nat -> 'a1 sysstate -> 'a1 sysstate * 'a1 event list **)
+
+let do_insert capacity t0 st =
+  match get_pc t0 st.threads with
+  | Generated (k, p) ->
+    (match assoc_get k st.plans with
+     | Some p' ->
+       ({ plans = st.plans; order = st.order; threads =
+         (set_pc t0 Idle st.threads) }, ((Ret (t0, k, p')) :: []))
+     | None ->
+       let (pl1, ord1) = evict capacity st.plans st.order in
+       ({ plans = (assoc_insert k p pl1); order = (app ord1 (k :: []));
+       threads = (set_pc t0 Idle st.threads) }, ((Ret (t0, k, p)) :: [])))
+  | _ -> (st, [])
+
+(** val exec :
+    (n -> 'a1) -> nat -> step -> 'a1 sysstate -> 'a1 sysstate * 'a1 event list **)
+
+let exec gen capacity s st =
+  match s with
+  | Lookup (t0, k) -> do_lookup t0 k st
+  | Generate t0 -> do_generate gen t0 st
+  | Insert t0 -> do_insert capacity t0 st
+
+(** val insert_sorted : n -> n list -> n list **)
+
+let rec insert_sorted x l = match l with
+| [] -> x :: []
+| y :: t0 -> if N.leb x y then x :: l else y :: (insert_sorted x t0)
+
+(** val sort_N : n list -> n list **)
+
+let sort_N l =
+  fold_right insert_sorted [] l
+
+(** val decode_step : ((n * n) * n) -> step option **)
+
+let decode_step = function
+| (p, k) ->
+  let (t0, kind) = p in
+  (match kind with
+   | N0 -> Some (Lookup ((N.to_nat t0), k))
+   | Npos p0 ->
+     (match p0 with
+      | XI _ -> None
+      | XO p1 -> (match p1 with
+                  | XH -> Some (Insert (N.to_nat t0))
+                  | _ -> None)
+      | XH -> Some (Generate (N.to_nat t0))))
+
+(** val observe : n sysstate -> n event list -> n list **)
+
+let observe st evs =
+  app
+    (match evs with
+     | [] -> N0 :: (N0 :: [])
+     | e :: _ -> let Ret (_, _, p) = e in (Npos XH) :: (p :: []))
+    (app ((N.of_nat (length st.order)) :: [])
+      (app st.order
+        (app ((N.of_nat (length st.plans)) :: []) (sort_N (keys st.plans)))))
+
+(** val cache_trace_from :
+    nat -> ((n * n) * n) list -> n sysstate -> n list list **)
+
+let rec cache_trace_from capacity sched st =
+  match sched with
+  | [] -> []
+  | e :: rest ->
+    let (st1, evs) =
+      match decode_step e with
+      | Some s -> exec (fun k -> k) capacity s st
+      | None -> (st, [])
+    in
+    (observe st1 evs) :: (cache_trace_from capacity rest st1)
+
+(** val cache_trace : nat -> ((n * n) * n) list -> n list list **)
+
+let cache_trace capacity sched =
+  cache_trace_from capacity sched init
 
 (** val r_k : ((((n * n) * n) * n) * n) -> n **)
 
@@ -10708,10 +10541,10 @@ let rec pi_loop m fuel n0 a1 w p p1 b1 =
             obind (pi_loop m fuel n' a1 w p p1 b1'') (fun rest -> Ok
               (i :: rest))))))
 
-(** val enc_indices0 :
+(** val enc_indices :
     mode -> (((((n * n) * n) * n) * n) * n) -> n -> n -> n -> n list outcome **)
 
-let enc_indices0 m t0 w p p1 =
+let enc_indices m t0 w p p1 =
   let (p0, b1) = t0 in
   let (p2, a1) = p0 in
   let (p3, d1) = p2 in
@@ -10736,6 +10569,533 @@ let enc_indices0 m t0 w p p1 =
                     obind
                       (pi_loop m fuel (N.to_nat (N.sub d1 (Npos XH))) a1 w p
                         p1 b1') (fun pis -> Ok (b :: (app lt (i0 :: pis)))))))))))))
+
+(** val vadd : n list -> n list -> n list **)
+
+let rec vadd u v =
+  match u with
+  | [] -> []
+  | x :: u' ->
+    (match v with
+     | [] -> []
+     | y :: v' -> (N.coq_lxor x y) :: (vadd u' v'))
+
+(** val vzero : nat -> n list **)
+
+let vzero n0 =
+  repeat N0 n0
+
+(** val vec_eqb : n list -> n list -> bool **)
+
+let rec vec_eqb u v =
+  match u with
+  | [] -> (match v with
+           | [] -> true
+           | _ :: _ -> false)
+  | x :: u' ->
+    (match v with
+     | [] -> false
+     | y :: v' -> (&&) (N.eqb x y) (vec_eqb u' v'))
+
+(** val map2 : ('a1 -> 'a2 -> 'a3) -> 'a1 list -> 'a2 list -> 'a3 list **)
+
+let rec map2 f l m =
+  match l with
+  | [] -> []
+  | a :: l' -> (match m with
+                | [] -> []
+                | b :: m' -> (f a b) :: (map2 f l' m'))
+
+(** val vscale : (n -> n -> n) -> n -> n list -> n list **)
+
+let vscale mul0 c v =
+  map (mul0 c) v
+
+(** val lincomb : (n -> n -> n) -> nat -> n list -> n list list -> n list **)
+
+let rec lincomb mul0 t0 r c =
+  match r with
+  | [] -> vzero t0
+  | a :: r' ->
+    (match c with
+     | [] -> vzero t0
+     | c0 :: c' -> vadd (vscale mul0 a c0) (lincomb mul0 t0 r' c'))
+
+(** val pick_row : n list list -> (n list * n list list) option **)
+
+let rec pick_row = function
+| [] -> None
+| r :: a' ->
+  if N.eqb (hd N0 r) N0
+  then (match pick_row a' with
+        | Some p0 -> let (p, r0) = p0 in Some (p, (r :: r0))
+        | None -> None)
+  else Some (r, a')
+
+(** val pick_rhs : n list list -> n list list -> n list * n list list **)
+
+let rec pick_rhs a d =
+  match a with
+  | [] -> ([], d)
+  | r :: a' ->
+    if N.eqb (hd N0 r) N0
+    then let (dp, r0) = pick_rhs a' (tl d) in (dp, ((hd [] d) :: r0))
+    else ((hd [] d), (tl d))
+
+(** val elim_coef : (n -> n -> n) -> (n -> n) -> n list -> n list -> n **)
+
+let elim_coef mul0 inv p r =
+  mul0 (hd N0 r) (inv (hd N0 p))
+
+(** val elim_row : (n -> n -> n) -> (n -> n) -> n list -> n list -> n list **)
+
+let elim_row mul0 inv p r =
+  vadd (tl r) (vscale mul0 (elim_coef mul0 inv p r) (tl p))
+
+(** val elim_rhs :
+    (n -> n -> n) -> (n -> n) -> n list -> n list -> n list -> n list -> n
+    list **)
+
+let elim_rhs mul0 inv p dp r d =
+  vadd d (vscale mul0 (elim_coef mul0 inv p r) dp)
+
+(** val gauss_solve :
+    (n -> n -> n) -> (n -> n) -> nat -> nat -> n list list -> n list list ->
+    n list list option **)
+
+let rec gauss_solve mul0 inv t0 l a d =
+  match l with
+  | O -> Some []
+  | S l' ->
+    (match pick_row a with
+     | Some p0 ->
+       let (p, r) = p0 in
+       let (dp, rD) = pick_rhs a d in
+       (match gauss_solve mul0 inv t0 l' (map (elim_row mul0 inv p) r)
+                (map2 (elim_rhs mul0 inv p dp) r rD) with
+        | Some y ->
+          Some
+            ((vscale mul0 (inv (hd N0 p))
+               (vadd dp (lincomb mul0 t0 (tl p) y))) :: y)
+        | None -> None)
+     | None -> None)
+
+type cfg = { cF : n; cT : n; cZ : n; cN : n; cAl : n }
+
+(** val ceil : n -> n -> n **)
+
+let ceil a b =
+  N.div (N.add a (N.sub b (Npos XH))) b
+
+(** val floor : n -> n -> n **)
+
+let floor =
+  N.div
+
+(** val partition : n -> n -> ((n * n) * n) * n **)
+
+let partition i j =
+  let iL = ceil i j in
+  let iS = floor i j in
+  let jL = N.sub i (N.mul iS j) in let jS = N.sub j jL in (((iL, iS), jL), jS)
+
+(** val q1 : (((n * n) * n) * n) -> n **)
+
+let q1 = function
+| (p0, _) -> let (p1, _) = p0 in let (a, _) = p1 in a
+
+(** val q2 : (((n * n) * n) * n) -> n **)
+
+let q2 = function
+| (p0, _) -> let (p1, _) = p0 in let (_, b) = p1 in b
+
+(** val q3 : (((n * n) * n) * n) -> n **)
+
+let q3 = function
+| (p0, _) -> let (_, x) = p0 in x
+
+(** val sumN : n list -> n **)
+
+let sumN l =
+  fold_right N.add N0 l
+
+(** val kt : cfg -> n **)
+
+let kt c =
+  ceil c.cF c.cT
+
+(** val kL0 : cfg -> n **)
+
+let kL0 c =
+  q1 (partition (kt c) c.cZ)
+
+(** val kS : cfg -> n **)
+
+let kS c =
+  q2 (partition (kt c) c.cZ)
+
+(** val zL : cfg -> n **)
+
+let zL c =
+  q3 (partition (kt c) c.cZ)
+
+(** val tL : cfg -> n **)
+
+let tL c =
+  q1 (partition (N.div c.cT c.cAl) c.cN)
+
+(** val tS : cfg -> n **)
+
+let tS c =
+  q2 (partition (N.div c.cT c.cAl) c.cN)
+
+(** val nL : cfg -> n **)
+
+let nL c =
+  q3 (partition (N.div c.cT c.cAl) c.cN)
+
+(** val blk_K : cfg -> n -> n **)
+
+let blk_K c j =
+  if N.ltb j (zL c) then kL0 c else kS c
+
+(** val blk_off : cfg -> n -> n **)
+
+let blk_off c j =
+  N.mul c.cT (sumN (map (blk_K c) (rangeN (N.to_nat j))))
+
+(** val obj_byte : n list -> n -> n **)
+
+let obj_byte data i =
+  nth (N.to_nat i) data N0
+
+(** val blk_byte : cfg -> n list -> n -> n -> n **)
+
+let blk_byte c data j i =
+  obj_byte data (N.add (blk_off c j) i)
+
+(** val sub_len : cfg -> n -> n **)
+
+let sub_len c s =
+  if N.ltb s (nL c) then N.mul (tL c) c.cAl else N.mul (tS c) c.cAl
+
+(** val sub_off : cfg -> n -> n -> n **)
+
+let sub_off c j s =
+  N.mul (blk_K c j) (sumN (map (sub_len c) (rangeN (N.to_nat s))))
+
+(** val sub_symbol : cfg -> n list -> n -> n -> n -> n list **)
+
+let sub_symbol c data j s m =
+  map (fun i ->
+    blk_byte c data j
+      (N.add (N.add (sub_off c j s) (N.mul m (sub_len c s))) i))
+    (rangeN (N.to_nat (sub_len c s)))
+
+(** val symbol : cfg -> n list -> n -> n -> n list **)
+
+let symbol c data j m =
+  concat (map (fun s -> sub_symbol c data j s m) (rangeN (N.to_nat c.cN)))
+
+(** val source_packets_spec : cfg -> n list -> ((n * n) * n list) list **)
+
+let source_packets_spec c data =
+  concat
+    (map (fun j ->
+      map (fun m -> ((j, m), (symbol c data j m)))
+        (rangeN (N.to_nat (blk_K c j)))) (rangeN (N.to_nat c.cZ)))
+
+type cparams = { cK : n; cJ : n; cS : n; cH : n; cW : n; cP1 : n }
+
+(** val cL : cparams -> n **)
+
+let cL p =
+  N.add (N.add p.cK p.cS) p.cH
+
+(** val cP : cparams -> n **)
+
+let cP p =
+  N.sub (cL p) p.cW
+
+(** val cB : cparams -> n **)
+
+let cB p =
+  N.sub p.cW p.cS
+
+(** val b2n : bool -> n **)
+
+let b2n = function
+| true -> Npos XH
+| false -> N0
+
+(** val parity : n -> n **)
+
+let parity n0 =
+  N.modulo n0 (Npos (XO XH))
+
+(** val ldpc_count : cparams -> n -> n -> n **)
+
+let ldpc_count p r j =
+  let s = p.cS in
+  let b = cB p in
+  let w = p.cW in
+  let p0 = cP p in
+  if N.ltb j b
+  then let a = N.add (Npos XH) (N.div j s) in
+       let b0 = N.modulo j s in
+       let b1 = N.modulo (N.add b0 a) s in
+       let b2 = N.modulo (N.add b1 a) s in
+       N.add (N.add (b2n (N.eqb b0 r)) (b2n (N.eqb b1 r))) (b2n (N.eqb b2 r))
+  else if N.ltb j w
+       then b2n (N.eqb (N.sub j b) r)
+       else N.add (b2n (N.eqb (N.modulo r p0) (N.sub j w)))
+              (b2n (N.eqb (N.modulo (N.add r (Npos XH)) p0) (N.sub j w)))
+
+(** val ldpc_entry : cparams -> n -> n -> n **)
+
+let ldpc_entry p r j =
+  parity (ldpc_count p r j)
+
+(** val alpha_pow : n -> n **)
+
+let alpha_pow i =
+  ppow2 (N.to_nat i)
+
+(** val mT : cparams -> n -> n -> n **)
+
+let mT p i k =
+  let h = p.cH in
+  let n0 = N.add p.cK p.cS in
+  if N.ltb (N.add k (Npos XH)) n0
+  then let r6 = rand (N.add k (Npos XH)) (Npos (XO (XI XH))) h in
+       let r7 =
+         rand (N.add k (Npos XH)) (Npos (XI (XI XH))) (N.sub h (Npos XH))
+       in
+       if (||) (N.eqb i r6)
+            (N.eqb i (N.modulo (N.add (N.add r6 r7) (Npos XH)) h))
+       then Npos XH
+       else N0
+  else alpha_pow i
+
+(** val gAMMA : n -> n -> n **)
+
+let gAMMA k j =
+  if N.leb j k then alpha_pow (N.sub k j) else N0
+
+(** val g_HDPC : cparams -> n -> n -> n **)
+
+let g_HDPC p i j =
+  let n0 = N.to_nat (N.add p.cK p.cS) in
+  xsum (map (fun k -> pmul (mT p i k) (gAMMA k j)) (rangeN n0))
+
+(** val hdpc_entry : cparams -> n -> n -> n **)
+
+let hdpc_entry p i j =
+  let n0 = N.add p.cK p.cS in
+  if N.ltb j n0 then g_HDPC p i j else b2n (N.eqb (N.sub j n0) i)
+
+(** val enc_lt : nat -> n -> n -> n -> n list **)
+
+let rec enc_lt n0 a w b =
+  match n0 with
+  | O -> []
+  | S n' -> let b' = N.modulo (N.add b a) w in b' :: (enc_lt n' a w b')
+
+(** val enc_skip : nat -> n -> n -> n -> n -> n **)
+
+let rec enc_skip fuel a1 p p1 b1 =
+  match fuel with
+  | O -> b1
+  | S f ->
+    if N.leb p b1 then enc_skip f a1 p p1 (N.modulo (N.add b1 a1) p1) else b1
+
+(** val enc_pi : nat -> nat -> n -> n -> n -> n -> n -> n list **)
+
+let rec enc_pi fuel n0 a1 w p p1 b1 =
+  match n0 with
+  | O -> []
+  | S n' ->
+    let b1' = enc_skip fuel a1 p p1 (N.modulo (N.add b1 a1) p1) in
+    (N.add w b1') :: (enc_pi fuel n' a1 w p p1 b1')
+
+(** val enc_indices0 :
+    cparams -> (((((n * n) * n) * n) * n) * n) -> n list **)
+
+let enc_indices0 p = function
+| (p0, b1) ->
+  let (p1, a1) = p0 in
+  let (p2, d1) = p1 in
+  let (p3, b) = p2 in
+  let (d, a) = p3 in
+  let w = p.cW in
+  let p4 = cP p in
+  let p5 = p.cP1 in
+  let fuel = N.to_nat p5 in
+  let b1' = enc_skip fuel a1 p4 p5 b1 in
+  b :: (app (enc_lt (N.to_nat (N.sub d (Npos XH))) a w b)
+         ((N.add w b1') :: (enc_pi fuel (N.to_nat (N.sub d1 (Npos XH))) a1 w
+                             p4 p5 b1')))
+
+(** val tuple_of : cparams -> n -> ((((n * n) * n) * n) * n) * n **)
+
+let tuple_of p x =
+  tuple p.cJ p.cW p.cP1 x
+
+(** val count_occ_N : n list -> n -> n **)
+
+let count_occ_N l j =
+  fold_left (fun acc x -> if N.eqb x j then N.add acc (Npos XH) else acc) l N0
+
+(** val enc_entry : cparams -> n -> n -> n **)
+
+let enc_entry p x j =
+  parity (count_occ_N (enc_indices0 p (tuple_of p x)) j)
+
+(** val a_entry : cparams -> n list -> n -> n -> n **)
+
+let a_entry p isis r j =
+  let s = p.cS in
+  let h = p.cH in
+  if N.ltb r s
+  then ldpc_entry p r j
+  else if N.ltb r (N.add s h)
+       then hdpc_entry p (N.sub r s) j
+       else enc_entry p (nth (N.to_nat (N.sub (N.sub r s) h)) isis N0) j
+
+(** val a_rfc : cparams -> n list -> n list list **)
+
+let a_rfc p isis =
+  let l = N.to_nat (cL p) in
+  map (fun r -> map (fun j -> a_entry p isis r j) (rangeN l))
+    (rangeN (add (N.to_nat (N.add p.cS p.cH)) (length isis)))
+
+(** val vxor : n list -> n list -> n list **)
+
+let rec vxor u v =
+  match u with
+  | [] -> []
+  | x :: u' ->
+    (match v with
+     | [] -> []
+     | y :: v' -> (N.coq_lxor x y) :: (vxor u' v'))
+
+(** val enc :
+    cparams -> nat -> n list list -> (((((n * n) * n) * n) * n) * n) -> n list **)
+
+let enc p t0 c t1 =
+  fold_left (fun acc i -> vxor acc (nth (N.to_nat i) c (repeat N0 t0)))
+    (enc_indices0 p t1) (repeat N0 t0)
+
+module PositiveMap =
+ struct
+  type key = positive
+
+  type 'a tree =
+  | Leaf
+  | Node of 'a tree * 'a option * 'a tree
+
+  type 'a t = 'a tree
+
+  (** val empty : 'a1 t **)
+
+  let empty =
+    Leaf
+
+  (** val find : key -> 'a1 t -> 'a1 option **)
+
+  let rec find i = function
+  | Leaf -> None
+  | Node (l, o, r) ->
+    (match i with
+     | XI ii -> find ii r
+     | XO ii -> find ii l
+     | XH -> o)
+
+  (** val add : key -> 'a1 -> 'a1 t -> 'a1 t **)
+
+  let rec add i v = function
+  | Leaf ->
+    (match i with
+     | XI ii -> Node (Leaf, None, (add ii v Leaf))
+     | XO ii -> Node ((add ii v Leaf), None, Leaf)
+     | XH -> Node (Leaf, (Some v), Leaf))
+  | Node (l, o, r) ->
+    (match i with
+     | XI ii -> Node (l, o, (add ii v r))
+     | XO ii -> Node ((add ii v l), o, r)
+     | XH -> Node (l, (Some v), r))
+ end
+
+(** val fmul_key : n -> n -> positive **)
+
+let fmul_key a b =
+  N.succ_pos
+    (N.add (N.mul a (Npos (XO (XO (XO (XO (XO (XO (XO (XO XH)))))))))) b)
+
+(** val fmul_table : n PositiveMap.t **)
+
+let fmul_table =
+  fold_left (fun m a ->
+    fold_left (fun m0 b -> PositiveMap.add (fmul_key a b) (mulN a b) m0)
+      (rangeN (S (S (S (S (S (S (S (S (S (S (S (S (S (S (S (S (S (S (S (S (S
+        (S (S (S (S (S (S (S (S (S (S (S (S (S (S (S (S (S (S (S (S (S (S (S
+        (S (S (S (S (S (S (S (S (S (S (S (S (S (S (S (S (S (S (S (S (S (S (S
+        (S (S (S (S (S (S (S (S (S (S (S (S (S (S (S (S (S (S (S (S (S (S (S
+        (S (S (S (S (S (S (S (S (S (S (S (S (S (S (S (S (S (S (S (S (S (S (S
+        (S (S (S (S (S (S (S (S (S (S (S (S (S (S (S (S (S (S (S (S (S (S (S
+        (S (S (S (S (S (S (S (S (S (S (S (S (S (S (S (S (S (S (S (S (S (S (S
+        (S (S (S (S (S (S (S (S (S (S (S (S (S (S (S (S (S (S (S (S (S (S (S
+        (S (S (S (S (S (S (S (S (S (S (S (S (S (S (S (S (S (S (S (S (S (S (S
+        (S (S (S (S (S (S (S (S (S (S (S (S (S (S (S (S (S (S (S (S (S (S (S
+        (S (S (S (S (S (S (S (S (S (S (S (S (S (S (S (S (S (S (S (S (S (S (S
+        (S (S (S (S (S
+        O)))))))))))))))))))))))))))))))))))))))))))))))))))))))))))))))))))))))))))))))))))))))))))))))))))))))))))))))))))))))))))))))))))))))))))))))))))))))))))))))))))))))))))))))))))))))))))))))))))))))))))))))))))))))))))))))))))))))))))))))))))))))))))))))))
+      m)
+    (rangeN (S (S (S (S (S (S (S (S (S (S (S (S (S (S (S (S (S (S (S (S (S (S
+      (S (S (S (S (S (S (S (S (S (S (S (S (S (S (S (S (S (S (S (S (S (S (S (S
+      (S (S (S (S (S (S (S (S (S (S (S (S (S (S (S (S (S (S (S (S (S (S (S (S
+      (S (S (S (S (S (S (S (S (S (S (S (S (S (S (S (S (S (S (S (S (S (S (S (S
+      (S (S (S (S (S (S (S (S (S (S (S (S (S (S (S (S (S (S (S (S (S (S (S (S
+      (S (S (S (S (S (S (S (S (S (S (S (S (S (S (S (S (S (S (S (S (S (S (S (S
+      (S (S (S (S (S (S (S (S (S (S (S (S (S (S (S (S (S (S (S (S (S (S (S (S
+      (S (S (S (S (S (S (S (S (S (S (S (S (S (S (S (S (S (S (S (S (S (S (S (S
+      (S (S (S (S (S (S (S (S (S (S (S (S (S (S (S (S (S (S (S (S (S (S (S (S
+      (S (S (S (S (S (S (S (S (S (S (S (S (S (S (S (S (S (S (S (S (S (S (S (S
+      (S (S (S (S (S (S (S (S (S (S (S (S (S (S (S (S (S (S
+      O)))))))))))))))))))))))))))))))))))))))))))))))))))))))))))))))))))))))))))))))))))))))))))))))))))))))))))))))))))))))))))))))))))))))))))))))))))))))))))))))))))))))))))))))))))))))))))))))))))))))))))))))))))))))))))))))))))))))))))))))))))))))))))))))))
+    PositiveMap.empty
+
+(** val fmul : n -> n -> n **)
+
+let fmul a b =
+  match PositiveMap.find (fmul_key a b) fmul_table with
+  | Some v -> v
+  | None -> N0
+
+(** val finv_table : n PositiveMap.t **)
+
+let finv_table =
+  fold_left (fun m a -> PositiveMap.add (N.succ_pos a) (divN (Npos XH) a) m)
+    (rangeN (S (S (S (S (S (S (S (S (S (S (S (S (S (S (S (S (S (S (S (S (S (S
+      (S (S (S (S (S (S (S (S (S (S (S (S (S (S (S (S (S (S (S (S (S (S (S (S
+      (S (S (S (S (S (S (S (S (S (S (S (S (S (S (S (S (S (S (S (S (S (S (S (S
+      (S (S (S (S (S (S (S (S (S (S (S (S (S (S (S (S (S (S (S (S (S (S (S (S
+      (S (S (S (S (S (S (S (S (S (S (S (S (S (S (S (S (S (S (S (S (S (S (S (S
+      (S (S (S (S (S (S (S (S (S (S (S (S (S (S (S (S (S (S (S (S (S (S (S (S
+      (S (S (S (S (S (S (S (S (S (S (S (S (S (S (S (S (S (S (S (S (S (S (S (S
+      (S (S (S (S (S (S (S (S (S (S (S (S (S (S (S (S (S (S (S (S (S (S (S (S
+      (S (S (S (S (S (S (S (S (S (S (S (S (S (S (S (S (S (S (S (S (S (S (S (S
+      (S (S (S (S (S (S (S (S (S (S (S (S (S (S (S (S (S (S (S (S (S (S (S (S
+      (S (S (S (S (S (S (S (S (S (S (S (S (S (S (S (S (S (S
+      O)))))))))))))))))))))))))))))))))))))))))))))))))))))))))))))))))))))))))))))))))))))))))))))))))))))))))))))))))))))))))))))))))))))))))))))))))))))))))))))))))))))))))))))))))))))))))))))))))))))))))))))))))))))))))))))))))))))))))))))))))))))))))))))))))
+    PositiveMap.empty
+
+(** val finv : n -> n **)
+
+let finv a =
+  match PositiveMap.find (N.succ_pos a) finv_table with
+  | Some v -> v
+  | None -> N0
 
 (** val zero_matrix : nat -> nat -> n list list **)
 
@@ -10814,7 +11174,7 @@ let set_enc m first w p p1 j isis mat =
     (ofold (fun isi st ->
       let (row, mat0) = st in
       obind (intermediate_tuple_gen true m isi w j p1) (fun t0 ->
-        obind (enc_indices0 m t0 w p p1) (fun idx ->
+        obind (enc_indices m t0 w p p1) (fun idx ->
           obind
             (ofold (fun j0 mat1 -> mset mat1 (N.add row first) j0 (Npos XH))
               idx mat0) (fun mat1 -> Ok ((N.add row (Npos XH)), mat1)))))
@@ -10970,9 +11330,9 @@ let rec enumerate_from i = function
 | [] -> []
 | a :: t0 -> (i, a) :: (enumerate_from (N.add i (Npos XH)) t0)
 
-(** val int_div_ceil : n -> n -> n outcome **)
+(** val int_div_ceil0 : n -> n -> n outcome **)
 
-let int_div_ceil num denom =
+let int_div_ceil0 num denom =
   if N.eqb denom N0
   then Panic PDivZero
   else if N.eqb (N.modulo num denom) N0
@@ -10982,7 +11342,7 @@ let int_div_ceil num denom =
 (** val partition0 : n -> n -> (((n * n) * n) * n) outcome **)
 
 let partition0 i j =
-  obind (int_div_ceil i j) (fun il ->
+  obind (int_div_ceil0 i j) (fun il ->
     obind (div_ok i j) (fun is_ ->
       let jl = N.sub i (N.mul is_ j) in
       let js = N.sub j jl in Ok (((il, is_), jl), js)))
@@ -11002,12 +11362,12 @@ let rec push_blocks n0 offset chk data_index =
 (** val calculate_block_offsets : n -> n -> n -> n -> (n * n) list outcome **)
 
 let calculate_block_offsets f t0 z datalen =
-  obind (int_div_ceil f t0) (fun kt0 ->
+  obind (int_div_ceil0 f t0) (fun kt0 ->
     obind (partition0 kt0 z) (fun x ->
       let (p, zs) = x in
       let (p0, zl) = p in
-      let (kl, ks) = p0 in
-      obind (push_blocks (N.to_nat zl) (N.mul kl t0) (fun _ -> Ok ()) N0)
+      let (kl0, ks) = p0 in
+      obind (push_blocks (N.to_nat zl) (N.mul kl0 t0) (fun _ -> Ok ()) N0)
         (fun x0 ->
         let (b1, idx1) = x0 in
         obind
@@ -11160,6 +11520,55 @@ let block_from_all_source c k symbols =
 let reassemble c blocks =
   firstn (N.to_nat c.cF) (concat blocks)
 
+type slab = { sl_data : n list list; sl_ss : nat; sl_map : n list option }
+
+(** val slab_count : slab -> nat **)
+
+let slab_count s =
+  length s.sl_data
+
+(** val phys : slab -> n -> n outcome **)
+
+let phys s i =
+  match s.sl_map with
+  | Some m -> nth_ok m (N.to_nat i)
+  | None -> Ok i
+
+(** val slab_get : slab -> n -> n list outcome **)
+
+let slab_get s i =
+  obind (phys s i) (fun p -> nth_ok s.sl_data (N.to_nat p))
+
+(** val list_set : 'a1 list -> nat -> 'a1 -> 'a1 list **)
+
+let rec list_set l i v =
+  match l with
+  | [] -> []
+  | x :: t0 -> (match i with
+                | O -> v :: t0
+                | S j -> x :: (list_set t0 j v))
+
+(** val slab_put : slab -> n -> n list -> slab **)
+
+let slab_put s p v =
+  { sl_data = (list_set s.sl_data (N.to_nat p) v); sl_ss = s.sl_ss; sl_map =
+    s.sl_map }
+
+(** val slab_pair : slab -> n -> n -> ((n * n list) * n list) outcome **)
+
+let slab_pair s dest src =
+  obind (phys s dest) (fun pd ->
+    obind (phys s src) (fun ps ->
+      if N.eqb pd ps
+      then Panic PAssert
+      else if negb (ltb (N.to_nat pd) (slab_count s))
+           then Panic PAssert
+           else if negb (ltb (N.to_nat ps) (slab_count s))
+                then Panic PAssert
+                else obind (nth_ok s.sl_data (N.to_nat pd)) (fun d ->
+                       obind (nth_ok s.sl_data (N.to_nat ps)) (fun v -> Ok
+                         ((pd, d), v)))))
+
 (** val map0 : ('a1 -> 'a2 -> 'a3) -> 'a1 list -> 'a2 list -> 'a3 list **)
 
 let rec map0 f l1 l2 =
@@ -11173,6 +11582,78 @@ let rec map0 f l1 l2 =
 
 let bytes_add d s =
   map0 N.coq_lxor d s
+
+(** val bytes_mul : n -> n list -> n list **)
+
+let bytes_mul c d =
+  map (mulN c) d
+
+(** val bytes_fma : n -> n list -> n list -> n list **)
+
+let bytes_fma c d s =
+  map0 (fun x y -> N.coq_lxor x (mulN c y)) d s
+
+(** val slab_add_assign : slab -> n -> n -> slab outcome **)
+
+let slab_add_assign s dest src =
+  obind (slab_pair s dest src) (fun x ->
+    let (p, v) = x in let (pd, d) = p in Ok (slab_put s pd (bytes_add d v)))
+
+(** val slab_mulassign : slab -> n -> n -> slab outcome **)
+
+let slab_mulassign s dest c =
+  obind (phys s dest) (fun p ->
+    obind (nth_ok s.sl_data (N.to_nat p)) (fun d -> Ok
+      (slab_put s p (bytes_mul c d))))
+
+(** val slab_fma : mode -> slab -> n -> n -> n -> slab outcome **)
+
+let slab_fma m s dest src c =
+  obind (slab_pair s dest src) (fun x ->
+    let (p, v) = x in
+    let (pd, d) = p in
+    (match m with
+     | Release -> Ok (slab_put s pd (bytes_fma c d v))
+     | Checked ->
+       if (||) (N.eqb c N0) (N.eqb c (Npos XH))
+       then Panic PAssert
+       else Ok (slab_put s pd (bytes_fma c d v))))
+
+(** val slab_set_reorder : slab -> n list -> slab **)
+
+let slab_set_reorder s order0 =
+  { sl_data = s.sl_data; sl_ss = s.sl_ss; sl_map = (Some order0) }
+
+type symbol_op =
+| SAdd of n * n
+| SMul of n * n
+| SFMA of n * n * n
+| SReorder of n list
+
+(** val perform_op : mode -> symbol_op -> slab -> slab outcome **)
+
+let perform_op m o s =
+  match o with
+  | SAdd (d, r) -> slab_add_assign s d r
+  | SMul (d, c) -> slab_mulassign s d c
+  | SFMA (d, r, c) -> slab_fma m s d r c
+  | SReorder ord -> Ok (slab_set_reorder s ord)
+
+(** val replay : mode -> symbol_op list -> slab -> slab outcome **)
+
+let rec replay m ops s =
+  match ops with
+  | [] -> Ok s
+  | o :: t0 -> obind (perform_op m o s) (fun s' -> replay m t0 s')
+
+(** val slab_read : slab -> nat -> n -> n list list outcome **)
+
+let rec slab_read s n0 from =
+  match n0 with
+  | O -> Ok []
+  | S k ->
+    obind (slab_get s from) (fun x ->
+      obind (slab_read s k (N.add from (Npos XH))) (fun r -> Ok (x :: r)))
 
 (** val create_d : sysparams -> n list list -> nat -> n list list **)
 
@@ -11298,7 +11779,7 @@ type sb_decoder = { sbd_id : n; sbd_cfg : cfg; sbd_K : n;
 (** val sbd_new : n -> cfg -> n -> sb_decoder outcome **)
 
 let sbd_new id c block_length =
-  obind (int_div_ceil block_length c.cT) (fun k -> Ok { sbd_id = id;
+  obind (int_div_ceil0 block_length c.cT) (fun k -> Ok { sbd_id = id;
     sbd_cfg = c; sbd_K = k; sbd_src = (repeat None (N.to_nat k)); sbd_rep =
     []; sbd_nsrc = N0; sbd_esis = []; sbd_decoded = false })
 
@@ -11344,7 +11825,7 @@ let present_sources d =
 
 let rebuild_source_symbol m sp c i =
   obind (intermediate_tuple_gen true m i sp.spW sp.spJ sp.spP1) (fun t0 ->
-    obind (enc_indices0 m t0 sp.spW sp.spP sp.spP1) (fun idx ->
+    obind (enc_indices m t0 sp.spW sp.spP sp.spP1) (fun idx ->
       match idx with
       | [] -> Panic PIndex
       | i0 :: rest ->
@@ -11456,13 +11937,13 @@ type decoder = { dec_cfg : cfg; dec_sbd : sb_decoder list;
 (** val dec_new : cfg -> decoder outcome **)
 
 let dec_new c =
-  obind (int_div_ceil c.cF c.cT) (fun kt0 ->
+  obind (int_div_ceil0 c.cF c.cT) (fun kt0 ->
     obind (partition0 kt0 c.cZ) (fun x ->
       let (p, zs) = x in
       let (p0, zl) = p in
-      let (kl, ks) = p0 in
+      let (kl0, ks) = p0 in
       obind
-        (omapM (fun i -> sbd_new (u8 i) c (N.mul kl c.cT))
+        (omapM (fun i -> sbd_new (u8 i) c (N.mul kl0 c.cT))
           (rangeN (N.to_nat zl))) (fun l1 ->
         obind
           (omapM (fun i -> sbd_new (u8 (N.add zl i)) c (N.mul ks c.cT))
@@ -11784,6 +12265,1527 @@ let run_spec_layout_packets a =
   (Npos
     XH) :: (flat_packets
              (source_packets_spec (cfg_of a) (skipn (S (S (S (S (S O))))) a)))
+
+(** val decode_ops : nat -> n list -> symbol_op list **)
+
+let rec decode_ops fuel v =
+  match fuel with
+  | O -> []
+  | S f ->
+    (match v with
+     | [] -> []
+     | n0 :: l ->
+       (match n0 with
+        | N0 ->
+          (match l with
+           | [] -> []
+           | n1 :: t0 ->
+             (SReorder
+               (firstn (N.to_nat n1) t0)) :: (decode_ops f
+                                               (skipn (N.to_nat n1) t0)))
+        | Npos p ->
+          (match p with
+           | XI p0 ->
+             (match p0 with
+              | XH ->
+                (match l with
+                 | [] -> []
+                 | n1 :: t0 ->
+                   (match t0 with
+                    | [] ->
+                      (SReorder
+                        (firstn (N.to_nat n1) t0)) :: (decode_ops f
+                                                        (skipn (N.to_nat n1)
+                                                          t0))
+                    | s :: l0 ->
+                      (match l0 with
+                       | [] ->
+                         (SReorder
+                           (firstn (N.to_nat n1) t0)) :: (decode_ops f
+                                                           (skipn
+                                                             (N.to_nat n1) t0))
+                       | c :: t1 -> (SFMA (n1, s, c)) :: (decode_ops f t1))))
+              | _ ->
+                (match l with
+                 | [] -> []
+                 | n1 :: t0 ->
+                   (SReorder
+                     (firstn (N.to_nat n1) t0)) :: (decode_ops f
+                                                     (skipn (N.to_nat n1) t0))))
+           | XO p0 ->
+             (match p0 with
+              | XH ->
+                (match l with
+                 | [] -> []
+                 | n1 :: t0 ->
+                   (match t0 with
+                    | [] ->
+                      (SReorder
+                        (firstn (N.to_nat n1) t0)) :: (decode_ops f
+                                                        (skipn (N.to_nat n1)
+                                                          t0))
+                    | c :: t1 -> (SMul (n1, c)) :: (decode_ops f t1)))
+              | _ ->
+                (match l with
+                 | [] -> []
+                 | n1 :: t0 ->
+                   (SReorder
+                     (firstn (N.to_nat n1) t0)) :: (decode_ops f
+                                                     (skipn (N.to_nat n1) t0))))
+           | XH ->
+             (match l with
+              | [] -> []
+              | n1 :: t0 ->
+                (match t0 with
+                 | [] ->
+                   (SReorder
+                     (firstn (N.to_nat n1) t0)) :: (decode_ops f
+                                                     (skipn (N.to_nat n1) t0))
+                 | s :: t1 -> (SAdd (n1, s)) :: (decode_ops f t1))))))
+
+(** val run_slab_replay : mode -> n list -> n list **)
+
+let run_slab_replay m a =
+  enc1l
+    (let t0 = argn a O in
+     let count = N.to_nat (argn a (S O)) in
+     let nread = N.to_nat (argn a (S (S O))) in
+     let nv = N.to_nat (argn a (S (S (S O)))) in
+     let ops = decode_ops nv (firstn nv (skipn (S (S (S (S O)))) a)) in
+     let data = skipn (add (S (S (S (S O)))) nv) a in
+     let syms = firstn count (chunks (N.max t0 (Npos XH)) data) in
+     obind (assert_ok (forallb (fun s -> eqb (length s) (N.to_nat t0)) syms))
+       (fun _ ->
+       obind
+         (replay m ops { sl_data = syms; sl_ss = (N.to_nat t0); sl_map =
+           None }) (fun s' ->
+         obind (slab_read s' nread N0) (fun r -> Ok (concat r)))))
+
+type bvec = n list * n
+
+(** val bv_padding : n -> n **)
+
+let bv_padding len =
+  N.modulo
+    (N.sub (Npos (XO (XO (XO (XO (XO (XO XH)))))))
+      (N.modulo len (Npos (XO (XO (XO (XO (XO (XO XH))))))))) (Npos (XO (XO
+    (XO (XO (XO (XO XH)))))))
+
+(** val bit_at : n list -> n -> n **)
+
+let bit_at elements p =
+  if N.testbit
+       (nth (N.to_nat (N.div p (Npos (XO (XO (XO (XO (XO (XO XH)))))))))
+         elements N0) (N.modulo p (Npos (XO (XO (XO (XO (XO (XO XH))))))))
+  then Npos XH
+  else N0
+
+(** val to_bits : bvec -> n list **)
+
+let to_bits bv =
+  map (fun i -> bit_at (fst bv) (N.add (bv_padding (snd bv)) (N.of_nat i)))
+    (seq O (N.to_nat (snd bv)))
+
+(** val map1 : ('a1 -> 'a2 -> 'a3) -> 'a1 list -> 'a2 list -> 'a3 list **)
+
+let rec map1 f l1 l2 =
+  match l1 with
+  | [] -> []
+  | a :: t1 -> (match l2 with
+                | [] -> []
+                | b :: t2 -> (f a b) :: (map1 f t1 t2))
+
+(** val range : nat -> nat -> nat list **)
+
+let range a b =
+  seq a (sub b a)
+
+(** val ofold0 :
+    ('a2 -> 'a1 -> 'a2 outcome) -> 'a1 list -> 'a2 -> 'a2 outcome **)
+
+let rec ofold0 f l s =
+  match l with
+  | [] -> Ok s
+  | a :: t0 -> (match f s a with
+                | Ok s' -> ofold0 f t0 s'
+                | Panic c -> Panic c)
+
+(** val le_val : n list -> n **)
+
+let rec le_val = function
+| [] -> N0
+| b :: t0 ->
+  N.add b
+    (N.mul (Npos (XO (XO (XO (XO (XO (XO (XO (XO XH))))))))) (le_val t0))
+
+(** val le_bytes : nat -> n -> n list **)
+
+let rec le_bytes n0 v =
+  match n0 with
+  | O -> []
+  | S k ->
+    (N.modulo v (Npos (XO (XO (XO (XO (XO (XO (XO (XO XH)))))))))) :: 
+      (le_bytes k (N.div v (Npos (XO (XO (XO (XO (XO (XO (XO (XO XH)))))))))))
+
+(** val loadu : nat -> n list -> nat -> n list outcome **)
+
+let loadu w buf o =
+  if Nat.leb (add o w) (length buf)
+  then Ok (firstn w (skipn o buf))
+  else Panic PIndex
+
+(** val storeu : n list -> nat -> n list -> n list outcome **)
+
+let storeu buf o v =
+  if Nat.leb (add o (length v)) (length buf)
+  then Ok (app (firstn o buf) (app v (skipn (add o (length v)) buf)))
+  else Panic PIndex
+
+(** val get_unchecked : n list -> nat -> n outcome **)
+
+let get_unchecked =
+  nth_ok
+
+(** val set_unchecked : n list -> nat -> n -> n list outcome **)
+
+let set_unchecked buf i v =
+  if Nat.ltb i (length buf)
+  then Ok (app (firstn i buf) (v :: (skipn (S i) buf)))
+  else Panic PIndex
+
+(** val v_and : n list -> n list -> n list **)
+
+let v_and a b =
+  map1 N.coq_land a b
+
+(** val v_xor : n list -> n list -> n list **)
+
+let v_xor a b =
+  map1 N.coq_lxor a b
+
+(** val v_andnot : n list -> n list -> n list **)
+
+let v_andnot a b =
+  map1 (fun x y ->
+    N.coq_land (N.sub (Npos (XI (XI (XI (XI (XI (XI (XI XH)))))))) x) y) a b
+
+(** val v_cmpeq_epi8 : n list -> n list -> n list **)
+
+let v_cmpeq_epi8 a b =
+  map1 (fun x y ->
+    if N.eqb x y then Npos (XI (XI (XI (XI (XI (XI (XI XH))))))) else N0) a b
+
+(** val v_setzero : nat -> n list **)
+
+let v_setzero nb =
+  repeat N0 nb
+
+(** val v_set1_epi8 : nat -> n -> n list **)
+
+let v_set1_epi8 nb c =
+  repeat c nb
+
+(** val v_set1_epi32 : nat -> n -> n list **)
+
+let v_set1_epi32 nb w =
+  concat
+    (repeat (le_bytes (S (S (S (S O)))) w) (Nat.div nb (S (S (S (S O))))))
+
+(** val v_set1_epi64x : nat -> n -> n list **)
+
+let v_set1_epi64x nb q =
+  concat
+    (repeat (le_bytes (S (S (S (S (S (S (S (S O)))))))) q)
+      (Nat.div nb (S (S (S (S (S (S (S (S O))))))))))
+
+(** val v_set_epi64x : n -> n -> n -> n -> n list **)
+
+let v_set_epi64x e3 e2 e1 e0 =
+  app (le_bytes (S (S (S (S (S (S (S (S O)))))))) e0)
+    (app (le_bytes (S (S (S (S (S (S (S (S O)))))))) e1)
+      (app (le_bytes (S (S (S (S (S (S (S (S O)))))))) e2)
+        (le_bytes (S (S (S (S (S (S (S (S O)))))))) e3)))
+
+(** val v_broadcast128 : nat -> n list -> n list **)
+
+let v_broadcast128 nb t0 =
+  concat
+    (repeat t0
+      (Nat.div nb (S (S (S (S (S (S (S (S (S (S (S (S (S (S (S (S
+        O))))))))))))))))))
+
+(** val pshufb128 : n list -> n list -> n list **)
+
+let pshufb128 t0 x =
+  map (fun xj ->
+    if N.leb (Npos (XO (XO (XO (XO (XO (XO (XO XH)))))))) xj
+    then N0
+    else nth (N.to_nat (N.modulo xj (Npos (XO (XO (XO (XO XH))))))) t0 N0) x
+
+(** val v_shuffle_epi8 : nat -> n list -> n list -> n list **)
+
+let rec v_shuffle_epi8 lanes t0 x =
+  match lanes with
+  | O -> []
+  | S k ->
+    app
+      (pshufb128
+        (firstn (S (S (S (S (S (S (S (S (S (S (S (S (S (S (S (S
+          O)))))))))))))))) t0)
+        (firstn (S (S (S (S (S (S (S (S (S (S (S (S (S (S (S (S
+          O)))))))))))))))) x))
+      (v_shuffle_epi8 k
+        (skipn (S (S (S (S (S (S (S (S (S (S (S (S (S (S (S (S
+          O)))))))))))))))) t0)
+        (skipn (S (S (S (S (S (S (S (S (S (S (S (S (S (S (S (S
+          O)))))))))))))))) x))
+
+(** val v_srli_epi64 : nat -> n -> n list -> n list **)
+
+let rec v_srli_epi64 qwords s v =
+  match qwords with
+  | O -> []
+  | S k ->
+    app
+      (le_bytes (S (S (S (S (S (S (S (S O))))))))
+        (N.shiftr (le_val (firstn (S (S (S (S (S (S (S (S O)))))))) v)) s))
+      (v_srli_epi64 k s (skipn (S (S (S (S (S (S (S (S O)))))))) v))
+
+(** val v_maskz_mov_epi8 : n -> n list -> n list **)
+
+let v_maskz_mov_epi8 k v =
+  map (fun jv -> if N.testbit k (N.of_nat (fst jv)) then snd jv else N0)
+    (combine (seq O (length v)) v)
+
+(** val bextr2_u32 : n -> n -> n **)
+
+let bextr2_u32 a ctl =
+  let start = N.modulo ctl (Npos (XO (XO (XO (XO (XO (XO (XO (XO XH)))))))))
+  in
+  let len =
+    N.modulo (N.div ctl (Npos (XO (XO (XO (XO (XO (XO (XO (XO XH))))))))))
+      (Npos (XO (XO (XO (XO (XO (XO (XO (XO XH)))))))))
+  in
+  N.modulo (N.shiftr a start) (N.pow (Npos (XO XH)) len)
+
+(** val wORD_WIDTH : n **)
+
+let wORD_WIDTH =
+  Npos (XO (XO (XO (XO (XO (XO XH))))))
+
+(** val padding_bits : bvec -> n **)
+
+let padding_bits bv =
+  N.modulo (N.sub wORD_WIDTH (N.modulo (snd bv) wORD_WIDTH)) wORD_WIDTH
+
+(** val select_mask : n -> n outcome **)
+
+let select_mask bit =
+  if N.ltb bit (Npos (XO (XO (XO (XO (XO (XO XH)))))))
+  then Ok (N.shiftl (Npos XH) bit)
+  else Panic POverflow
+
+(** val to_octet_vec_loop :
+    n list -> nat -> n -> n -> ((n list * n) * n) outcome **)
+
+let rec to_octet_vec_loop elements n0 word bit =
+  match n0 with
+  | O -> Ok (([], word), bit)
+  | S k ->
+    obind (nth_ok elements (N.to_nat word)) (fun e ->
+      obind (select_mask bit) (fun m ->
+        let value = if negb (N.eqb (N.coq_land e m) N0) then Npos XH else N0
+        in
+        let bit1 = N.add bit (Npos XH) in
+        let wb =
+          if N.eqb bit1 (Npos (XO (XO (XO (XO (XO (XO XH)))))))
+          then ((N.add word (Npos XH)), N0)
+          else (word, bit1)
+        in
+        obind (to_octet_vec_loop elements k (fst wb) (snd wb)) (fun r -> Ok
+          (((value :: (fst (fst r))), (snd (fst r))), (snd r)))))
+
+(** val to_octet_vec : bvec -> n list outcome **)
+
+let to_octet_vec bv =
+  obind (to_octet_vec_loop (fst bv) (N.to_nat (snd bv)) N0 (padding_bits bv))
+    (fun r ->
+    obind (assert_ok (N.eqb (snd (fst r)) (N.of_nat (length (fst bv)))))
+      (fun _ ->
+      obind (assert_ok (N.eqb (snd r) N0)) (fun _ -> Ok (fst (fst r)))))
+
+(** val u32_view : n list -> n list **)
+
+let u32_view elements =
+  flat_map (fun e ->
+    (N.modulo e (N.pow (Npos (XO XH)) (Npos (XO (XO (XO (XO (XO XH)))))))) :: (
+    (N.modulo
+      (N.div e (N.pow (Npos (XO XH)) (Npos (XO (XO (XO (XO (XO XH))))))))
+      (N.pow (Npos (XO XH)) (Npos (XO (XO (XO (XO (XO XH)))))))) :: []))
+    elements
+
+(** val xor_u64_loop : nat -> nat -> n list -> n list -> n list outcome **)
+
+let xor_u64_loop a b other octets =
+  ofold0 (fun o i ->
+    obind
+      (loadu (S (S (S (S (S (S (S (S O)))))))) o
+        (mul i (S (S (S (S (S (S (S (S O)))))))))) (fun self_value ->
+      obind
+        (loadu (S (S (S (S (S (S (S (S O)))))))) other
+          (mul i (S (S (S (S (S (S (S (S O)))))))))) (fun other_value ->
+        let result = N.coq_lxor (le_val self_value) (le_val other_value) in
+        storeu o (mul i (S (S (S (S (S (S (S (S O)))))))))
+          (le_bytes (S (S (S (S (S (S (S (S O)))))))) result)))) (range a b)
+    octets
+
+(** val xor_byte_loop : nat -> nat -> n list -> n list -> n list outcome **)
+
+let xor_byte_loop a b other octets =
+  ofold0 (fun o i ->
+    obind (get_unchecked o i) (fun x ->
+      obind (get_unchecked other i) (fun y ->
+        set_unchecked o i (N.coq_lxor x y)))) (range a b) octets
+
+(** val add_assign_fallback : n list -> n list -> n list outcome **)
+
+let add_assign_fallback octets other =
+  obind (assert_ok (Nat.eqb (length octets) (length other))) (fun _ ->
+    let len = length octets in
+    obind
+      (xor_u64_loop O (Nat.div len (S (S (S (S (S (S (S (S O))))))))) other
+        octets) (fun o1 ->
+      let remainder = Nat.modulo len (S (S (S (S (S (S (S (S O)))))))) in
+      xor_byte_loop (sub len remainder) len other o1))
+
+(** val add_assign_simd : nat -> n list -> n list -> n list outcome **)
+
+let add_assign_simd w octets other =
+  obind (assert_ok (Nat.eqb (length octets) (length other))) (fun _ ->
+    let len = length octets in
+    obind
+      (ofold0 (fun o i ->
+        obind (loadu w o (mul i w)) (fun self_vec ->
+          obind (loadu w other (mul i w)) (fun other_vec ->
+            let result = v_xor self_vec other_vec in storeu o (mul i w) result)))
+        (range O (Nat.div len w)) octets) (fun o1 ->
+      let remainder = Nat.modulo len w in
+      obind
+        (xor_u64_loop
+          (Nat.div (sub len remainder) (S (S (S (S (S (S (S (S O)))))))))
+          (Nat.div len (S (S (S (S (S (S (S (S O))))))))) other o1)
+        (fun o2 ->
+        let remainder0 = Nat.modulo len (S (S (S (S (S (S (S (S O)))))))) in
+        xor_byte_loop (sub len remainder0) len other o2)))
+
+(** val add_assign_avx512 : n list -> n list -> n list outcome **)
+
+let add_assign_avx512 =
+  add_assign_simd (S (S (S (S (S (S (S (S (S (S (S (S (S (S (S (S (S (S (S (S
+    (S (S (S (S (S (S (S (S (S (S (S (S (S (S (S (S (S (S (S (S (S (S (S (S
+    (S (S (S (S (S (S (S (S (S (S (S (S (S (S (S (S (S (S (S (S
+    O))))))))))))))))))))))))))))))))))))))))))))))))))))))))))))))))
+
+(** val add_assign_avx2 : n list -> n list -> n list outcome **)
+
+let add_assign_avx2 =
+  add_assign_simd (S (S (S (S (S (S (S (S (S (S (S (S (S (S (S (S (S (S (S (S
+    (S (S (S (S (S (S (S (S (S (S (S (S O))))))))))))))))))))))))))))))))
+
+(** val add_assign_ssse3 : n list -> n list -> n list outcome **)
+
+let add_assign_ssse3 =
+  add_assign_simd (S (S (S (S (S (S (S (S (S (S (S (S (S (S (S (S
+    O))))))))))))))))
+
+(** val octet_mul_unchecked : n -> n -> n outcome **)
+
+let octet_mul_unchecked scalar x =
+  tbl2 octet_mul_table scalar x
+
+(** val mul_byte_loop : nat -> nat -> n -> n list -> n list outcome **)
+
+let mul_byte_loop a b scalar octets =
+  ofold0 (fun o i ->
+    obind (get_unchecked o i) (fun x ->
+      obind (octet_mul_unchecked scalar x) (fun y -> set_unchecked o i y)))
+    (range a b) octets
+
+(** val mulassign_scalar_fallback : n list -> n -> n list outcome **)
+
+let mulassign_scalar_fallback octets scalar =
+  omapM (fun item -> octet_mul_unchecked scalar item) octets
+
+(** val mulvec_avx512 : n list -> n list -> n list -> n list **)
+
+let mulvec_avx512 low_table hi_table v =
+  let low_mask =
+    v_set1_epi8 (S (S (S (S (S (S (S (S (S (S (S (S (S (S (S (S (S (S (S (S
+      (S (S (S (S (S (S (S (S (S (S (S (S (S (S (S (S (S (S (S (S (S (S (S (S
+      (S (S (S (S (S (S (S (S (S (S (S (S (S (S (S (S (S (S (S (S
+      O)))))))))))))))))))))))))))))))))))))))))))))))))))))))))))))))) (Npos
+      (XI (XI (XI XH))))
+  in
+  let low = v_and v low_mask in
+  let low_result = v_shuffle_epi8 (S (S (S (S O)))) low_table low in
+  let hi =
+    v_srli_epi64 (S (S (S (S (S (S (S (S O)))))))) (Npos (XO (XO XH))) v
+  in
+  let hi0 = v_and hi low_mask in
+  let hi_result = v_shuffle_epi8 (S (S (S (S O)))) hi_table hi0 in
+  v_xor hi_result low_result
+
+(** val mulvec_avx2 : n list -> n list -> n list -> n list **)
+
+let mulvec_avx2 low_table hi_table v =
+  let low_mask =
+    v_set1_epi8 (S (S (S (S (S (S (S (S (S (S (S (S (S (S (S (S (S (S (S (S
+      (S (S (S (S (S (S (S (S (S (S (S (S O))))))))))))))))))))))))))))))))
+      (Npos (XI (XI (XI XH))))
+  in
+  let hi_mask =
+    v_set1_epi8 (S (S (S (S (S (S (S (S (S (S (S (S (S (S (S (S (S (S (S (S
+      (S (S (S (S (S (S (S (S (S (S (S (S O))))))))))))))))))))))))))))))))
+      (Npos (XO (XO (XO (XO (XI (XI (XI XH))))))))
+  in
+  let low = v_and v low_mask in
+  let low_result = v_shuffle_epi8 (S (S O)) low_table low in
+  let hi = v_and v hi_mask in
+  let hi0 = v_srli_epi64 (S (S (S (S O)))) (Npos (XO (XO XH))) hi in
+  let hi_result = v_shuffle_epi8 (S (S O)) hi_table hi0 in
+  v_xor hi_result low_result
+
+(** val mulvec_ssse3 : n list -> n list -> n list -> n list **)
+
+let mulvec_ssse3 low_table hi_table v =
+  let low_mask =
+    v_set1_epi8 (S (S (S (S (S (S (S (S (S (S (S (S (S (S (S (S
+      O)))))))))))))))) (Npos (XI (XI (XI XH))))
+  in
+  let hi_mask =
+    v_set1_epi8 (S (S (S (S (S (S (S (S (S (S (S (S (S (S (S (S
+      O)))))))))))))))) (Npos (XO (XO (XO (XO (XI (XI (XI XH))))))))
+  in
+  let low = v_and v low_mask in
+  let low_result = v_shuffle_epi8 (S O) low_table low in
+  let hi = v_and v hi_mask in
+  let hi0 = v_srli_epi64 (S (S O)) (Npos (XO (XO XH))) hi in
+  let hi_result = v_shuffle_epi8 (S O) hi_table hi0 in
+  v_xor hi_result low_result
+
+(** val load_low_table : nat -> n -> n list outcome **)
+
+let load_low_table nb scalar =
+  obind (nth_ok octet_mul_low_table (N.to_nat scalar)) (fun row ->
+    loadu nb row O)
+
+(** val load_hi_table : nat -> n -> n list outcome **)
+
+let load_hi_table nb scalar =
+  obind (nth_ok octet_mul_hi_table (N.to_nat scalar)) (fun row ->
+    loadu nb row O)
+
+(** val mulassign_scalar_avx512 : n list -> n -> n list outcome **)
+
+let mulassign_scalar_avx512 octets scalar =
+  obind
+    (load_low_table (S (S (S (S (S (S (S (S (S (S (S (S (S (S (S (S
+      O)))))))))))))))) scalar) (fun low_table128 ->
+    obind
+      (load_hi_table (S (S (S (S (S (S (S (S (S (S (S (S (S (S (S (S
+        O)))))))))))))))) scalar) (fun hi_table128 ->
+      let low_table =
+        v_broadcast128 (S (S (S (S (S (S (S (S (S (S (S (S (S (S (S (S (S (S
+          (S (S (S (S (S (S (S (S (S (S (S (S (S (S (S (S (S (S (S (S (S (S
+          (S (S (S (S (S (S (S (S (S (S (S (S (S (S (S (S (S (S (S (S (S (S
+          (S (S
+          O))))))))))))))))))))))))))))))))))))))))))))))))))))))))))))))))
+          low_table128
+      in
+      let hi_table =
+        v_broadcast128 (S (S (S (S (S (S (S (S (S (S (S (S (S (S (S (S (S (S
+          (S (S (S (S (S (S (S (S (S (S (S (S (S (S (S (S (S (S (S (S (S (S
+          (S (S (S (S (S (S (S (S (S (S (S (S (S (S (S (S (S (S (S (S (S (S
+          (S (S
+          O))))))))))))))))))))))))))))))))))))))))))))))))))))))))))))))))
+          hi_table128
+      in
+      let len = length octets in
+      obind
+        (ofold0 (fun o i ->
+          obind
+            (loadu (S (S (S (S (S (S (S (S (S (S (S (S (S (S (S (S (S (S (S
+              (S (S (S (S (S (S (S (S (S (S (S (S (S (S (S (S (S (S (S (S (S
+              (S (S (S (S (S (S (S (S (S (S (S (S (S (S (S (S (S (S (S (S (S
+              (S (S (S
+              O))))))))))))))))))))))))))))))))))))))))))))))))))))))))))))))))
+              o
+              (mul i (S (S (S (S (S (S (S (S (S (S (S (S (S (S (S (S (S (S (S
+                (S (S (S (S (S (S (S (S (S (S (S (S (S (S (S (S (S (S (S (S
+                (S (S (S (S (S (S (S (S (S (S (S (S (S (S (S (S (S (S (S (S
+                (S (S (S (S (S
+                O))))))))))))))))))))))))))))))))))))))))))))))))))))))))))))))))))
+            (fun self_vec ->
+            let result = mulvec_avx512 low_table hi_table self_vec in
+            storeu o
+              (mul i (S (S (S (S (S (S (S (S (S (S (S (S (S (S (S (S (S (S (S
+                (S (S (S (S (S (S (S (S (S (S (S (S (S (S (S (S (S (S (S (S
+                (S (S (S (S (S (S (S (S (S (S (S (S (S (S (S (S (S (S (S (S
+                (S (S (S (S (S
+                O)))))))))))))))))))))))))))))))))))))))))))))))))))))))))))))))))
+              result))
+          (range O
+            (Nat.div len (S (S (S (S (S (S (S (S (S (S (S (S (S (S (S (S (S
+              (S (S (S (S (S (S (S (S (S (S (S (S (S (S (S (S (S (S (S (S (S
+              (S (S (S (S (S (S (S (S (S (S (S (S (S (S (S (S (S (S (S (S (S
+              (S (S (S (S (S
+              O))))))))))))))))))))))))))))))))))))))))))))))))))))))))))))))))))
+          octets) (fun o1 ->
+        let remainder =
+          Nat.modulo len (S (S (S (S (S (S (S (S (S (S (S (S (S (S (S (S (S
+            (S (S (S (S (S (S (S (S (S (S (S (S (S (S (S (S (S (S (S (S (S (S
+            (S (S (S (S (S (S (S (S (S (S (S (S (S (S (S (S (S (S (S (S (S (S
+            (S (S (S
+            O))))))))))))))))))))))))))))))))))))))))))))))))))))))))))))))))
+        in
+        mul_byte_loop (sub len remainder) len scalar o1)))
+
+(** val mulassign_scalar_avx2 : n list -> n -> n list outcome **)
+
+let mulassign_scalar_avx2 octets scalar =
+  obind
+    (load_low_table (S (S (S (S (S (S (S (S (S (S (S (S (S (S (S (S (S (S (S
+      (S (S (S (S (S (S (S (S (S (S (S (S (S
+      O)))))))))))))))))))))))))))))))) scalar) (fun low_table ->
+    obind
+      (load_hi_table (S (S (S (S (S (S (S (S (S (S (S (S (S (S (S (S (S (S (S
+        (S (S (S (S (S (S (S (S (S (S (S (S (S
+        O)))))))))))))))))))))))))))))))) scalar) (fun hi_table ->
+      let len = length octets in
+      obind
+        (ofold0 (fun o i ->
+          obind
+            (loadu (S (S (S (S (S (S (S (S (S (S (S (S (S (S (S (S (S (S (S
+              (S (S (S (S (S (S (S (S (S (S (S (S (S
+              O)))))))))))))))))))))))))))))))) o
+              (mul i (S (S (S (S (S (S (S (S (S (S (S (S (S (S (S (S (S (S (S
+                (S (S (S (S (S (S (S (S (S (S (S (S (S
+                O)))))))))))))))))))))))))))))))))) (fun self_vec ->
+            let result = mulvec_avx2 low_table hi_table self_vec in
+            storeu o
+              (mul i (S (S (S (S (S (S (S (S (S (S (S (S (S (S (S (S (S (S (S
+                (S (S (S (S (S (S (S (S (S (S (S (S (S
+                O))))))))))))))))))))))))))))))))) result))
+          (range O
+            (Nat.div len (S (S (S (S (S (S (S (S (S (S (S (S (S (S (S (S (S
+              (S (S (S (S (S (S (S (S (S (S (S (S (S (S (S
+              O)))))))))))))))))))))))))))))))))) octets) (fun o1 ->
+        let remainder =
+          Nat.modulo len (S (S (S (S (S (S (S (S (S (S (S (S (S (S (S (S (S
+            (S (S (S (S (S (S (S (S (S (S (S (S (S (S (S
+            O))))))))))))))))))))))))))))))))
+        in
+        mul_byte_loop (sub len remainder) len scalar o1)))
+
+(** val mulassign_scalar_ssse3 : n list -> n -> n list outcome **)
+
+let mulassign_scalar_ssse3 octets scalar =
+  obind
+    (load_low_table (S (S (S (S (S (S (S (S (S (S (S (S (S (S (S (S
+      O)))))))))))))))) scalar) (fun low_table ->
+    obind
+      (load_hi_table (S (S (S (S (S (S (S (S (S (S (S (S (S (S (S (S
+        O)))))))))))))))) scalar) (fun hi_table ->
+      let len = length octets in
+      obind
+        (ofold0 (fun o i ->
+          obind
+            (loadu (S (S (S (S (S (S (S (S (S (S (S (S (S (S (S (S
+              O)))))))))))))))) o
+              (mul i (S (S (S (S (S (S (S (S (S (S (S (S (S (S (S (S
+                O)))))))))))))))))) (fun self_vec ->
+            let result = mulvec_ssse3 low_table hi_table self_vec in
+            storeu o
+              (mul i (S (S (S (S (S (S (S (S (S (S (S (S (S (S (S (S
+                O))))))))))))))))) result))
+          (range O
+            (Nat.div len (S (S (S (S (S (S (S (S (S (S (S (S (S (S (S (S
+              O)))))))))))))))))) octets) (fun o1 ->
+        let remainder =
+          Nat.modulo len (S (S (S (S (S (S (S (S (S (S (S (S (S (S (S (S
+            O))))))))))))))))
+        in
+        mul_byte_loop (sub len remainder) len scalar o1)))
+
+(** val fma_byte_loop :
+    nat -> nat -> n -> n list -> n list -> n list outcome **)
+
+let fma_byte_loop a b scalar other octets =
+  ofold0 (fun o i ->
+    obind (get_unchecked o i) (fun d ->
+      obind (get_unchecked other i) (fun s ->
+        obind (octet_mul_unchecked scalar s) (fun y ->
+          set_unchecked o i (N.coq_lxor d y))))) (range a b) octets
+
+(** val fused_addassign_mul_scalar_fallback :
+    n list -> n list -> n -> n list outcome **)
+
+let fused_addassign_mul_scalar_fallback octets other scalar =
+  fma_byte_loop O (length octets) scalar other octets
+
+(** val fused_addassign_mul_scalar_avx512 :
+    n list -> n list -> n -> n list outcome **)
+
+let fused_addassign_mul_scalar_avx512 octets other scalar =
+  obind
+    (load_low_table (S (S (S (S (S (S (S (S (S (S (S (S (S (S (S (S
+      O)))))))))))))))) scalar) (fun low_table128 ->
+    obind
+      (load_hi_table (S (S (S (S (S (S (S (S (S (S (S (S (S (S (S (S
+        O)))))))))))))))) scalar) (fun hi_table128 ->
+      let low_table =
+        v_broadcast128 (S (S (S (S (S (S (S (S (S (S (S (S (S (S (S (S (S (S
+          (S (S (S (S (S (S (S (S (S (S (S (S (S (S (S (S (S (S (S (S (S (S
+          (S (S (S (S (S (S (S (S (S (S (S (S (S (S (S (S (S (S (S (S (S (S
+          (S (S
+          O))))))))))))))))))))))))))))))))))))))))))))))))))))))))))))))))
+          low_table128
+      in
+      let hi_table =
+        v_broadcast128 (S (S (S (S (S (S (S (S (S (S (S (S (S (S (S (S (S (S
+          (S (S (S (S (S (S (S (S (S (S (S (S (S (S (S (S (S (S (S (S (S (S
+          (S (S (S (S (S (S (S (S (S (S (S (S (S (S (S (S (S (S (S (S (S (S
+          (S (S
+          O))))))))))))))))))))))))))))))))))))))))))))))))))))))))))))))))
+          hi_table128
+      in
+      let len = length octets in
+      obind
+        (ofold0 (fun o i ->
+          obind
+            (loadu (S (S (S (S (S (S (S (S (S (S (S (S (S (S (S (S (S (S (S
+              (S (S (S (S (S (S (S (S (S (S (S (S (S (S (S (S (S (S (S (S (S
+              (S (S (S (S (S (S (S (S (S (S (S (S (S (S (S (S (S (S (S (S (S
+              (S (S (S
+              O))))))))))))))))))))))))))))))))))))))))))))))))))))))))))))))))
+              other
+              (mul i (S (S (S (S (S (S (S (S (S (S (S (S (S (S (S (S (S (S (S
+                (S (S (S (S (S (S (S (S (S (S (S (S (S (S (S (S (S (S (S (S
+                (S (S (S (S (S (S (S (S (S (S (S (S (S (S (S (S (S (S (S (S
+                (S (S (S (S (S
+                O))))))))))))))))))))))))))))))))))))))))))))))))))))))))))))))))))
+            (fun other_vec ->
+            let other_vec0 = mulvec_avx512 low_table hi_table other_vec in
+            obind
+              (loadu (S (S (S (S (S (S (S (S (S (S (S (S (S (S (S (S (S (S (S
+                (S (S (S (S (S (S (S (S (S (S (S (S (S (S (S (S (S (S (S (S
+                (S (S (S (S (S (S (S (S (S (S (S (S (S (S (S (S (S (S (S (S
+                (S (S (S (S (S
+                O))))))))))))))))))))))))))))))))))))))))))))))))))))))))))))))))
+                o
+                (mul i (S (S (S (S (S (S (S (S (S (S (S (S (S (S (S (S (S (S
+                  (S (S (S (S (S (S (S (S (S (S (S (S (S (S (S (S (S (S (S (S
+                  (S (S (S (S (S (S (S (S (S (S (S (S (S (S (S (S (S (S (S (S
+                  (S (S (S (S (S (S
+                  O))))))))))))))))))))))))))))))))))))))))))))))))))))))))))))))))))
+              (fun self_vec ->
+              let result = v_xor self_vec other_vec0 in
+              storeu o
+                (mul i (S (S (S (S (S (S (S (S (S (S (S (S (S (S (S (S (S (S
+                  (S (S (S (S (S (S (S (S (S (S (S (S (S (S (S (S (S (S (S (S
+                  (S (S (S (S (S (S (S (S (S (S (S (S (S (S (S (S (S (S (S (S
+                  (S (S (S (S (S (S
+                  O)))))))))))))))))))))))))))))))))))))))))))))))))))))))))))))))))
+                result)))
+          (range O
+            (Nat.div len (S (S (S (S (S (S (S (S (S (S (S (S (S (S (S (S (S
+              (S (S (S (S (S (S (S (S (S (S (S (S (S (S (S (S (S (S (S (S (S
+              (S (S (S (S (S (S (S (S (S (S (S (S (S (S (S (S (S (S (S (S (S
+              (S (S (S (S (S
+              O))))))))))))))))))))))))))))))))))))))))))))))))))))))))))))))))))
+          octets) (fun o1 ->
+        let remainder =
+          Nat.modulo len (S (S (S (S (S (S (S (S (S (S (S (S (S (S (S (S (S
+            (S (S (S (S (S (S (S (S (S (S (S (S (S (S (S (S (S (S (S (S (S (S
+            (S (S (S (S (S (S (S (S (S (S (S (S (S (S (S (S (S (S (S (S (S (S
+            (S (S (S
+            O))))))))))))))))))))))))))))))))))))))))))))))))))))))))))))))))
+        in
+        fma_byte_loop (sub len remainder) len scalar other o1)))
+
+(** val fused_addassign_mul_scalar_avx2 :
+    n list -> n list -> n -> n list outcome **)
+
+let fused_addassign_mul_scalar_avx2 octets other scalar =
+  obind
+    (load_low_table (S (S (S (S (S (S (S (S (S (S (S (S (S (S (S (S (S (S (S
+      (S (S (S (S (S (S (S (S (S (S (S (S (S
+      O)))))))))))))))))))))))))))))))) scalar) (fun low_table ->
+    obind
+      (load_hi_table (S (S (S (S (S (S (S (S (S (S (S (S (S (S (S (S (S (S (S
+        (S (S (S (S (S (S (S (S (S (S (S (S (S
+        O)))))))))))))))))))))))))))))))) scalar) (fun hi_table ->
+      let len = length octets in
+      obind
+        (ofold0 (fun o i ->
+          obind
+            (loadu (S (S (S (S (S (S (S (S (S (S (S (S (S (S (S (S (S (S (S
+              (S (S (S (S (S (S (S (S (S (S (S (S (S
+              O)))))))))))))))))))))))))))))))) other
+              (mul i (S (S (S (S (S (S (S (S (S (S (S (S (S (S (S (S (S (S (S
+                (S (S (S (S (S (S (S (S (S (S (S (S (S
+                O)))))))))))))))))))))))))))))))))) (fun other_vec ->
+            let other_vec0 = mulvec_avx2 low_table hi_table other_vec in
+            obind
+              (loadu (S (S (S (S (S (S (S (S (S (S (S (S (S (S (S (S (S (S (S
+                (S (S (S (S (S (S (S (S (S (S (S (S (S
+                O)))))))))))))))))))))))))))))))) o
+                (mul i (S (S (S (S (S (S (S (S (S (S (S (S (S (S (S (S (S (S
+                  (S (S (S (S (S (S (S (S (S (S (S (S (S (S
+                  O)))))))))))))))))))))))))))))))))) (fun self_vec ->
+              let result = v_xor self_vec other_vec0 in
+              storeu o
+                (mul i (S (S (S (S (S (S (S (S (S (S (S (S (S (S (S (S (S (S
+                  (S (S (S (S (S (S (S (S (S (S (S (S (S (S
+                  O))))))))))))))))))))))))))))))))) result)))
+          (range O
+            (Nat.div len (S (S (S (S (S (S (S (S (S (S (S (S (S (S (S (S (S
+              (S (S (S (S (S (S (S (S (S (S (S (S (S (S (S
+              O)))))))))))))))))))))))))))))))))) octets) (fun o1 ->
+        let remainder =
+          Nat.modulo len (S (S (S (S (S (S (S (S (S (S (S (S (S (S (S (S (S
+            (S (S (S (S (S (S (S (S (S (S (S (S (S (S (S
+            O))))))))))))))))))))))))))))))))
+        in
+        fma_byte_loop (sub len remainder) len scalar other o1)))
+
+(** val fused_addassign_mul_scalar_ssse3 :
+    n list -> n list -> n -> n list outcome **)
+
+let fused_addassign_mul_scalar_ssse3 octets other scalar =
+  obind
+    (load_low_table (S (S (S (S (S (S (S (S (S (S (S (S (S (S (S (S
+      O)))))))))))))))) scalar) (fun low_table ->
+    obind
+      (load_hi_table (S (S (S (S (S (S (S (S (S (S (S (S (S (S (S (S
+        O)))))))))))))))) scalar) (fun hi_table ->
+      let len = length octets in
+      obind
+        (ofold0 (fun o i ->
+          obind
+            (loadu (S (S (S (S (S (S (S (S (S (S (S (S (S (S (S (S
+              O)))))))))))))))) other
+              (mul i (S (S (S (S (S (S (S (S (S (S (S (S (S (S (S (S
+                O)))))))))))))))))) (fun other_vec ->
+            let other_vec0 = mulvec_ssse3 low_table hi_table other_vec in
+            obind
+              (loadu (S (S (S (S (S (S (S (S (S (S (S (S (S (S (S (S
+                O)))))))))))))))) o
+                (mul i (S (S (S (S (S (S (S (S (S (S (S (S (S (S (S (S
+                  O)))))))))))))))))) (fun self_vec ->
+              let result = v_xor self_vec other_vec0 in
+              storeu o
+                (mul i (S (S (S (S (S (S (S (S (S (S (S (S (S (S (S (S
+                  O))))))))))))))))) result)))
+          (range O
+            (Nat.div len (S (S (S (S (S (S (S (S (S (S (S (S (S (S (S (S
+              O)))))))))))))))))) octets) (fun o1 ->
+        let remainder =
+          Nat.modulo len (S (S (S (S (S (S (S (S (S (S (S (S (S (S (S (S
+            O))))))))))))))))
+        in
+        fma_byte_loop (sub len remainder) len scalar other o1)))
+
+(** val sub_usize : nat -> nat -> nat outcome **)
+
+let sub_usize a b =
+  if Nat.leb b a then Ok (sub a b) else Panic POverflow
+
+(** val fused_addassign_mul_scalar_binary_avx2 :
+    n list -> bvec -> n -> n list outcome **)
+
+let fused_addassign_mul_scalar_binary_avx2 octets other scalar =
+  let first_bit = N.to_nat (padding_bits other) in
+  let other_u32 = u32_view (fst other) in
+  let start0 =
+    Nat.div first_bit (S (S (S (S (S (S (S (S (S (S (S (S (S (S (S (S (S (S
+      (S (S (S (S (S (S (S (S (S (S (S (S (S (S
+      O))))))))))))))))))))))))))))))))
+  in
+  obind (nth_ok other_u32 start0) (fun first_bits ->
+    let bit_in_first_bits =
+      Nat.modulo first_bit (S (S (S (S (S (S (S (S (S (S (S (S (S (S (S (S (S
+        (S (S (S (S (S (S (S (S (S (S (S (S (S (S (S
+        O))))))))))))))))))))))))))))))))
+    in
+    let remaining0 = length octets in
+    obind
+      (if Nat.ltb O bit_in_first_bits
+       then let control =
+              N.coq_lor (N.of_nat bit_in_first_bits) (Npos (XO (XO (XO (XO
+                (XO (XO (XO (XO XH)))))))))
+            in
+            let head =
+              sub (S (S (S (S (S (S (S (S (S (S (S (S (S (S (S (S (S (S (S (S
+                (S (S (S (S (S (S (S (S (S (S (S (S
+                O)))))))))))))))))))))))))))))))) bit_in_first_bits
+            in
+            obind
+              (ofold0 (fun o i ->
+                obind (nth_ok o i) (fun val0 ->
+                  let other_byte =
+                    u8
+                      (bextr2_u32 first_bits
+                        (u32 (N.add control (N.of_nat i))))
+                  in
+                  set_unchecked o i
+                    (N.coq_lxor val0 (N.mul scalar other_byte))))
+                (range O (Nat.min (length octets) head)) octets) (fun o1 ->
+              obind (sub_usize remaining0 head) (fun remaining -> Ok (((o1,
+                remaining), (add start0 (S O))), head)))
+       else Ok (((octets, remaining0), start0), O)) (fun st ->
+      let o1 = fst (fst (fst st)) in
+      let remaining = snd (fst (fst st)) in
+      let start = snd (fst st) in
+      let self_off = snd st in
+      obind
+        (assert_ok
+          (Nat.eqb
+            (Nat.modulo remaining (S (S (S (S (S (S (S (S (S (S (S (S (S (S
+              (S (S (S (S (S (S (S (S (S (S (S (S (S (S (S (S (S (S
+              O))))))))))))))))))))))))))))))))) O)) (fun _ ->
+        let shuffle_mask =
+          v_set_epi64x (Npos (XI (XI (XO (XO (XO (XO (XO (XO (XI (XI (XO (XO
+            (XO (XO (XO (XO (XI (XI (XO (XO (XO (XO (XO (XO (XI (XI (XO (XO
+            (XO (XO (XO (XO (XI (XI (XO (XO (XO (XO (XO (XO (XI (XI (XO (XO
+            (XO (XO (XO (XO (XI (XI (XO (XO (XO (XO (XO (XO (XI
+            XH))))))))))))))))))))))))))))))))))))))))))))))))))))))))))
+            (Npos (XO (XI (XO (XO (XO (XO (XO (XO (XO (XI (XO (XO (XO (XO (XO
+            (XO (XO (XI (XO (XO (XO (XO (XO (XO (XO (XI (XO (XO (XO (XO (XO
+            (XO (XO (XI (XO (XO (XO (XO (XO (XO (XO (XI (XO (XO (XO (XO (XO
+            (XO (XO (XI (XO (XO (XO (XO (XO (XO (XO
+            XH))))))))))))))))))))))))))))))))))))))))))))))))))))))))))
+            (Npos (XI (XO (XO (XO (XO (XO (XO (XO (XI (XO (XO (XO (XO (XO (XO
+            (XO (XI (XO (XO (XO (XO (XO (XO (XO (XI (XO (XO (XO (XO (XO (XO
+            (XO (XI (XO (XO (XO (XO (XO (XO (XO (XI (XO (XO (XO (XO (XO (XO
+            (XO (XI (XO (XO (XO (XO (XO (XO (XO
+            XH))))))))))))))))))))))))))))))))))))))))))))))))))))))))) N0
+        in
+        let bit_select_mask =
+          v_set1_epi64x (S (S (S (S (S (S (S (S (S (S (S (S (S (S (S (S (S (S
+            (S (S (S (S (S (S (S (S (S (S (S (S (S (S
+            O)))))))))))))))))))))))))))))))) (Npos (XI (XO (XO (XO (XO (XO
+            (XO (XO (XO (XI (XO (XO (XO (XO (XO (XO (XO (XO (XI (XO (XO (XO
+            (XO (XO (XO (XO (XO (XI (XO (XO (XO (XO (XO (XO (XO (XO (XI (XO
+            (XO (XO (XO (XO (XO (XO (XO (XI (XO (XO (XO (XO (XO (XO (XO (XO
+            (XI (XO (XO (XO (XO (XO (XO (XO (XO
+            XH))))))))))))))))))))))))))))))))))))))))))))))))))))))))))))))))
+        in
+        let scalar_avx =
+          v_set1_epi8 (S (S (S (S (S (S (S (S (S (S (S (S (S (S (S (S (S (S
+            (S (S (S (S (S (S (S (S (S (S (S (S (S (S
+            O)))))))))))))))))))))))))))))))) scalar
+        in
+        ofold0 (fun o i ->
+          obind (nth_ok other_u32 (add start i)) (fun w ->
+            let other_vec =
+              v_set1_epi32 (S (S (S (S (S (S (S (S (S (S (S (S (S (S (S (S (S
+                (S (S (S (S (S (S (S (S (S (S (S (S (S (S (S
+                O)))))))))))))))))))))))))))))))) w
+            in
+            let other_vec0 = v_shuffle_epi8 (S (S O)) other_vec shuffle_mask
+            in
+            let other_vec1 = v_andnot other_vec0 bit_select_mask in
+            let other_vec2 =
+              v_cmpeq_epi8 other_vec1
+                (v_setzero (S (S (S (S (S (S (S (S (S (S (S (S (S (S (S (S (S
+                  (S (S (S (S (S (S (S (S (S (S (S (S (S (S (S
+                  O)))))))))))))))))))))))))))))))))
+            in
+            let product = v_and other_vec2 scalar_avx in
+            obind
+              (loadu (S (S (S (S (S (S (S (S (S (S (S (S (S (S (S (S (S (S (S
+                (S (S (S (S (S (S (S (S (S (S (S (S (S
+                O)))))))))))))))))))))))))))))))) o
+                (add self_off
+                  (mul i (S (S (S (S (S (S (S (S (S (S (S (S (S (S (S (S (S
+                    (S (S (S (S (S (S (S (S (S (S (S (S (S (S (S
+                    O))))))))))))))))))))))))))))))))))) (fun self_vec ->
+              let result = v_xor self_vec product in
+              storeu o
+                (add self_off
+                  (mul i (S (S (S (S (S (S (S (S (S (S (S (S (S (S (S (S (S
+                    (S (S (S (S (S (S (S (S (S (S (S (S (S (S (S
+                    O)))))))))))))))))))))))))))))))))) result)))
+          (range O
+            (Nat.div remaining (S (S (S (S (S (S (S (S (S (S (S (S (S (S (S
+              (S (S (S (S (S (S (S (S (S (S (S (S (S (S (S (S (S
+              O)))))))))))))))))))))))))))))))))) o1)))
+
+(** val fused_addassign_mul_scalar_binary_avx512 :
+    n list -> bvec -> n -> n list outcome **)
+
+let fused_addassign_mul_scalar_binary_avx512 octets other scalar =
+  if Nat.eqb (length octets) O
+  then Ok octets
+  else let first_bit = N.to_nat (padding_bits other) in
+       let other_u64 = fst other in
+       let start0 =
+         Nat.div first_bit (S (S (S (S (S (S (S (S (S (S (S (S (S (S (S (S (S
+           (S (S (S (S (S (S (S (S (S (S (S (S (S (S (S (S (S (S (S (S (S (S
+           (S (S (S (S (S (S (S (S (S (S (S (S (S (S (S (S (S (S (S (S (S (S
+           (S (S (S
+           O))))))))))))))))))))))))))))))))))))))))))))))))))))))))))))))))
+       in
+       obind (get_unchecked other_u64 start0) (fun first_bits ->
+         let bit_in_first_bits =
+           Nat.modulo first_bit (S (S (S (S (S (S (S (S (S (S (S (S (S (S (S
+             (S (S (S (S (S (S (S (S (S (S (S (S (S (S (S (S (S (S (S (S (S
+             (S (S (S (S (S (S (S (S (S (S (S (S (S (S (S (S (S (S (S (S (S
+             (S (S (S (S (S (S (S
+             O))))))))))))))))))))))))))))))))))))))))))))))))))))))))))))))))
+         in
+         let remaining0 = length octets in
+         obind
+           (if Nat.ltb O bit_in_first_bits
+            then let head =
+                   sub (S (S (S (S (S (S (S (S (S (S (S (S (S (S (S (S (S (S
+                     (S (S (S (S (S (S (S (S (S (S (S (S (S (S (S (S (S (S (S
+                     (S (S (S (S (S (S (S (S (S (S (S (S (S (S (S (S (S (S (S
+                     (S (S (S (S (S (S (S (S
+                     O))))))))))))))))))))))))))))))))))))))))))))))))))))))))))))))))
+                     bit_in_first_bits
+                 in
+                 obind
+                   (ofold0 (fun o i ->
+                     let other_byte =
+                       u8
+                         (N.coq_land
+                           (N.shiftr first_bits
+                             (N.of_nat (add bit_in_first_bits i))) (Npos XH))
+                     in
+                     obind (get_unchecked o i) (fun val0 ->
+                       set_unchecked o i
+                         (N.coq_lxor val0 (N.mul scalar other_byte))))
+                     (range O head) octets) (fun o1 ->
+                   obind (sub_usize remaining0 head) (fun remaining -> Ok
+                     (((o1, remaining), (add start0 (S O))), head)))
+            else Ok (((octets, remaining0), start0), O)) (fun st ->
+           let o1 = fst (fst (fst st)) in
+           let remaining = snd (fst (fst st)) in
+           let start = snd (fst st) in
+           let self_off = snd st in
+           obind
+             (assert_ok
+               (Nat.eqb
+                 (Nat.modulo remaining (S (S (S (S (S (S (S (S (S (S (S (S (S
+                   (S (S (S (S (S (S (S (S (S (S (S (S (S (S (S (S (S (S (S
+                   (S (S (S (S (S (S (S (S (S (S (S (S (S (S (S (S (S (S (S
+                   (S (S (S (S (S (S (S (S (S (S (S (S (S
+                   O)))))))))))))))))))))))))))))))))))))))))))))))))))))))))))))))))
+                 O)) (fun _ ->
+             let scalar_avx =
+               v_set1_epi8 (S (S (S (S (S (S (S (S (S (S (S (S (S (S (S (S (S
+                 (S (S (S (S (S (S (S (S (S (S (S (S (S (S (S (S (S (S (S (S
+                 (S (S (S (S (S (S (S (S (S (S (S (S (S (S (S (S (S (S (S (S
+                 (S (S (S (S (S (S (S
+                 O))))))))))))))))))))))))))))))))))))))))))))))))))))))))))))))))
+                 scalar
+             in
+             ofold0 (fun o i ->
+               obind (get_unchecked other_u64 (add start i)) (fun bits ->
+                 if N.eqb bits N0
+                 then Ok o
+                 else let product = v_maskz_mov_epi8 bits scalar_avx in
+                      obind
+                        (loadu (S (S (S (S (S (S (S (S (S (S (S (S (S (S (S
+                          (S (S (S (S (S (S (S (S (S (S (S (S (S (S (S (S (S
+                          (S (S (S (S (S (S (S (S (S (S (S (S (S (S (S (S (S
+                          (S (S (S (S (S (S (S (S (S (S (S (S (S (S (S
+                          O))))))))))))))))))))))))))))))))))))))))))))))))))))))))))))))))
+                          o
+                          (add self_off
+                            (mul i (S (S (S (S (S (S (S (S (S (S (S (S (S (S
+                              (S (S (S (S (S (S (S (S (S (S (S (S (S (S (S (S
+                              (S (S (S (S (S (S (S (S (S (S (S (S (S (S (S (S
+                              (S (S (S (S (S (S (S (S (S (S (S (S (S (S (S (S
+                              (S (S
+                              O)))))))))))))))))))))))))))))))))))))))))))))))))))))))))))))))))))
+                        (fun self_vec ->
+                        let result = v_xor self_vec product in
+                        storeu o
+                          (add self_off
+                            (mul i (S (S (S (S (S (S (S (S (S (S (S (S (S (S
+                              (S (S (S (S (S (S (S (S (S (S (S (S (S (S (S (S
+                              (S (S (S (S (S (S (S (S (S (S (S (S (S (S (S (S
+                              (S (S (S (S (S (S (S (S (S (S (S (S (S (S (S (S
+                              (S (S
+                              O))))))))))))))))))))))))))))))))))))))))))))))))))))))))))))))))))
+                          result)))
+               (range O
+                 (Nat.div remaining (S (S (S (S (S (S (S (S (S (S (S (S (S (S
+                   (S (S (S (S (S (S (S (S (S (S (S (S (S (S (S (S (S (S (S
+                   (S (S (S (S (S (S (S (S (S (S (S (S (S (S (S (S (S (S (S
+                   (S (S (S (S (S (S (S (S (S (S (S (S
+                   O))))))))))))))))))))))))))))))))))))))))))))))))))))))))))))))))))
+               o1)))
+
+type feature =
+| AVX512F
+| AVX512BW
+| AVX2
+| BMI1
+| SSSE3
+
+(** val feature_eqb : feature -> feature -> bool **)
+
+let feature_eqb a b =
+  match a with
+  | AVX512F -> (match b with
+                | AVX512F -> true
+                | _ -> false)
+  | AVX512BW -> (match b with
+                 | AVX512BW -> true
+                 | _ -> false)
+  | AVX2 -> (match b with
+             | AVX2 -> true
+             | _ -> false)
+  | BMI1 -> (match b with
+             | BMI1 -> true
+             | _ -> false)
+  | SSSE3 -> (match b with
+              | SSSE3 -> true
+              | _ -> false)
+
+type cpu = feature list
+
+(** val has : cpu -> feature -> bool **)
+
+let has c f =
+  existsb (feature_eqb f) c
+
+(** val debug_assert : mode -> bool -> unit outcome **)
+
+let debug_assert m b =
+  match m with
+  | Release -> Ok ()
+  | Checked -> assert_ok b
+
+(** val add_assign : cpu -> n list -> n list -> n list outcome **)
+
+let add_assign c octets other =
+  if has c AVX512F
+  then add_assign_avx512 octets other
+  else if has c AVX2
+       then add_assign_avx2 octets other
+       else if has c SSSE3
+            then add_assign_ssse3 octets other
+            else add_assign_fallback octets other
+
+(** val mulassign_scalar : cpu -> n list -> n -> n list outcome **)
+
+let mulassign_scalar c octets scalar =
+  if (&&) (has c AVX512F) (has c AVX512BW)
+  then mulassign_scalar_avx512 octets scalar
+  else if has c AVX2
+       then mulassign_scalar_avx2 octets scalar
+       else if has c SSSE3
+            then mulassign_scalar_ssse3 octets scalar
+            else mulassign_scalar_fallback octets scalar
+
+(** val fused_addassign_mul_scalar :
+    mode -> cpu -> n list -> n list -> n -> n list outcome **)
+
+let fused_addassign_mul_scalar m c octets other scalar =
+  obind (debug_assert m (negb (N.eqb scalar (Npos XH)))) (fun _ ->
+    obind (debug_assert m (negb (N.eqb scalar N0))) (fun _ ->
+      obind (assert_ok (Nat.eqb (length octets) (length other))) (fun _ ->
+        if (&&) (has c AVX512F) (has c AVX512BW)
+        then fused_addassign_mul_scalar_avx512 octets other scalar
+        else if has c AVX2
+             then fused_addassign_mul_scalar_avx2 octets other scalar
+             else if has c SSSE3
+                  then fused_addassign_mul_scalar_ssse3 octets other scalar
+                  else fused_addassign_mul_scalar_fallback octets other scalar)))
+
+(** val fused_addassign_mul_scalar_binary_generic :
+    mode -> cpu -> n list -> bvec -> n -> n list outcome **)
+
+let fused_addassign_mul_scalar_binary_generic m c octets other scalar =
+  if N.eqb scalar (Npos XH)
+  then obind (to_octet_vec other) (fun v -> add_assign c octets v)
+  else obind (to_octet_vec other) (fun v ->
+         fused_addassign_mul_scalar m c octets v scalar)
+
+(** val fused_addassign_mul_scalar_binary :
+    mode -> cpu -> n list -> bvec -> n -> n list outcome **)
+
+let fused_addassign_mul_scalar_binary m c octets other scalar =
+  obind (debug_assert m (negb (N.eqb scalar N0))) (fun _ ->
+    obind (assert_ok (N.eqb (N.of_nat (length octets)) (snd other)))
+      (fun _ ->
+      if Nat.eqb (length octets) O
+      then Ok octets
+      else if (&&) (has c AVX512F) (has c AVX512BW)
+           then fused_addassign_mul_scalar_binary_avx512 octets other scalar
+           else if (&&) (has c AVX2) (has c BMI1)
+                then fused_addassign_mul_scalar_binary_avx2 octets other
+                       scalar
+                else fused_addassign_mul_scalar_binary_generic m c octets
+                       other scalar))
+
+(** val kargn : n list -> nat -> n **)
+
+let kargn l i =
+  nth i l N0
+
+(** val kenc : n list outcome -> n list **)
+
+let kenc = function
+| Ok l -> (Npos XH) :: (app l ((Npos XH) :: []))
+| Panic _ -> N0 :: (N0 :: [])
+
+(** val host_cpu : cpu **)
+
+let host_cpu =
+  AVX512F :: (AVX512BW :: (AVX2 :: (BMI1 :: (SSSE3 :: []))))
+
+(** val run_k_add : n list -> n list **)
+
+let run_k_add a =
+  let len = N.to_nat (kargn a (S (S O))) in
+  let d = firstn len (skipn (S (S (S O))) a) in
+  let s = skipn (add (S (S (S O))) len) a in
+  kenc
+    (match kargn a O with
+     | N0 -> add_assign_avx512 d s
+     | Npos p ->
+       (match p with
+        | XI p0 ->
+          (match p0 with
+           | XH -> add_assign_fallback d s
+           | _ -> add_assign host_cpu d s)
+        | XO p0 ->
+          (match p0 with
+           | XH -> add_assign_ssse3 d s
+           | _ -> add_assign host_cpu d s)
+        | XH -> add_assign_avx2 d s))
+
+(** val run_k_mul : n list -> n list **)
+
+let run_k_mul a =
+  let c = kargn a (S (S O)) in
+  let d =
+    firstn (N.to_nat (kargn a (S (S (S O))))) (skipn (S (S (S (S O)))) a)
+  in
+  kenc
+    (match kargn a O with
+     | N0 -> mulassign_scalar_avx512 d c
+     | Npos p ->
+       (match p with
+        | XI p0 ->
+          (match p0 with
+           | XH -> mulassign_scalar_fallback d c
+           | _ -> mulassign_scalar host_cpu d c)
+        | XO p0 ->
+          (match p0 with
+           | XH -> mulassign_scalar_ssse3 d c
+           | _ -> mulassign_scalar host_cpu d c)
+        | XH -> mulassign_scalar_avx2 d c))
+
+(** val run_k_fma : mode -> n list -> n list **)
+
+let run_k_fma m a =
+  let c = kargn a (S (S O)) in
+  let len = N.to_nat (kargn a (S (S (S O)))) in
+  let d = firstn len (skipn (S (S (S (S O)))) a) in
+  let s = skipn (add (S (S (S (S O)))) len) a in
+  kenc
+    (match kargn a O with
+     | N0 -> fused_addassign_mul_scalar_avx512 d s c
+     | Npos p ->
+       (match p with
+        | XI p0 ->
+          (match p0 with
+           | XH -> fused_addassign_mul_scalar_fallback d s c
+           | _ -> fused_addassign_mul_scalar m host_cpu d s c)
+        | XO p0 ->
+          (match p0 with
+           | XH -> fused_addassign_mul_scalar_ssse3 d s c
+           | _ -> fused_addassign_mul_scalar m host_cpu d s c)
+        | XH -> fused_addassign_mul_scalar_avx2 d s c))
+
+(** val run_k_fmabin : mode -> n list -> n list **)
+
+let run_k_fmabin m a =
+  let c = kargn a (S (S O)) in
+  let len = kargn a (S (S (S O))) in
+  let nw = N.to_nat (kargn a (S (S (S (S O))))) in
+  let words = firstn nw (skipn (S (S (S (S (S O))))) a) in
+  let d = firstn (N.to_nat len) (skipn (add (S (S (S (S (S O))))) nw) a) in
+  let bv = (words, len) in
+  if negb
+       (N.eqb (N.of_nat nw)
+         (ceil_div len (Npos (XO (XO (XO (XO (XO (XO XH)))))))))
+  then N0 :: (N0 :: [])
+  else if N.eqb len N0
+       then (Npos XH) :: ((Npos XH) :: [])
+       else kenc
+              (match kargn a O with
+               | N0 -> fused_addassign_mul_scalar_binary_avx512 d bv c
+               | Npos p ->
+                 (match p with
+                  | XI p0 ->
+                    (match p0 with
+                     | XH ->
+                       fused_addassign_mul_scalar_binary_generic m host_cpu d
+                         bv c
+                     | _ ->
+                       fused_addassign_mul_scalar_binary m host_cpu d bv c)
+                  | XO p0 ->
+                    (match p0 with
+                     | XH ->
+                       fused_addassign_mul_scalar_binary_generic m host_cpu d
+                         bv c
+                     | _ ->
+                       fused_addassign_mul_scalar_binary m host_cpu d bv c)
+                  | XH -> fused_addassign_mul_scalar_binary_avx2 d bv c))
+
+(** val run_k_unpack : n list -> n list **)
+
+let run_k_unpack a =
+  let nw = N.to_nat (kargn a (S O)) in
+  if negb
+       (N.eqb (N.of_nat nw)
+         (ceil_div (kargn a O) (Npos (XO (XO (XO (XO (XO (XO XH)))))))))
+  then N0 :: (N0 :: [])
+  else (match to_octet_vec ((firstn nw (skipn (S (S O)) a)), (kargn a O)) with
+        | Ok l -> (Npos XH) :: l
+        | Panic _ -> N0 :: (N0 :: []))
+
+(** val run_spec_bits : n list -> n list **)
+
+let run_spec_bits a =
+  let nw = N.to_nat (kargn a (S O)) in
+  (Npos XH) :: (to_bits ((firstn nw (skipn (S (S O)) a)), (kargn a O)))
+
+(** val run_kern : n -> n list -> n list **)
+
+let run_kern f a =
+  match f with
+  | N0 -> N0 :: ((Npos (XI (XI (XO (XO (XO (XI XH))))))) :: [])
+  | Npos p ->
+    (match p with
+     | XI p0 ->
+       (match p0 with
+        | XI p1 ->
+          (match p1 with
+           | XO p2 ->
+             (match p2 with
+              | XO p3 ->
+                (match p3 with
+                 | XI p4 ->
+                   (match p4 with
+                    | XO p5 ->
+                      (match p5 with
+                       | XO p6 ->
+                         (match p6 with
+                          | XI p7 ->
+                            (match p7 with
+                             | XH -> run_k_fmabin Release a
+                             | _ ->
+                               N0 :: ((Npos (XI (XI (XO (XO (XO (XI
+                                 XH))))))) :: []))
+                          | _ ->
+                            N0 :: ((Npos (XI (XI (XO (XO (XO (XI
+                              XH))))))) :: []))
+                       | _ ->
+                         N0 :: ((Npos (XI (XI (XO (XO (XO (XI XH))))))) :: []))
+                    | _ ->
+                      N0 :: ((Npos (XI (XI (XO (XO (XO (XI XH))))))) :: []))
+                 | _ -> N0 :: ((Npos (XI (XI (XO (XO (XO (XI XH))))))) :: []))
+              | _ -> N0 :: ((Npos (XI (XI (XO (XO (XO (XI XH))))))) :: []))
+           | _ -> N0 :: ((Npos (XI (XI (XO (XO (XO (XI XH))))))) :: []))
+        | XO p1 ->
+          (match p1 with
+           | XI p2 ->
+             (match p2 with
+              | XI p3 ->
+                (match p3 with
+                 | XI p4 ->
+                   (match p4 with
+                    | XO p5 ->
+                      (match p5 with
+                       | XO p6 ->
+                         (match p6 with
+                          | XI p7 ->
+                            (match p7 with
+                             | XH -> run_k_fmabin Checked a
+                             | _ ->
+                               N0 :: ((Npos (XI (XI (XO (XO (XO (XI
+                                 XH))))))) :: []))
+                          | _ ->
+                            N0 :: ((Npos (XI (XI (XO (XO (XO (XI
+                              XH))))))) :: []))
+                       | _ ->
+                         N0 :: ((Npos (XI (XI (XO (XO (XO (XI XH))))))) :: []))
+                    | _ ->
+                      N0 :: ((Npos (XI (XI (XO (XO (XO (XI XH))))))) :: []))
+                 | _ -> N0 :: ((Npos (XI (XI (XO (XO (XO (XI XH))))))) :: []))
+              | _ -> N0 :: ((Npos (XI (XI (XO (XO (XO (XI XH))))))) :: []))
+           | XO p2 ->
+             (match p2 with
+              | XO p3 ->
+                (match p3 with
+                 | XI p4 ->
+                   (match p4 with
+                    | XO p5 ->
+                      (match p5 with
+                       | XO p6 ->
+                         (match p6 with
+                          | XI p7 ->
+                            (match p7 with
+                             | XH -> run_k_mul a
+                             | _ ->
+                               N0 :: ((Npos (XI (XI (XO (XO (XO (XI
+                                 XH))))))) :: []))
+                          | _ ->
+                            N0 :: ((Npos (XI (XI (XO (XO (XO (XI
+                              XH))))))) :: []))
+                       | _ ->
+                         N0 :: ((Npos (XI (XI (XO (XO (XO (XI XH))))))) :: []))
+                    | _ ->
+                      N0 :: ((Npos (XI (XI (XO (XO (XO (XI XH))))))) :: []))
+                 | _ -> N0 :: ((Npos (XI (XI (XO (XO (XO (XI XH))))))) :: []))
+              | _ -> N0 :: ((Npos (XI (XI (XO (XO (XO (XI XH))))))) :: []))
+           | XH -> N0 :: ((Npos (XI (XI (XO (XO (XO (XI XH))))))) :: []))
+        | XH -> N0 :: ((Npos (XI (XI (XO (XO (XO (XI XH))))))) :: []))
+     | XO p0 ->
+       (match p0 with
+        | XI p1 ->
+          (match p1 with
+           | XO p2 ->
+             (match p2 with
+              | XO p3 ->
+                (match p3 with
+                 | XI p4 ->
+                   (match p4 with
+                    | XO p5 ->
+                      (match p5 with
+                       | XO p6 ->
+                         (match p6 with
+                          | XI p7 ->
+                            (match p7 with
+                             | XH -> run_k_fma Release a
+                             | _ ->
+                               N0 :: ((Npos (XI (XI (XO (XO (XO (XI
+                                 XH))))))) :: []))
+                          | _ ->
+                            N0 :: ((Npos (XI (XI (XO (XO (XO (XI
+                              XH))))))) :: []))
+                       | _ ->
+                         N0 :: ((Npos (XI (XI (XO (XO (XO (XI XH))))))) :: []))
+                    | _ ->
+                      N0 :: ((Npos (XI (XI (XO (XO (XO (XI XH))))))) :: []))
+                 | XO p4 ->
+                   (match p4 with
+                    | XO p5 ->
+                      (match p5 with
+                       | XI p6 ->
+                         (match p6 with
+                          | XI p7 ->
+                            (match p7 with
+                             | XH -> run_spec_bits a
+                             | _ ->
+                               N0 :: ((Npos (XI (XI (XO (XO (XO (XI
+                                 XH))))))) :: []))
+                          | _ ->
+                            N0 :: ((Npos (XI (XI (XO (XO (XO (XI
+                              XH))))))) :: []))
+                       | _ ->
+                         N0 :: ((Npos (XI (XI (XO (XO (XO (XI XH))))))) :: []))
+                    | _ ->
+                      N0 :: ((Npos (XI (XI (XO (XO (XO (XI XH))))))) :: []))
+                 | XH -> N0 :: ((Npos (XI (XI (XO (XO (XO (XI XH))))))) :: []))
+              | _ -> N0 :: ((Npos (XI (XI (XO (XO (XO (XI XH))))))) :: []))
+           | _ -> N0 :: ((Npos (XI (XI (XO (XO (XO (XI XH))))))) :: []))
+        | XO p1 ->
+          (match p1 with
+           | XI p2 ->
+             (match p2 with
+              | XI p3 ->
+                (match p3 with
+                 | XI p4 ->
+                   (match p4 with
+                    | XO p5 ->
+                      (match p5 with
+                       | XO p6 ->
+                         (match p6 with
+                          | XI p7 ->
+                            (match p7 with
+                             | XH -> run_k_fma Checked a
+                             | _ ->
+                               N0 :: ((Npos (XI (XI (XO (XO (XO (XI
+                                 XH))))))) :: []))
+                          | _ ->
+                            N0 :: ((Npos (XI (XI (XO (XO (XO (XI
+                              XH))))))) :: []))
+                       | _ ->
+                         N0 :: ((Npos (XI (XI (XO (XO (XO (XI XH))))))) :: []))
+                    | _ ->
+                      N0 :: ((Npos (XI (XI (XO (XO (XO (XI XH))))))) :: []))
+                 | _ -> N0 :: ((Npos (XI (XI (XO (XO (XO (XI XH))))))) :: []))
+              | XO p3 ->
+                (match p3 with
+                 | XI p4 ->
+                   (match p4 with
+                    | XO p5 ->
+                      (match p5 with
+                       | XO p6 ->
+                         (match p6 with
+                          | XI p7 ->
+                            (match p7 with
+                             | XH -> run_k_unpack a
+                             | _ ->
+                               N0 :: ((Npos (XI (XI (XO (XO (XO (XI
+                                 XH))))))) :: []))
+                          | _ ->
+                            N0 :: ((Npos (XI (XI (XO (XO (XO (XI
+                              XH))))))) :: []))
+                       | _ ->
+                         N0 :: ((Npos (XI (XI (XO (XO (XO (XI XH))))))) :: []))
+                    | _ ->
+                      N0 :: ((Npos (XI (XI (XO (XO (XO (XI XH))))))) :: []))
+                 | _ -> N0 :: ((Npos (XI (XI (XO (XO (XO (XI XH))))))) :: []))
+              | XH -> N0 :: ((Npos (XI (XI (XO (XO (XO (XI XH))))))) :: []))
+           | XO p2 ->
+             (match p2 with
+              | XO p3 ->
+                (match p3 with
+                 | XI p4 ->
+                   (match p4 with
+                    | XO p5 ->
+                      (match p5 with
+                       | XO p6 ->
+                         (match p6 with
+                          | XI p7 ->
+                            (match p7 with
+                             | XH -> run_k_add a
+                             | _ ->
+                               N0 :: ((Npos (XI (XI (XO (XO (XO (XI
+                                 XH))))))) :: []))
+                          | _ ->
+                            N0 :: ((Npos (XI (XI (XO (XO (XO (XI
+                              XH))))))) :: []))
+                       | _ ->
+                         N0 :: ((Npos (XI (XI (XO (XO (XO (XI XH))))))) :: []))
+                    | _ ->
+                      N0 :: ((Npos (XI (XI (XO (XO (XO (XI XH))))))) :: []))
+                 | _ -> N0 :: ((Npos (XI (XI (XO (XO (XO (XI XH))))))) :: []))
+              | _ -> N0 :: ((Npos (XI (XI (XO (XO (XO (XI XH))))))) :: []))
+           | XH -> N0 :: ((Npos (XI (XI (XO (XO (XO (XI XH))))))) :: []))
+        | XH -> N0 :: ((Npos (XI (XI (XO (XO (XO (XI XH))))))) :: []))
+     | XH -> N0 :: ((Npos (XI (XI (XO (XO (XO (XI XH))))))) :: []))
 
 (** val pcode : pclass -> n **)
 
@@ -12215,6 +14217,26 @@ let run_codec f a =
        (match p0 with
         | XI p1 ->
           (match p1 with
+           | XI p2 ->
+             (match p2 with
+              | XI p3 ->
+                (match p3 with
+                 | XO p4 ->
+                   (match p4 with
+                    | XO p5 ->
+                      (match p5 with
+                       | XI p6 ->
+                         (match p6 with
+                          | XH -> run_slab_replay Release a
+                          | _ ->
+                            N0 :: ((Npos (XI (XI (XO (XO (XO (XI
+                              XH))))))) :: []))
+                       | _ ->
+                         N0 :: ((Npos (XI (XI (XO (XO (XO (XI XH))))))) :: []))
+                    | _ ->
+                      N0 :: ((Npos (XI (XI (XO (XO (XO (XI XH))))))) :: []))
+                 | _ -> N0 :: ((Npos (XI (XI (XO (XO (XO (XI XH))))))) :: []))
+              | _ -> N0 :: ((Npos (XI (XI (XO (XO (XO (XI XH))))))) :: []))
            | XO p2 ->
              (match p2 with
               | XI p3 ->
@@ -12266,7 +14288,7 @@ let run_codec f a =
                       N0 :: ((Npos (XI (XI (XO (XO (XO (XI XH))))))) :: []))
                  | _ -> N0 :: ((Npos (XI (XI (XO (XO (XO (XI XH))))))) :: []))
               | XH -> N0 :: ((Npos (XI (XI (XO (XO (XO (XI XH))))))) :: []))
-           | _ -> N0 :: ((Npos (XI (XI (XO (XO (XO (XI XH))))))) :: []))
+           | XH -> N0 :: ((Npos (XI (XI (XO (XO (XO (XI XH))))))) :: []))
         | XO p1 ->
           (match p1 with
            | XI p2 ->
@@ -12310,6 +14332,20 @@ let run_codec f a =
              (match p2 with
               | XI p3 ->
                 (match p3 with
+                 | XI p4 ->
+                   (match p4 with
+                    | XO p5 ->
+                      (match p5 with
+                       | XI p6 ->
+                         (match p6 with
+                          | XH -> run_slab_replay Checked a
+                          | _ ->
+                            N0 :: ((Npos (XI (XI (XO (XO (XO (XI
+                              XH))))))) :: []))
+                       | _ ->
+                         N0 :: ((Npos (XI (XI (XO (XO (XO (XI XH))))))) :: []))
+                    | _ ->
+                      N0 :: ((Npos (XI (XI (XO (XO (XO (XI XH))))))) :: []))
                  | XO p4 ->
                    (match p4 with
                     | XO p5 ->
@@ -12324,7 +14360,7 @@ let run_codec f a =
                          N0 :: ((Npos (XI (XI (XO (XO (XO (XI XH))))))) :: []))
                     | _ ->
                       N0 :: ((Npos (XI (XI (XO (XO (XO (XI XH))))))) :: []))
-                 | _ -> N0 :: ((Npos (XI (XI (XO (XO (XO (XI XH))))))) :: []))
+                 | XH -> N0 :: ((Npos (XI (XI (XO (XO (XO (XI XH))))))) :: []))
               | _ -> N0 :: ((Npos (XI (XI (XO (XO (XO (XI XH))))))) :: []))
            | XH -> N0 :: ((Npos (XI (XI (XO (XO (XO (XI XH))))))) :: []))
         | XH -> N0 :: ((Npos (XI (XI (XO (XO (XO (XI XH))))))) :: []))
@@ -12484,6 +14520,668 @@ let run_codec f a =
         | XH -> N0 :: ((Npos (XI (XI (XO (XO (XO (XI XH))))))) :: []))
      | XH -> N0 :: ((Npos (XI (XI (XO (XO (XO (XI XH))))))) :: []))
 
+(** val enc_t6 : (((((n * n) * n) * n) * n) * n) outcome -> n list **)
+
+let enc_t6 = function
+| Ok a ->
+  let (p, b1) = a in
+  let (p0, a1) = p in
+  let (p1, d1) = p0 in
+  let (p2, b) = p1 in
+  let (d, a0) = p2 in
+  (Npos XH) :: (d :: (a0 :: (b :: (d1 :: (a1 :: (b1 :: []))))))
+| Panic c -> N0 :: ((pcode c) :: [])
+
+(** val t6_of : n list -> ((((n * n) * n) * n) * n) * n **)
+
+let t6_of a =
+  ((((((arg a O), (arg a (S O))), (arg a (S (S O)))), (arg a (S (S (S O))))),
+    (arg a (S (S (S (S O)))))), (arg a (S (S (S (S (S O)))))))
+
+(** val run_tuple : n -> n list -> n list **)
+
+let run_tuple f a =
+  match f with
+  | N0 -> N0 :: ((Npos (XI (XI (XO (XO (XO (XI XH))))))) :: [])
+  | Npos p ->
+    (match p with
+     | XI p0 ->
+       (match p0 with
+        | XI p1 ->
+          (match p1 with
+           | XI p2 ->
+             (match p2 with
+              | XI p3 ->
+                (match p3 with
+                 | XI p4 ->
+                   (match p4 with
+                    | XO p5 ->
+                      (match p5 with
+                       | XI p6 ->
+                         (match p6 with
+                          | XO p7 ->
+                            (match p7 with
+                             | XH ->
+                               enc_t6 (Ok
+                                 (tuple (arg a (S (S O))) (arg a (S O))
+                                   (arg a (S (S (S O)))) (arg a O)))
+                             | _ ->
+                               N0 :: ((Npos (XI (XI (XO (XO (XO (XI
+                                 XH))))))) :: []))
+                          | _ ->
+                            N0 :: ((Npos (XI (XI (XO (XO (XO (XI
+                              XH))))))) :: []))
+                       | _ ->
+                         N0 :: ((Npos (XI (XI (XO (XO (XO (XI XH))))))) :: []))
+                    | _ ->
+                      N0 :: ((Npos (XI (XI (XO (XO (XO (XI XH))))))) :: []))
+                 | XO p4 ->
+                   (match p4 with
+                    | XI p5 ->
+                      (match p5 with
+                       | XO p6 ->
+                         (match p6 with
+                          | XO p7 ->
+                            (match p7 with
+                             | XH -> enc1 (num_ldpc_symbols (arg a O))
+                             | _ ->
+                               N0 :: ((Npos (XI (XI (XO (XO (XO (XI
+                                 XH))))))) :: []))
+                          | _ ->
+                            N0 :: ((Npos (XI (XI (XO (XO (XO (XI
+                              XH))))))) :: []))
+                       | _ ->
+                         N0 :: ((Npos (XI (XI (XO (XO (XO (XI XH))))))) :: []))
+                    | _ ->
+                      N0 :: ((Npos (XI (XI (XO (XO (XO (XI XH))))))) :: []))
+                 | XH -> N0 :: ((Npos (XI (XI (XO (XO (XO (XI XH))))))) :: []))
+              | XO p3 ->
+                (match p3 with
+                 | XI p4 ->
+                   (match p4 with
+                    | XI p5 ->
+                      (match p5 with
+                       | XO p6 ->
+                         (match p6 with
+                          | XO p7 ->
+                            (match p7 with
+                             | XH ->
+                               enc1
+                                 (rand_gen true Checked (arg a O)
+                                   (arg a (S O)) (arg a (S (S O))))
+                             | _ ->
+                               N0 :: ((Npos (XI (XI (XO (XO (XO (XI
+                                 XH))))))) :: []))
+                          | _ ->
+                            N0 :: ((Npos (XI (XI (XO (XO (XO (XI
+                              XH))))))) :: []))
+                       | _ ->
+                         N0 :: ((Npos (XI (XI (XO (XO (XO (XI XH))))))) :: []))
+                    | _ ->
+                      N0 :: ((Npos (XI (XI (XO (XO (XO (XI XH))))))) :: []))
+                 | _ -> N0 :: ((Npos (XI (XI (XO (XO (XO (XI XH))))))) :: []))
+              | XH -> N0 :: ((Npos (XI (XI (XO (XO (XO (XI XH))))))) :: []))
+           | XO p2 ->
+             (match p2 with
+              | XI p3 ->
+                (match p3 with
+                 | XI p4 ->
+                   (match p4 with
+                    | XI p5 ->
+                      (match p5 with
+                       | XO p6 ->
+                         (match p6 with
+                          | XO p7 ->
+                            (match p7 with
+                             | XH ->
+                               enc_t6
+                                 (intermediate_tuple_gen true Checked
+                                   (arg a O) (arg a (S O)) (arg a (S (S O)))
+                                   (arg a (S (S (S O)))))
+                             | _ ->
+                               N0 :: ((Npos (XI (XI (XO (XO (XO (XI
+                                 XH))))))) :: []))
+                          | _ ->
+                            N0 :: ((Npos (XI (XI (XO (XO (XO (XI
+                              XH))))))) :: []))
+                       | _ ->
+                         N0 :: ((Npos (XI (XI (XO (XO (XO (XI XH))))))) :: []))
+                    | _ ->
+                      N0 :: ((Npos (XI (XI (XO (XO (XO (XI XH))))))) :: []))
+                 | _ -> N0 :: ((Npos (XI (XI (XO (XO (XO (XI XH))))))) :: []))
+              | XO p3 ->
+                (match p3 with
+                 | XI p4 ->
+                   (match p4 with
+                    | XI p5 ->
+                      (match p5 with
+                       | XO p6 ->
+                         (match p6 with
+                          | XO p7 ->
+                            (match p7 with
+                             | XH -> enc1 (calculate_p1 (arg a O))
+                             | _ ->
+                               N0 :: ((Npos (XI (XI (XO (XO (XO (XI
+                                 XH))))))) :: []))
+                          | _ ->
+                            N0 :: ((Npos (XI (XI (XO (XO (XO (XI
+                              XH))))))) :: []))
+                       | _ ->
+                         N0 :: ((Npos (XI (XI (XO (XO (XO (XI XH))))))) :: []))
+                    | _ ->
+                      N0 :: ((Npos (XI (XI (XO (XO (XO (XI XH))))))) :: []))
+                 | XO p4 ->
+                   (match p4 with
+                    | XO p5 ->
+                      (match p5 with
+                       | XI p6 ->
+                         (match p6 with
+                          | XO p7 ->
+                            (match p7 with
+                             | XH ->
+                               enc_oti
+                                 (with_defaults true Checked (arg a O)
+                                   (arg a (S O)))
+                             | _ ->
+                               N0 :: ((Npos (XI (XI (XO (XO (XO (XI
+                                 XH))))))) :: []))
+                          | _ ->
+                            N0 :: ((Npos (XI (XI (XO (XO (XO (XI
+                              XH))))))) :: []))
+                       | _ ->
+                         N0 :: ((Npos (XI (XI (XO (XO (XO (XI XH))))))) :: []))
+                    | _ ->
+                      N0 :: ((Npos (XI (XI (XO (XO (XO (XI XH))))))) :: []))
+                 | XH -> N0 :: ((Npos (XI (XI (XO (XO (XO (XI XH))))))) :: []))
+              | XH -> N0 :: ((Npos (XI (XI (XO (XO (XO (XI XH))))))) :: []))
+           | XH -> N0 :: ((Npos (XI (XI (XO (XO (XO (XI XH))))))) :: []))
+        | XO p1 ->
+          (match p1 with
+           | XI p2 ->
+             (match p2 with
+              | XI p3 ->
+                (match p3 with
+                 | XI p4 ->
+                   (match p4 with
+                    | XI p5 ->
+                      (match p5 with
+                       | XO p6 ->
+                         (match p6 with
+                          | XO p7 ->
+                            (match p7 with
+                             | XH ->
+                               encl
+                                 (enc_indices Checked (t6_of a)
+                                   (arg a (S (S (S (S (S (S O)))))))
+                                   (arg a (S (S (S (S (S (S (S O))))))))
+                                   (arg a (S (S (S (S (S (S (S (S O))))))))))
+                             | _ ->
+                               N0 :: ((Npos (XI (XI (XO (XO (XO (XI
+                                 XH))))))) :: []))
+                          | _ ->
+                            N0 :: ((Npos (XI (XI (XO (XO (XO (XI
+                              XH))))))) :: []))
+                       | _ ->
+                         N0 :: ((Npos (XI (XI (XO (XO (XO (XI XH))))))) :: []))
+                    | _ ->
+                      N0 :: ((Npos (XI (XI (XO (XO (XO (XI XH))))))) :: []))
+                 | XO p4 ->
+                   (match p4 with
+                    | XI p5 ->
+                      (match p5 with
+                       | XO p6 ->
+                         (match p6 with
+                          | XO p7 ->
+                            (match p7 with
+                             | XH -> enc1 (systematic_index (arg a O))
+                             | _ ->
+                               N0 :: ((Npos (XI (XI (XO (XO (XO (XI
+                                 XH))))))) :: []))
+                          | _ ->
+                            N0 :: ((Npos (XI (XI (XO (XO (XO (XI
+                              XH))))))) :: []))
+                       | _ ->
+                         N0 :: ((Npos (XI (XI (XO (XO (XO (XI XH))))))) :: []))
+                    | _ ->
+                      N0 :: ((Npos (XI (XI (XO (XO (XO (XI XH))))))) :: []))
+                 | XH -> N0 :: ((Npos (XI (XI (XO (XO (XO (XI XH))))))) :: []))
+              | _ -> N0 :: ((Npos (XI (XI (XO (XO (XO (XI XH))))))) :: []))
+           | XO p2 ->
+             (match p2 with
+              | XI p3 ->
+                (match p3 with
+                 | XI p4 ->
+                   (match p4 with
+                    | XI p5 ->
+                      (match p5 with
+                       | XO p6 ->
+                         (match p6 with
+                          | XO p7 ->
+                            (match p7 with
+                             | XH ->
+                               enc1 (deg0 Checked (arg a O) (arg a (S O)))
+                             | _ ->
+                               N0 :: ((Npos (XI (XI (XO (XO (XO (XI
+                                 XH))))))) :: []))
+                          | _ ->
+                            N0 :: ((Npos (XI (XI (XO (XO (XO (XI
+                              XH))))))) :: []))
+                       | _ ->
+                         N0 :: ((Npos (XI (XI (XO (XO (XO (XI XH))))))) :: []))
+                    | _ ->
+                      N0 :: ((Npos (XI (XI (XO (XO (XO (XI XH))))))) :: []))
+                 | _ -> N0 :: ((Npos (XI (XI (XO (XO (XO (XI XH))))))) :: []))
+              | XO p3 ->
+                (match p3 with
+                 | XI p4 ->
+                   (match p4 with
+                    | XI p5 ->
+                      (match p5 with
+                       | XO p6 ->
+                         (match p6 with
+                          | XO p7 ->
+                            (match p7 with
+                             | XH -> enc1 (num_intermediate_symbols (arg a O))
+                             | _ ->
+                               N0 :: ((Npos (XI (XI (XO (XO (XO (XI
+                                 XH))))))) :: []))
+                          | _ ->
+                            N0 :: ((Npos (XI (XI (XO (XO (XO (XI
+                              XH))))))) :: []))
+                       | _ ->
+                         N0 :: ((Npos (XI (XI (XO (XO (XO (XI XH))))))) :: []))
+                    | _ ->
+                      N0 :: ((Npos (XI (XI (XO (XO (XO (XI XH))))))) :: []))
+                 | XO p4 ->
+                   (match p4 with
+                    | XI p5 ->
+                      (match p5 with
+                       | XI p6 ->
+                         (match p6 with
+                          | XO p7 ->
+                            (match p7 with
+                             | XH ->
+                               (Npos
+                                 XH) :: ((b2n0
+                                           (db (arg a O) (arg a (S O))
+                                             (arg a (S (S O))))) :: (
+                                 (arg a O) :: ((t_of (arg a (S O))) :: (
+                                 (z_of (arg a O) (arg a (S O))
+                                   (arg a (S (S O)))) :: ((n_of (arg a O)
+                                                            (arg a (S O))
+                                                            (arg a (S (S O)))) :: (
+                                 (al_of (arg a (S O))) :: []))))))
+                             | _ ->
+                               N0 :: ((Npos (XI (XI (XO (XO (XO (XI
+                                 XH))))))) :: []))
+                          | _ ->
+                            N0 :: ((Npos (XI (XI (XO (XO (XO (XI
+                              XH))))))) :: []))
+                       | _ ->
+                         N0 :: ((Npos (XI (XI (XO (XO (XO (XI XH))))))) :: []))
+                    | XO p5 ->
+                      (match p5 with
+                       | XI p6 ->
+                         (match p6 with
+                          | XO p7 ->
+                            (match p7 with
+                             | XH ->
+                               enc_oti
+                                 (gen_params true Checked (arg a O)
+                                   (arg a (S O)) (arg a (S (S O))))
+                             | _ ->
+                               N0 :: ((Npos (XI (XI (XO (XO (XO (XI
+                                 XH))))))) :: []))
+                          | _ ->
+                            N0 :: ((Npos (XI (XI (XO (XO (XO (XI
+                              XH))))))) :: []))
+                       | _ ->
+                         N0 :: ((Npos (XI (XI (XO (XO (XO (XI XH))))))) :: []))
+                    | XH ->
+                      N0 :: ((Npos (XI (XI (XO (XO (XO (XI XH))))))) :: []))
+                 | XH -> N0 :: ((Npos (XI (XI (XO (XO (XO (XI XH))))))) :: []))
+              | XH -> N0 :: ((Npos (XI (XI (XO (XO (XO (XI XH))))))) :: []))
+           | XH -> N0 :: ((Npos (XI (XI (XO (XO (XO (XI XH))))))) :: []))
+        | XH -> N0 :: ((Npos (XI (XI (XO (XO (XO (XI XH))))))) :: []))
+     | XO p0 ->
+       (match p0 with
+        | XI p1 ->
+          (match p1 with
+           | XI p2 ->
+             (match p2 with
+              | XI p3 ->
+                (match p3 with
+                 | XI p4 ->
+                   (match p4 with
+                    | XI p5 ->
+                      (match p5 with
+                       | XO p6 ->
+                         (match p6 with
+                          | XO p7 ->
+                            (match p7 with
+                             | XH ->
+                               enc_t6
+                                 (intermediate_tuple_gen false Checked
+                                   (arg a O) (arg a (S O)) (arg a (S (S O)))
+                                   (arg a (S (S (S O)))))
+                             | _ ->
+                               N0 :: ((Npos (XI (XI (XO (XO (XO (XI
+                                 XH))))))) :: []))
+                          | _ ->
+                            N0 :: ((Npos (XI (XI (XO (XO (XO (XI
+                              XH))))))) :: []))
+                       | _ ->
+                         N0 :: ((Npos (XI (XI (XO (XO (XO (XI XH))))))) :: []))
+                    | XO p5 ->
+                      (match p5 with
+                       | XI p6 ->
+                         (match p6 with
+                          | XO p7 ->
+                            (match p7 with
+                             | XH ->
+                               (Npos
+                                 XH) :: ((rand (arg a O) (arg a (S O))
+                                           (arg a (S (S O)))) :: [])
+                             | _ ->
+                               N0 :: ((Npos (XI (XI (XO (XO (XO (XI
+                                 XH))))))) :: []))
+                          | _ ->
+                            N0 :: ((Npos (XI (XI (XO (XO (XO (XI
+                              XH))))))) :: []))
+                       | _ ->
+                         N0 :: ((Npos (XI (XI (XO (XO (XO (XI XH))))))) :: []))
+                    | XH ->
+                      N0 :: ((Npos (XI (XI (XO (XO (XO (XI XH))))))) :: []))
+                 | XO p4 ->
+                   (match p4 with
+                    | XI p5 ->
+                      (match p5 with
+                       | XO p6 ->
+                         (match p6 with
+                          | XO p7 ->
+                            (match p7 with
+                             | XH -> enc1 (num_hdpc_symbols (arg a O))
+                             | _ ->
+                               N0 :: ((Npos (XI (XI (XO (XO (XO (XI
+                                 XH))))))) :: []))
+                          | _ ->
+                            N0 :: ((Npos (XI (XI (XO (XO (XO (XI
+                              XH))))))) :: []))
+                       | _ ->
+                         N0 :: ((Npos (XI (XI (XO (XO (XO (XI XH))))))) :: []))
+                    | _ ->
+                      N0 :: ((Npos (XI (XI (XO (XO (XO (XI XH))))))) :: []))
+                 | XH -> N0 :: ((Npos (XI (XI (XO (XO (XO (XI XH))))))) :: []))
+              | XO p3 ->
+                (match p3 with
+                 | XI p4 ->
+                   (match p4 with
+                    | XI p5 ->
+                      (match p5 with
+                       | XO p6 ->
+                         (match p6 with
+                          | XO p7 ->
+                            (match p7 with
+                             | XH ->
+                               enc1
+                                 (rand_gen true Release (arg a O)
+                                   (arg a (S O)) (arg a (S (S O))))
+                             | _ ->
+                               N0 :: ((Npos (XI (XI (XO (XO (XO (XI
+                                 XH))))))) :: []))
+                          | _ ->
+                            N0 :: ((Npos (XI (XI (XO (XO (XO (XI
+                              XH))))))) :: []))
+                       | _ ->
+                         N0 :: ((Npos (XI (XI (XO (XO (XO (XI XH))))))) :: []))
+                    | _ ->
+                      N0 :: ((Npos (XI (XI (XO (XO (XO (XI XH))))))) :: []))
+                 | _ -> N0 :: ((Npos (XI (XI (XO (XO (XO (XI XH))))))) :: []))
+              | XH -> N0 :: ((Npos (XI (XI (XO (XO (XO (XI XH))))))) :: []))
+           | XO p2 ->
+             (match p2 with
+              | XI p3 ->
+                (match p3 with
+                 | XI p4 ->
+                   (match p4 with
+                    | XI p5 ->
+                      (match p5 with
+                       | XO p6 ->
+                         (match p6 with
+                          | XO p7 ->
+                            (match p7 with
+                             | XH ->
+                               enc_t6
+                                 (intermediate_tuple_gen true Release
+                                   (arg a O) (arg a (S O)) (arg a (S (S O)))
+                                   (arg a (S (S (S O)))))
+                             | _ ->
+                               N0 :: ((Npos (XI (XI (XO (XO (XO (XI
+                                 XH))))))) :: []))
+                          | _ ->
+                            N0 :: ((Npos (XI (XI (XO (XO (XO (XI
+                              XH))))))) :: []))
+                       | _ ->
+                         N0 :: ((Npos (XI (XI (XO (XO (XO (XI XH))))))) :: []))
+                    | _ ->
+                      N0 :: ((Npos (XI (XI (XO (XO (XO (XI XH))))))) :: []))
+                 | _ -> N0 :: ((Npos (XI (XI (XO (XO (XO (XI XH))))))) :: []))
+              | XO p3 ->
+                (match p3 with
+                 | XI p4 ->
+                   (match p4 with
+                    | XI p5 ->
+                      (match p5 with
+                       | XO p6 ->
+                         (match p6 with
+                          | XO p7 ->
+                            (match p7 with
+                             | XH -> enc1 (num_pi_symbols (arg a O))
+                             | _ ->
+                               N0 :: ((Npos (XI (XI (XO (XO (XO (XI
+                                 XH))))))) :: []))
+                          | _ ->
+                            N0 :: ((Npos (XI (XI (XO (XO (XO (XI
+                              XH))))))) :: []))
+                       | _ ->
+                         N0 :: ((Npos (XI (XI (XO (XO (XO (XI XH))))))) :: []))
+                    | _ ->
+                      N0 :: ((Npos (XI (XI (XO (XO (XO (XI XH))))))) :: []))
+                 | XO p4 ->
+                   (match p4 with
+                    | XO p5 ->
+                      (match p5 with
+                       | XI p6 ->
+                         (match p6 with
+                          | XO p7 ->
+                            (match p7 with
+                             | XH ->
+                               enc_oti
+                                 (with_defaults true Release (arg a O)
+                                   (arg a (S O)))
+                             | _ ->
+                               N0 :: ((Npos (XI (XI (XO (XO (XO (XI
+                                 XH))))))) :: []))
+                          | _ ->
+                            N0 :: ((Npos (XI (XI (XO (XO (XO (XI
+                              XH))))))) :: []))
+                       | _ ->
+                         N0 :: ((Npos (XI (XI (XO (XO (XO (XI XH))))))) :: []))
+                    | _ ->
+                      N0 :: ((Npos (XI (XI (XO (XO (XO (XI XH))))))) :: []))
+                 | XH -> N0 :: ((Npos (XI (XI (XO (XO (XO (XI XH))))))) :: []))
+              | XH -> N0 :: ((Npos (XI (XI (XO (XO (XO (XI XH))))))) :: []))
+           | XH -> N0 :: ((Npos (XI (XI (XO (XO (XO (XI XH))))))) :: []))
+        | XO p1 ->
+          (match p1 with
+           | XI p2 ->
+             (match p2 with
+              | XI p3 ->
+                (match p3 with
+                 | XI p4 ->
+                   (match p4 with
+                    | XI p5 ->
+                      (match p5 with
+                       | XO p6 ->
+                         (match p6 with
+                          | XO p7 ->
+                            (match p7 with
+                             | XH ->
+                               encl
+                                 (enc_indices Release (t6_of a)
+                                   (arg a (S (S (S (S (S (S O)))))))
+                                   (arg a (S (S (S (S (S (S (S O))))))))
+                                   (arg a (S (S (S (S (S (S (S (S O))))))))))
+                             | _ ->
+                               N0 :: ((Npos (XI (XI (XO (XO (XO (XI
+                                 XH))))))) :: []))
+                          | _ ->
+                            N0 :: ((Npos (XI (XI (XO (XO (XO (XI
+                              XH))))))) :: []))
+                       | _ ->
+                         N0 :: ((Npos (XI (XI (XO (XO (XO (XI XH))))))) :: []))
+                    | _ ->
+                      N0 :: ((Npos (XI (XI (XO (XO (XO (XI XH))))))) :: []))
+                 | XO p4 ->
+                   (match p4 with
+                    | XI p5 ->
+                      (match p5 with
+                       | XO p6 ->
+                         (match p6 with
+                          | XO p7 ->
+                            (match p7 with
+                             | XH ->
+                               enc1 (extended_source_block_symbols (arg a O))
+                             | _ ->
+                               N0 :: ((Npos (XI (XI (XO (XO (XO (XI
+                                 XH))))))) :: []))
+                          | _ ->
+                            N0 :: ((Npos (XI (XI (XO (XO (XO (XI
+                              XH))))))) :: []))
+                       | _ ->
+                         N0 :: ((Npos (XI (XI (XO (XO (XO (XI XH))))))) :: []))
+                    | _ ->
+                      N0 :: ((Npos (XI (XI (XO (XO (XO (XI XH))))))) :: []))
+                 | XH -> N0 :: ((Npos (XI (XI (XO (XO (XO (XI XH))))))) :: []))
+              | XO p3 ->
+                (match p3 with
+                 | XO p4 ->
+                   (match p4 with
+                    | XO p5 ->
+                      (match p5 with
+                       | XI p6 ->
+                         (match p6 with
+                          | XO p7 ->
+                            (match p7 with
+                             | XH ->
+                               enc_oti
+                                 (gen_params false Release (arg a O)
+                                   (arg a (S O)) (arg a (S (S O))))
+                             | _ ->
+                               N0 :: ((Npos (XI (XI (XO (XO (XO (XI
+                                 XH))))))) :: []))
+                          | _ ->
+                            N0 :: ((Npos (XI (XI (XO (XO (XO (XI
+                              XH))))))) :: []))
+                       | _ ->
+                         N0 :: ((Npos (XI (XI (XO (XO (XO (XI XH))))))) :: []))
+                    | _ ->
+                      N0 :: ((Npos (XI (XI (XO (XO (XO (XI XH))))))) :: []))
+                 | _ -> N0 :: ((Npos (XI (XI (XO (XO (XO (XI XH))))))) :: []))
+              | XH -> N0 :: ((Npos (XI (XI (XO (XO (XO (XI XH))))))) :: []))
+           | XO p2 ->
+             (match p2 with
+              | XI p3 ->
+                (match p3 with
+                 | XI p4 ->
+                   (match p4 with
+                    | XI p5 ->
+                      (match p5 with
+                       | XO p6 ->
+                         (match p6 with
+                          | XO p7 ->
+                            (match p7 with
+                             | XH ->
+                               enc1 (deg0 Release (arg a O) (arg a (S O)))
+                             | _ ->
+                               N0 :: ((Npos (XI (XI (XO (XO (XO (XI
+                                 XH))))))) :: []))
+                          | _ ->
+                            N0 :: ((Npos (XI (XI (XO (XO (XO (XI
+                              XH))))))) :: []))
+                       | _ ->
+                         N0 :: ((Npos (XI (XI (XO (XO (XO (XI XH))))))) :: []))
+                    | _ ->
+                      N0 :: ((Npos (XI (XI (XO (XO (XO (XI XH))))))) :: []))
+                 | _ -> N0 :: ((Npos (XI (XI (XO (XO (XO (XI XH))))))) :: []))
+              | XO p3 ->
+                (match p3 with
+                 | XI p4 ->
+                   (match p4 with
+                    | XI p5 ->
+                      (match p5 with
+                       | XO p6 ->
+                         (match p6 with
+                          | XO p7 ->
+                            (match p7 with
+                             | XH -> enc1 (num_lt_symbols (arg a O))
+                             | _ ->
+                               N0 :: ((Npos (XI (XI (XO (XO (XO (XI
+                                 XH))))))) :: []))
+                          | _ ->
+                            N0 :: ((Npos (XI (XI (XO (XO (XO (XI
+                              XH))))))) :: []))
+                       | _ ->
+                         N0 :: ((Npos (XI (XI (XO (XO (XO (XI XH))))))) :: []))
+                    | _ ->
+                      N0 :: ((Npos (XI (XI (XO (XO (XO (XI XH))))))) :: []))
+                 | XO p4 ->
+                   (match p4 with
+                    | XI p5 ->
+                      (match p5 with
+                       | XI p6 ->
+                         (match p6 with
+                          | XO p7 ->
+                            (match p7 with
+                             | XH ->
+                               (Npos
+                                 XH) :: ((if is_prime (arg a O)
+                                          then Npos XH
+                                          else N0) :: [])
+                             | _ ->
+                               N0 :: ((Npos (XI (XI (XO (XO (XO (XI
+                                 XH))))))) :: []))
+                          | _ ->
+                            N0 :: ((Npos (XI (XI (XO (XO (XO (XI
+                              XH))))))) :: []))
+                       | _ ->
+                         N0 :: ((Npos (XI (XI (XO (XO (XO (XI XH))))))) :: []))
+                    | XO p5 ->
+                      (match p5 with
+                       | XI p6 ->
+                         (match p6 with
+                          | XO p7 ->
+                            (match p7 with
+                             | XH ->
+                               enc_oti
+                                 (gen_params true Release (arg a O)
+                                   (arg a (S O)) (arg a (S (S O))))
+                             | _ ->
+                               N0 :: ((Npos (XI (XI (XO (XO (XO (XI
+                                 XH))))))) :: []))
+                          | _ ->
+                            N0 :: ((Npos (XI (XI (XO (XO (XO (XI
+                              XH))))))) :: []))
+                       | _ ->
+                         N0 :: ((Npos (XI (XI (XO (XO (XO (XI XH))))))) :: []))
+                    | XH ->
+                      N0 :: ((Npos (XI (XI (XO (XO (XO (XI XH))))))) :: []))
+                 | XH -> N0 :: ((Npos (XI (XI (XO (XO (XO (XI XH))))))) :: []))
+              | XH -> N0 :: ((Npos (XI (XI (XO (XO (XO (XI XH))))))) :: []))
+           | XH -> N0 :: ((Npos (XI (XI (XO (XO (XO (XI XH))))))) :: []))
+        | XH -> N0 :: ((Npos (XI (XI (XO (XO (XO (XI XH))))))) :: []))
+     | XH -> N0 :: ((Npos (XI (XI (XO (XO (XO (XI XH))))))) :: []))
+
 (** val run : n -> n list -> n list **)
 
 let run f a =
@@ -12493,4 +15191,10 @@ let run f a =
        then run_wire f a
        else if N.ltb f (Npos (XO (XO (XI (XI (XO (XI (XO (XO XH)))))))))
             then run_codec f a
-            else N0 :: ((Npos (XI (XI (XO (XO (XO (XI XH))))))) :: [])
+            else if N.ltb f (Npos (XO (XO (XO (XO (XI (XO (XO (XI XH)))))))))
+                 then run_tuple f a
+                 else if N.ltb f (Npos (XO (XO (XI (XO (XI (XI (XI (XI
+                           XH)))))))))
+                      then run_kern f a
+                      else N0 :: ((Npos (XI (XI (XO (XO (XO (XI
+                             XH))))))) :: [])
